@@ -16,1908 +16,1459 @@ Definition terms (ts : list tok) (t : pt) : string :=
   digest (show_toks (Some ts)) ++ " " ++ digest (show_pt (Some t)) ++ " " ++ digest (show_pt (parse ts)).
 Definition terms_full (ts : list tok) (t : pt) : string :=
   show_toks (Some ts) ++ nl ++ show_pt (Some t) ++ nl ++ show_pt (parse ts).
-Eval vm_compute in ("<<<M29>>>" ++ check (runes_of_ascii "packet
-tag { repeat
-    //
-    T MetaDataX
-    , @calculatedFrom(
-//
-/// triple
-""`tick`""  ) @tag( 007 ) leftPad `tab	here` , @tag( 0123456789  )
-char x , @tag(0 ) u64 tag
-    ,
-i8 roots
-    // a // b
-    ,
-    @lengthOf(
-float ) @tag( 10 )
-// c
-// `tick` ""quote"" 'q'
-body { chars
-{repeat int8  body , }  , repeat Header {char[]
-    leftPad	, },	match  Logon as zchar  { 4294967296 :
-    len , ""a\""b"":A //
-00
-: x_y_z,
-} , repeat i16	options1
-, }
-    , @calculatedFrom( """ ++ [128512]%N ++ runes_of_ascii """)@rightPad ( '0'
-) i16 Pad , //
-int64
-    As @lengthOf(
-crc ) , } MetaData x_y_z {u crc
-, } root packet
-Z9_{ @calculatedFrom( ""{,}"" ) tag, @lengthOf( lengthOf ) zchar[  42 ] crc //x
-`" ++ [233]%N ++ runes_of_ascii "`
-// a // b
-// @lengthOf(
-, char[ 007 ] options1 ,
-}packet
-    // `tick` ""quote"" 'q'
-    x {char	trueish
-    ,	char[] packetx @calculatedFrom(""" ++ [28040; 24687]%N ++ runes_of_ascii """)
-    `line1
-line2` ,  zchar[
-1
-    ]
-    Foo // " ++ [128512]%N ++ runes_of_ascii " emoji
-, zchar[ 00 ]
-A , match msg_type as tag { """" : leftPad , [ """ ++ [128512]%N ++ runes_of_ascii """ ,
-    0 ,10
-    ,  3//	t
-] :
-Z9_,  ""it's"":	float , 10 : calculatedFrom ""x y"" // @lengthOf(
-:
-    f32a
-    007	: roots
-    , } // `tick` ""quote"" 'q'
-,} packet
-    u{ // trailing space 
-@calculatedFrom( ""\n"" ) @calculatedFrom( ""a\""b"" )	i64_
-rootA , match // @lengthOf(
-x as Logon {
-    1
-:
-    body,
-""a\\"" /// triple
-: _x ""packet"" : BodyLength,
-},
-    //x
-    @rightPad ( '\x00'//x
-) @calculatedFrom( """ ++ [128512]%N ++ runes_of_ascii """ )	repeat stringy { match
-//x
-// packet A { u8 x, }
-T as float { ""a\\"" : len
-    0:
-BodyLength , [ ""it's""
-, ""{,}"" , 255 // a // b
-, 0123456789, ""a\\"" ] :
-    Logon, 3:rootA
-    // " ++ [27880; 37322]%N ++ runes_of_ascii "
-    ,
-    }
-//
-// packet A { u8 x, }
-,
-} ,//
-u16 uint8x `{ , }`,
-// trailing space 
-//x
-@leftPad
-    // a // b
-    (
-'0' )  string i64_@lengthOf(  stringy  ),
-// `tick` ""quote"" 'q'
-// @lengthOf(
-u64 leftPad@calculatedFrom( // " ++ [27880; 37322]%N ++ runes_of_ascii "
-""a	b"" ) , repeat // @lengthOf(
-Header MetaDataX `a\`
-, @lengthOf(stringy
-    )	Packet
-leftPad , @tag( 00 ) repeat zchar _x `tab	here` , i32	matchKey , }
-")).
-Eval vm_compute in ("<<<M61>>>" ++ check (runes_of_ascii "// packet A { u8 x, }
-")).
-Eval vm_compute in ("<<<M93>>>" ++ check (runes_of_ascii "//	t
-packet
-packetx { zchar , @lengthOf( x_y_z )o ,
-}
-    packet  Packet // " ++ [128512]%N ++ runes_of_ascii " emoji
-{ match u128 as // a // b
-Header{ [
-    7
-    ,""1""
-]: u
-    , ""x y"" :
-charz 0123456789 : calculatedFrom
-//	t
-//x
-} ,// " ++ [27880; 37322]%N ++ runes_of_ascii "
-repeat  roots
-tag
-    ,}")).
-Eval vm_compute in ("<<<M125>>>" ++ check (runes_of_ascii "root packet // c
-falsey { roots { repeat x_y_z ,
-} , char[] T `
-` , char[	3 ]T/// triple
-,zchar { repeat
-zchar[ 65535 ]
-    rootA  `tab	here`
-    , int32 leftPad , }
-,
-// packet A { u8 x, }
-// `tick` ""quote"" 'q'
-repeat
-    Packet
-    //	t
-    ,repeat
-char[ 00 ] body`" ++ [233]%N ++ runes_of_ascii "` , @tag(
-00// @lengthOf(
-) a1 i64_
-, i8i8 BodyLength `{ , }`
-    , match
-    crc as u8x
-// a // b
-//	t
-{ [
-    // `tick` ""quote"" 'q'
-    0 ]:
-    matchKey , [ 0123456789,
-""a\\""
-,
-""abc"" ]:As , """ ++ [128512]%N ++ runes_of_ascii """ : tag, 7 :
-    u8x , 42 : f32a 00 :options1 } // trailing space 
-,} packet// " ++ [27880; 37322]%N ++ runes_of_ascii "
-MetaDataX{@tag( 42)@leftPad ( ) @leftPad
-    //x
-    ( )  body i64_ , } packet int{ @calculatedFrom(
-// " ++ [27880; 37322]%N ++ runes_of_ascii "
-//
-""" ++ [233]%N ++ runes_of_ascii "t" ++ [233]%N ++ runes_of_ascii """)
-@tag(42 ) @leftPad	( '\x00' ) repeat u8x ,  repeat len , @tag(	255	)match calculatedFrom as Z9_ {  ""CRC32"" :	len,""packet"" : falsey, [65535,
-42//x
-]// @lengthOf(
-: charz ,
-} // @lengthOf(
-,i8i8 ,match
-i8i8
-    as Foo // trailing space 
-{ ""a\\"" : x , } , @leftPad
-( ) char crc `say ""hi""` ,
-} options {	Pad =
-    zchar[ // trailing space 
-0
-]; pack="""" // c
-;
-    } root
-    packet lengthOf
-{ @leftPad ('0' ) A
-    // trailing space 
-    @calculatedFrom(
-// " ++ [27880; 37322]%N ++ runes_of_ascii "
-//
-""\" ++ [233]%N ++ runes_of_ascii """),@calculatedFrom( ""abc""// c
-)  repeat// c
-char[] a1 ,repeat int  trueish  , @rightPad(
-    '\x00'
-    )// a // b
-zchar[4294967296 ] _x ,repeat
-stringy //
-x	,@tag( 00  ) @lengthOf( int )  @tag( 0) u8	T	,
-@tag(1 ) @lengthOf(
-a1 ) @calculatedFrom( ""it's"" ) char[ 10 ] body ,  @lengthOf( f32a )
-    rootA
-@calculatedFrom(""{,}"" ), // " ++ [128512]%N ++ runes_of_ascii " emoji
-} 	 ")).
-Eval vm_compute in ("<<<T125>>>" ++ terms [mkTok 34 "root" 1 0 false; mkTok 35 "packet" 1 5 false; mkTok 44 "// c" 1 12 true; mkTok 42 "falsey" 2 0 false; mkTok 2 "{" 2 7 false; mkTok 42 "roots" 2 9 false; mkTok 2 "{" 2 15 false; mkTok 36 "repeat" 2 17 false; mkTok 42 "x_y_z" 2 24 false; mkTok 40 "," 2 30 false; mkTok 3 "}" 3 0 false; mkTok 40 "," 3 2 false; mkTok 16 "char[]" 3 4 false; mkTok 42 "T" 3 11 false; mkTok 43 (string_of_bytes [96; 10; 96]%N) 3 13 false; mkTok 40 "," 4 2 false; mkTok 12 "char[" 4 4 false; mkTok 30 "3" 4 10 false; mkTok 13 "]" 4 12 false; mkTok 42 "T" 4 13 false; mkTok 44 "/// triple" 4 14 true; mkTok 40 "," 5 0 false; mkTok 42 "zchar" 5 1 false; mkTok 2 "{" 5 7 false; mkTok 36 "repeat" 5 9 false; mkTok 14 "zchar[" 6 0 false; mkTok 30 "65535" 6 7 false; mkTok 13 "]" 6 13 false; mkTok 42 "rootA" 7 4 false; mkTok 43 (string_of_bytes [96; 116; 97; 98; 9; 104; 101; 114; 101; 96]%N) 7 11 false; mkTok 40 "," 8 4 false; mkTok 26 "int32" 8 6 false; mkTok 42 "leftPad" 8 12 false; mkTok 40 "," 8 20 false; mkTok 3 "}" 8 22 false; mkTok 40 "," 9 0 false; mkTok 44 "// packet A { u8 x, }" 10 0 true; mkTok 44 "// `tick` ""quote"" 'q'" 11 0 true; mkTok 36 "repeat" 12 0 false; mkTok 42 "Packet" 13 4 false; mkTok 44 (string_of_bytes [47; 47; 9; 116]%N) 14 4 true; mkTok 40 "," 15 4 false; mkTok 36 "repeat" 15 5 false; mkTok 12 "char[" 16 0 false; mkTok 30 "00" 16 6 false; mkTok 13 "]" 16 9 false; mkTok 42 "body" 16 11 false; mkTok 43 (string_of_bytes [96; 195; 169; 96]%N) 16 15 false; mkTok 40 "," 16 19 false; mkTok 9 "@tag(" 16 21 false; mkTok 30 "00" 17 0 false; mkTok 44 "// @lengthOf(" 17 2 true; mkTok 6 ")" 18 0 false; mkTok 42 "a1" 18 2 false; mkTok 42 "i64_" 18 5 false; mkTok 40 "," 19 0 false; mkTok 42 "i8i8" 19 2 false; mkTok 42 "BodyLength" 19 7 false; mkTok 43 "`{ , }`" 19 18 false; mkTok 40 "," 20 4 false; mkTok 38 "match" 20 6 false; mkTok 42 "crc" 21 4 false; mkTok 17 "as" 21 8 false; mkTok 42 "u8x" 21 11 false; mkTok 44 "// a // b" 22 0 true; mkTok 44 (string_of_bytes [47; 47; 9; 116]%N) 23 0 true; mkTok 2 "{" 24 0 false; mkTok 18 "[" 24 2 false; mkTok 44 "// `tick` ""quote"" 'q'" 25 4 true; mkTok 30 "0" 26 4 false; mkTok 13 "]" 26 6 false; mkTok 39 ":" 26 7 false; mkTok 42 "matchKey" 27 4 false; mkTok 40 "," 27 13 false; mkTok 18 "[" 27 15 false; mkTok 30 "0123456789" 27 17 false; mkTok 40 "," 27 27 false; mkTok 31 """a\\""" 28 0 false; mkTok 40 "," 29 0 false; mkTok 31 """abc""" 30 0 false; mkTok 13 "]" 30 6 false; mkTok 39 ":" 30 7 false; mkTok 42 "As" 30 8 false; mkTok 40 "," 30 11 false; mkTok 31 (string_of_bytes [34; 240; 159; 152; 128; 34]%N) 30 13 false; mkTok 39 ":" 30 17 false; mkTok 42 "tag" 30 19 false; mkTok 40 "," 30 22 false; mkTok 30 "7" 30 24 false; mkTok 39 ":" 30 26 false; mkTok 42 "u8x" 31 4 false; mkTok 40 "," 31 8 false; mkTok 30 "42" 31 10 false; mkTok 39 ":" 31 13 false; mkTok 42 "f32a" 31 15 false; mkTok 30 "00" 31 20 false; mkTok 39 ":" 31 23 false; mkTok 42 "options1" 31 24 false; mkTok 3 "}" 31 33 false; mkTok 44 "// trailing space " 31 35 true; mkTok 40 "," 32 0 false; mkTok 3 "}" 32 1 false; mkTok 35 "packet" 32 3 false; mkTok 44 (string_of_bytes [47; 47; 32; 230; 179; 168; 233; 135; 138]%N) 32 9 true; mkTok 42 "MetaDataX" 33 0 false; mkTok 2 "{" 33 9 false; mkTok 9 "@tag(" 33 10 false; mkTok 30 "42" 33 16 false; mkTok 6 ")" 33 18 false; mkTok 32 "@leftPad" 33 19 false; mkTok 8 "(" 33 28 false; mkTok 6 ")" 33 30 false; mkTok 32 "@leftPad" 33 32 false; mkTok 44 "//x" 34 4 true; mkTok 8 "(" 35 4 false; mkTok 6 ")" 35 6 false; mkTok 42 "body" 35 9 false; mkTok 42 "i64_" 35 14 false; mkTok 40 "," 35 19 false; mkTok 3 "}" 35 21 false; mkTok 35 "packet" 35 23 false; mkTok 42 "int" 35 30 false; mkTok 2 "{" 35 33 false; mkTok 5 "@calculatedFrom(" 35 35 false; mkTok 44 (string_of_bytes [47; 47; 32; 230; 179; 168; 233; 135; 138]%N) 36 0 true; mkTok 44 "//" 37 0 true; mkTok 31 (string_of_bytes [34; 195; 169; 116; 195; 169; 34]%N) 38 0 false; mkTok 6 ")" 38 5 false; mkTok 9 "@tag(" 39 0 false; mkTok 30 "42" 39 5 false; mkTok 6 ")" 39 8 false; mkTok 32 "@leftPad" 39 10 false; mkTok 8 "(" 39 19 false; mkTok 33 "'\x00'" 39 21 false; mkTok 6 ")" 39 28 false; mkTok 36 "repeat" 39 30 false; mkTok 42 "u8x" 39 37 false; mkTok 40 "," 39 41 false; mkTok 36 "repeat" 39 44 false; mkTok 42 "len" 39 51 false; mkTok 40 "," 39 55 false; mkTok 9 "@tag(" 39 57 false; mkTok 30 "255" 39 63 false; mkTok 6 ")" 39 67 false; mkTok 38 "match" 39 68 false; mkTok 42 "calculatedFrom" 39 74 false; mkTok 17 "as" 39 89 false; mkTok 42 "Z9_" 39 92 false; mkTok 2 "{" 39 96 false; mkTok 31 """CRC32""" 39 99 false; mkTok 39 ":" 39 107 false; mkTok 42 "len" 39 109 false; mkTok 40 "," 39 112 false; mkTok 31 """packet""" 39 113 false; mkTok 39 ":" 39 122 false; mkTok 42 "falsey" 39 124 false; mkTok 40 "," 39 130 false; mkTok 18 "[" 39 132 false; mkTok 30 "65535" 39 133 false; mkTok 40 "," 39 138 false; mkTok 30 "42" 40 0 false; mkTok 44 "//x" 40 2 true; mkTok 13 "]" 41 0 false; mkTok 44 "// @lengthOf(" 41 1 true; mkTok 39 ":" 42 0 false; mkTok 42 "charz" 42 2 false; mkTok 40 "," 42 8 false; mkTok 3 "}" 43 0 false; mkTok 44 "// @lengthOf(" 43 2 true; mkTok 40 "," 44 0 false; mkTok 42 "i8i8" 44 1 false; mkTok 40 "," 44 6 false; mkTok 38 "match" 44 7 false; mkTok 42 "i8i8" 45 0 false; mkTok 17 "as" 46 4 false; mkTok 42 "Foo" 46 7 false; mkTok 44 "// trailing space " 46 11 true; mkTok 2 "{" 47 0 false; mkTok 31 """a\\""" 47 2 false; mkTok 39 ":" 47 8 false; mkTok 42 "x" 47 10 false; mkTok 40 "," 47 12 false; mkTok 3 "}" 47 14 false; mkTok 40 "," 47 16 false; mkTok 32 "@leftPad" 47 18 false; mkTok 8 "(" 48 0 false; mkTok 6 ")" 48 2 false; mkTok 19 "char" 48 4 false; mkTok 42 "crc" 48 9 false; mkTok 43 "`say ""hi""`" 48 13 false; mkTok 40 "," 48 24 false; mkTok 3 "}" 49 0 false; mkTok 1 "options" 49 2 false; mkTok 2 "{" 49 10 false; mkTok 42 "Pad" 49 12 false; mkTok 4 "=" 49 16 false; mkTok 14 "zchar[" 50 4 false; mkTok 44 "// trailing space " 50 11 true; mkTok 30 "0" 51 0 false; mkTok 13 "]" 52 0 false; mkTok 41 ";" 52 1 false; mkTok 42 "pack" 52 3 false; mkTok 4 "=" 52 7 false; mkTok 31 """""" 52 8 false; mkTok 44 "// c" 52 11 true; mkTok 41 ";" 53 0 false; mkTok 3 "}" 54 4 false; mkTok 34 "root" 54 6 false; mkTok 35 "packet" 55 4 false; mkTok 42 "lengthOf" 55 11 false; mkTok 2 "{" 56 0 false; mkTok 32 "@leftPad" 56 2 false; mkTok 8 "(" 56 11 false; mkTok 33 "'0'" 56 12 false; mkTok 6 ")" 56 16 false; mkTok 42 "A" 56 18 false; mkTok 44 "// trailing space " 57 4 true; mkTok 5 "@calculatedFrom(" 58 4 false; mkTok 44 (string_of_bytes [47; 47; 32; 230; 179; 168; 233; 135; 138]%N) 59 0 true; mkTok 44 "//" 60 0 true; mkTok 31 (string_of_bytes [34; 92; 195; 169; 34]%N) 61 0 false; mkTok 6 ")" 61 4 false; mkTok 40 "," 61 5 false; mkTok 5 "@calculatedFrom(" 61 6 false; mkTok 31 """abc""" 61 23 false; mkTok 44 "// c" 61 28 true; mkTok 6 ")" 62 0 false; mkTok 36 "repeat" 62 3 false; mkTok 44 "// c" 62 9 true; mkTok 16 "char[]" 63 0 false; mkTok 42 "a1" 63 7 false; mkTok 40 "," 63 10 false; mkTok 36 "repeat" 63 11 false; mkTok 42 "int" 63 18 false; mkTok 42 "trueish" 63 23 false; mkTok 40 "," 63 32 false; mkTok 32 "@rightPad" 63 34 false; mkTok 8 "(" 63 43 false; mkTok 33 "'\x00'" 64 4 false; mkTok 6 ")" 65 4 false; mkTok 44 "// a // b" 65 5 true; mkTok 14 "zchar[" 66 0 false; mkTok 30 "4294967296" 66 6 false; mkTok 13 "]" 66 17 false; mkTok 42 "_x" 66 19 false; mkTok 40 "," 66 22 false; mkTok 36 "repeat" 66 23 false; mkTok 42 "stringy" 67 0 false; mkTok 44 "//" 67 8 true; mkTok 42 "x" 68 0 false; mkTok 40 "," 68 2 false; mkTok 9 "@tag(" 68 3 false; mkTok 30 "00" 68 9 false; mkTok 6 ")" 68 13 false; mkTok 7 "@lengthOf(" 68 15 false; mkTok 42 "int" 68 26 false; mkTok 6 ")" 68 30 false; mkTok 9 "@tag(" 68 33 false; mkTok 30 "0" 68 39 false; mkTok 6 ")" 68 40 false; mkTok 20 "u8" 68 42 false; mkTok 42 "T" 68 45 false; mkTok 40 "," 68 47 false; mkTok 9 "@tag(" 69 0 false; mkTok 30 "1" 69 5 false; mkTok 6 ")" 69 7 false; mkTok 7 "@lengthOf(" 69 9 false; mkTok 42 "a1" 70 0 false; mkTok 6 ")" 70 3 false; mkTok 5 "@calculatedFrom(" 70 5 false; mkTok 31 """it's""" 70 22 false; mkTok 6 ")" 70 29 false; mkTok 12 "char[" 70 31 false; mkTok 30 "10" 70 37 false; mkTok 13 "]" 70 40 false; mkTok 42 "body" 70 42 false; mkTok 40 "," 70 47 false; mkTok 7 "@lengthOf(" 70 50 false; mkTok 42 "f32a" 70 61 false; mkTok 6 ")" 70 66 false; mkTok 42 "rootA" 71 4 false; mkTok 5 "@calculatedFrom(" 72 0 false; mkTok 31 """{,}""" 72 16 false; mkTok 6 ")" 72 22 false; mkTok 40 "," 72 23 false; mkTok 44 (string_of_bytes [47; 47; 32; 240; 159; 152; 128; 32; 101; 109; 111; 106; 105]%N) 72 25 true; mkTok 3 "}" 73 0 false; mkTok 0 "<EOF>" 73 4 false] (mkPacket (mkPtok 34 "root" 1 0 0) (Some (mkPtok 3 "}" 73 0 286)) [(DPacket (mkPacketDef (mkSpan (mkPtok 34 "root" 1 0 0) (mkPtok 3 "}" 32 1 101)) (Some (mkPtok 34 "root" 1 0 0)) (mkPtok 35 "packet" 1 5 1) (mkPtok 42 "falsey" 2 0 3) (mkPtok 2 "{" 2 7 4) [(mkFieldWithAttr (mkSpan (mkPtok 42 "roots" 2 9 5) (mkPtok 40 "," 3 2 11)) [] (InerObjectField (mkSpan (mkPtok 42 "roots" 2 9 5) (mkPtok 40 "," 3 2 11)) None (InerObjectDecl (mkSpan (mkPtok 42 "roots" 2 9 5) (mkPtok 3 "}" 3 0 10)) (mkPtok 42 "roots" 2 9 5) (mkPtok 2 "{" 2 15 6) [(ObjectField (mkSpan (mkPtok 36 "repeat" 2 17 7) (mkPtok 40 "," 2 30 9)) (Some (mkPtok 36 "repeat" 2 17 7)) (mkPtok 42 "x_y_z" 2 24 8) None None (mkPtok 40 "," 2 30 9))] (mkPtok 3 "}" 3 0 10)) (mkPtok 40 "," 3 2 11))); (mkFieldWithAttr (mkSpan (mkPtok 16 "char[]" 3 4 12) (mkPtok 40 "," 4 2 15)) [] (MetaField (mkSpan (mkPtok 16 "char[]" 3 4 12) (mkPtok 40 "," 4 2 15)) None (mkMetaDecl (mkSpan (mkPtok 16 "char[]" 3 4 12) (mkPtok 40 "," 4 2 15)) (TyDynamic (mkSpan (mkPtok 16 "char[]" 3 4 12) (mkPtok 16 "char[]" 3 4 12)) (mkDynamicString (mkSpan (mkPtok 16 "char[]" 3 4 12) (mkPtok 16 "char[]" 3 4 12)) (mkPtok 16 "char[]" 3 4 12))) (mkPtok 42 "T" 3 11 13) (Some (mkPtok 43 (string_of_bytes [96; 10; 96]%N) 3 13 14)) (mkPtok 40 "," 4 2 15)))); (mkFieldWithAttr (mkSpan (mkPtok 12 "char[" 4 4 16) (mkPtok 40 "," 5 0 21)) [] (MetaField (mkSpan (mkPtok 12 "char[" 4 4 16) (mkPtok 40 "," 5 0 21)) None (mkMetaDecl (mkSpan (mkPtok 12 "char[" 4 4 16) (mkPtok 40 "," 5 0 21)) (TyFixed (mkSpan (mkPtok 12 "char[" 4 4 16) (mkPtok 13 "]" 4 12 18)) (mkFixedString (mkSpan (mkPtok 12 "char[" 4 4 16) (mkPtok 13 "]" 4 12 18)) (mkPtok 12 "char[" 4 4 16) (mkPtok 30 "3" 4 10 17) (mkPtok 13 "]" 4 12 18))) (mkPtok 42 "T" 4 13 19) None (mkPtok 40 "," 5 0 21)))); (mkFieldWithAttr (mkSpan (mkPtok 42 "zchar" 5 1 22) (mkPtok 40 "," 9 0 35)) [] (InerObjectField (mkSpan (mkPtok 42 "zchar" 5 1 22) (mkPtok 40 "," 9 0 35)) None (InerObjectDecl (mkSpan (mkPtok 42 "zchar" 5 1 22) (mkPtok 3 "}" 8 22 34)) (mkPtok 42 "zchar" 5 1 22) (mkPtok 2 "{" 5 7 23) [(MetaField (mkSpan (mkPtok 36 "repeat" 5 9 24) (mkPtok 40 "," 8 4 30)) (Some (mkPtok 36 "repeat" 5 9 24)) (mkMetaDecl (mkSpan (mkPtok 14 "zchar[" 6 0 25) (mkPtok 40 "," 8 4 30)) (TyFixed (mkSpan (mkPtok 14 "zchar[" 6 0 25) (mkPtok 13 "]" 6 13 27)) (mkFixedString (mkSpan (mkPtok 14 "zchar[" 6 0 25) (mkPtok 13 "]" 6 13 27)) (mkPtok 14 "zchar[" 6 0 25) (mkPtok 30 "65535" 6 7 26) (mkPtok 13 "]" 6 13 27))) (mkPtok 42 "rootA" 7 4 28) (Some (mkPtok 43 (string_of_bytes [96; 116; 97; 98; 9; 104; 101; 114; 101; 96]%N) 7 11 29)) (mkPtok 40 "," 8 4 30))); (MetaField (mkSpan (mkPtok 26 "int32" 8 6 31) (mkPtok 40 "," 8 20 33)) None (mkMetaDecl (mkSpan (mkPtok 26 "int32" 8 6 31) (mkPtok 40 "," 8 20 33)) (TyBasic (mkSpan (mkPtok 26 "int32" 8 6 31) (mkPtok 26 "int32" 8 6 31)) (mkBasicType (mkSpan (mkPtok 26 "int32" 8 6 31) (mkPtok 26 "int32" 8 6 31)) (mkPtok 26 "int32" 8 6 31))) (mkPtok 42 "leftPad" 8 12 32) None (mkPtok 40 "," 8 20 33)))] (mkPtok 3 "}" 8 22 34)) (mkPtok 40 "," 9 0 35))); (mkFieldWithAttr (mkSpan (mkPtok 36 "repeat" 12 0 38) (mkPtok 40 "," 15 4 41)) [] (ObjectField (mkSpan (mkPtok 36 "repeat" 12 0 38) (mkPtok 40 "," 15 4 41)) (Some (mkPtok 36 "repeat" 12 0 38)) (mkPtok 42 "Packet" 13 4 39) None None (mkPtok 40 "," 15 4 41))); (mkFieldWithAttr (mkSpan (mkPtok 36 "repeat" 15 5 42) (mkPtok 40 "," 16 19 48)) [] (MetaField (mkSpan (mkPtok 36 "repeat" 15 5 42) (mkPtok 40 "," 16 19 48)) (Some (mkPtok 36 "repeat" 15 5 42)) (mkMetaDecl (mkSpan (mkPtok 12 "char[" 16 0 43) (mkPtok 40 "," 16 19 48)) (TyFixed (mkSpan (mkPtok 12 "char[" 16 0 43) (mkPtok 13 "]" 16 9 45)) (mkFixedString (mkSpan (mkPtok 12 "char[" 16 0 43) (mkPtok 13 "]" 16 9 45)) (mkPtok 12 "char[" 16 0 43) (mkPtok 30 "00" 16 6 44) (mkPtok 13 "]" 16 9 45))) (mkPtok 42 "body" 16 11 46) (Some (mkPtok 43 (string_of_bytes [96; 195; 169; 96]%N) 16 15 47)) (mkPtok 40 "," 16 19 48)))); (mkFieldWithAttr (mkSpan (mkPtok 9 "@tag(" 16 21 49) (mkPtok 40 "," 19 0 55)) [(FATag (mkSpan (mkPtok 9 "@tag(" 16 21 49) (mkPtok 6 ")" 18 0 52)) (mkTagAttr (mkSpan (mkPtok 9 "@tag(" 16 21 49) (mkPtok 6 ")" 18 0 52)) (mkPtok 9 "@tag(" 16 21 49) (mkPtok 30 "00" 17 0 50) (mkPtok 6 ")" 18 0 52)))] (ObjectField (mkSpan (mkPtok 42 "a1" 18 2 53) (mkPtok 40 "," 19 0 55)) None (mkPtok 42 "a1" 18 2 53) (Some (mkPtok 42 "i64_" 18 5 54)) None (mkPtok 40 "," 19 0 55))); (mkFieldWithAttr (mkSpan (mkPtok 42 "i8i8" 19 2 56) (mkPtok 40 "," 20 4 59)) [] (ObjectField (mkSpan (mkPtok 42 "i8i8" 19 2 56) (mkPtok 40 "," 20 4 59)) None (mkPtok 42 "i8i8" 19 2 56) (Some (mkPtok 42 "BodyLength" 19 7 57)) (Some (mkPtok 43 "`{ , }`" 19 18 58)) (mkPtok 40 "," 20 4 59))); (mkFieldWithAttr (mkSpan (mkPtok 38 "match" 20 6 60) (mkPtok 40 "," 32 0 100)) [] (MatchField (mkSpan (mkPtok 38 "match" 20 6 60) (mkPtok 40 "," 32 0 100)) (mkMatchFieldDecl (mkSpan (mkPtok 38 "match" 20 6 60) (mkPtok 3 "}" 31 33 98)) (mkPtok 38 "match" 20 6 60) (mkPtok 42 "crc" 21 4 61) (mkPtok 17 "as" 21 8 62) (mkPtok 42 "u8x" 21 11 63) (mkPtok 2 "{" 24 0 66) [(mkMatchPair (mkSpan (mkPtok 18 "[" 24 2 67) (mkPtok 40 "," 27 13 73)) (MKList (mkKeyList (mkSpan (mkPtok 18 "[" 24 2 67) (mkPtok 13 "]" 26 6 70)) (mkPtok 18 "[" 24 2 67) (mkPtok 30 "0" 26 4 69) [] (mkPtok 13 "]" 26 6 70))) (mkPtok 39 ":" 26 7 71) (mkPtok 42 "matchKey" 27 4 72) (Some (mkPtok 40 "," 27 13 73))); (mkMatchPair (mkSpan (mkPtok 18 "[" 27 15 74) (mkPtok 40 "," 30 11 83)) (MKList (mkKeyList (mkSpan (mkPtok 18 "[" 27 15 74) (mkPtok 13 "]" 30 6 80)) (mkPtok 18 "[" 27 15 74) (mkPtok 30 "0123456789" 27 17 75) [((mkPtok 40 "," 27 27 76), (mkPtok 31 """a\\""" 28 0 77)); ((mkPtok 40 "," 29 0 78), (mkPtok 31 """abc""" 30 0 79))] (mkPtok 13 "]" 30 6 80))) (mkPtok 39 ":" 30 7 81) (mkPtok 42 "As" 30 8 82) (Some (mkPtok 40 "," 30 11 83))); (mkMatchPair (mkSpan (mkPtok 31 (string_of_bytes [34; 240; 159; 152; 128; 34]%N) 30 13 84) (mkPtok 40 "," 30 22 87)) (MKString (mkPtok 31 (string_of_bytes [34; 240; 159; 152; 128; 34]%N) 30 13 84)) (mkPtok 39 ":" 30 17 85) (mkPtok 42 "tag" 30 19 86) (Some (mkPtok 40 "," 30 22 87))); (mkMatchPair (mkSpan (mkPtok 30 "7" 30 24 88) (mkPtok 40 "," 31 8 91)) (MKDigits (mkPtok 30 "7" 30 24 88)) (mkPtok 39 ":" 30 26 89) (mkPtok 42 "u8x" 31 4 90) (Some (mkPtok 40 "," 31 8 91))); (mkMatchPair (mkSpan (mkPtok 30 "42" 31 10 92) (mkPtok 42 "f32a" 31 15 94)) (MKDigits (mkPtok 30 "42" 31 10 92)) (mkPtok 39 ":" 31 13 93) (mkPtok 42 "f32a" 31 15 94) None); (mkMatchPair (mkSpan (mkPtok 30 "00" 31 20 95) (mkPtok 42 "options1" 31 24 97)) (MKDigits (mkPtok 30 "00" 31 20 95)) (mkPtok 39 ":" 31 23 96) (mkPtok 42 "options1" 31 24 97) None)] (mkPtok 3 "}" 31 33 98)) (mkPtok 40 "," 32 0 100)))] (mkPtok 3 "}" 32 1 101))); (DPacket (mkPacketDef (mkSpan (mkPtok 35 "packet" 32 3 102) (mkPtok 3 "}" 35 21 119)) None (mkPtok 35 "packet" 32 3 102) (mkPtok 42 "MetaDataX" 33 0 104) (mkPtok 2 "{" 33 9 105) [(mkFieldWithAttr (mkSpan (mkPtok 9 "@tag(" 33 10 106) (mkPtok 40 "," 35 19 118)) [(FATag (mkSpan (mkPtok 9 "@tag(" 33 10 106) (mkPtok 6 ")" 33 18 108)) (mkTagAttr (mkSpan (mkPtok 9 "@tag(" 33 10 106) (mkPtok 6 ")" 33 18 108)) (mkPtok 9 "@tag(" 33 10 106) (mkPtok 30 "42" 33 16 107) (mkPtok 6 ")" 33 18 108))); (FAPadding (mkSpan (mkPtok 32 "@leftPad" 33 19 109) (mkPtok 6 ")" 33 30 111)) (mkPaddingAttr (mkSpan (mkPtok 32 "@leftPad" 33 19 109) (mkPtok 6 ")" 33 30 111)) (mkPtok 32 "@leftPad" 33 19 109) (mkPtok 8 "(" 33 28 110) None (mkPtok 6 ")" 33 30 111))); (FAPadding (mkSpan (mkPtok 32 "@leftPad" 33 32 112) (mkPtok 6 ")" 35 6 115)) (mkPaddingAttr (mkSpan (mkPtok 32 "@leftPad" 33 32 112) (mkPtok 6 ")" 35 6 115)) (mkPtok 32 "@leftPad" 33 32 112) (mkPtok 8 "(" 35 4 114) None (mkPtok 6 ")" 35 6 115)))] (ObjectField (mkSpan (mkPtok 42 "body" 35 9 116) (mkPtok 40 "," 35 19 118)) None (mkPtok 42 "body" 35 9 116) (Some (mkPtok 42 "i64_" 35 14 117)) None (mkPtok 40 "," 35 19 118)))] (mkPtok 3 "}" 35 21 119))); (DPacket (mkPacketDef (mkSpan (mkPtok 35 "packet" 35 23 120) (mkPtok 3 "}" 49 0 191)) None (mkPtok 35 "packet" 35 23 120) (mkPtok 42 "int" 35 30 121) (mkPtok 2 "{" 35 33 122) [(mkFieldWithAttr (mkSpan (mkPtok 5 "@calculatedFrom(" 35 35 123) (mkPtok 40 "," 39 41 137)) [(FACalculatedFrom (mkSpan (mkPtok 5 "@calculatedFrom(" 35 35 123) (mkPtok 6 ")" 38 5 127)) (mkCalculatedFrom (mkSpan (mkPtok 5 "@calculatedFrom(" 35 35 123) (mkPtok 6 ")" 38 5 127)) (mkPtok 5 "@calculatedFrom(" 35 35 123) (mkPtok 31 (string_of_bytes [34; 195; 169; 116; 195; 169; 34]%N) 38 0 126) (mkPtok 6 ")" 38 5 127))); (FATag (mkSpan (mkPtok 9 "@tag(" 39 0 128) (mkPtok 6 ")" 39 8 130)) (mkTagAttr (mkSpan (mkPtok 9 "@tag(" 39 0 128) (mkPtok 6 ")" 39 8 130)) (mkPtok 9 "@tag(" 39 0 128) (mkPtok 30 "42" 39 5 129) (mkPtok 6 ")" 39 8 130))); (FAPadding (mkSpan (mkPtok 32 "@leftPad" 39 10 131) (mkPtok 6 ")" 39 28 134)) (mkPaddingAttr (mkSpan (mkPtok 32 "@leftPad" 39 10 131) (mkPtok 6 ")" 39 28 134)) (mkPtok 32 "@leftPad" 39 10 131) (mkPtok 8 "(" 39 19 132) (Some (mkPtok 33 "'\x00'" 39 21 133)) (mkPtok 6 ")" 39 28 134)))] (ObjectField (mkSpan (mkPtok 36 "repeat" 39 30 135) (mkPtok 40 "," 39 41 137)) (Some (mkPtok 36 "repeat" 39 30 135)) (mkPtok 42 "u8x" 39 37 136) None None (mkPtok 40 "," 39 41 137))); (mkFieldWithAttr (mkSpan (mkPtok 36 "repeat" 39 44 138) (mkPtok 40 "," 39 55 140)) [] (ObjectField (mkSpan (mkPtok 36 "repeat" 39 44 138) (mkPtok 40 "," 39 55 140)) (Some (mkPtok 36 "repeat" 39 44 138)) (mkPtok 42 "len" 39 51 139) None None (mkPtok 40 "," 39 55 140))); (mkFieldWithAttr (mkSpan (mkPtok 9 "@tag(" 39 57 141) (mkPtok 40 "," 44 0 169)) [(FATag (mkSpan (mkPtok 9 "@tag(" 39 57 141) (mkPtok 6 ")" 39 67 143)) (mkTagAttr (mkSpan (mkPtok 9 "@tag(" 39 57 141) (mkPtok 6 ")" 39 67 143)) (mkPtok 9 "@tag(" 39 57 141) (mkPtok 30 "255" 39 63 142) (mkPtok 6 ")" 39 67 143)))] (MatchField (mkSpan (mkPtok 38 "match" 39 68 144) (mkPtok 40 "," 44 0 169)) (mkMatchFieldDecl (mkSpan (mkPtok 38 "match" 39 68 144) (mkPtok 3 "}" 43 0 167)) (mkPtok 38 "match" 39 68 144) (mkPtok 42 "calculatedFrom" 39 74 145) (mkPtok 17 "as" 39 89 146) (mkPtok 42 "Z9_" 39 92 147) (mkPtok 2 "{" 39 96 148) [(mkMatchPair (mkSpan (mkPtok 31 """CRC32""" 39 99 149) (mkPtok 40 "," 39 112 152)) (MKString (mkPtok 31 """CRC32""" 39 99 149)) (mkPtok 39 ":" 39 107 150) (mkPtok 42 "len" 39 109 151) (Some (mkPtok 40 "," 39 112 152))); (mkMatchPair (mkSpan (mkPtok 31 """packet""" 39 113 153) (mkPtok 40 "," 39 130 156)) (MKString (mkPtok 31 """packet""" 39 113 153)) (mkPtok 39 ":" 39 122 154) (mkPtok 42 "falsey" 39 124 155) (Some (mkPtok 40 "," 39 130 156))); (mkMatchPair (mkSpan (mkPtok 18 "[" 39 132 157) (mkPtok 40 "," 42 8 166)) (MKList (mkKeyList (mkSpan (mkPtok 18 "[" 39 132 157) (mkPtok 13 "]" 41 0 162)) (mkPtok 18 "[" 39 132 157) (mkPtok 30 "65535" 39 133 158) [((mkPtok 40 "," 39 138 159), (mkPtok 30 "42" 40 0 160))] (mkPtok 13 "]" 41 0 162))) (mkPtok 39 ":" 42 0 164) (mkPtok 42 "charz" 42 2 165) (Some (mkPtok 40 "," 42 8 166)))] (mkPtok 3 "}" 43 0 167)) (mkPtok 40 "," 44 0 169))); (mkFieldWithAttr (mkSpan (mkPtok 42 "i8i8" 44 1 170) (mkPtok 40 "," 44 6 171)) [] (ObjectField (mkSpan (mkPtok 42 "i8i8" 44 1 170) (mkPtok 40 "," 44 6 171)) None (mkPtok 42 "i8i8" 44 1 170) None None (mkPtok 40 "," 44 6 171))); (mkFieldWithAttr (mkSpan (mkPtok 38 "match" 44 7 172) (mkPtok 40 "," 47 16 183)) [] (MatchField (mkSpan (mkPtok 38 "match" 44 7 172) (mkPtok 40 "," 47 16 183)) (mkMatchFieldDecl (mkSpan (mkPtok 38 "match" 44 7 172) (mkPtok 3 "}" 47 14 182)) (mkPtok 38 "match" 44 7 172) (mkPtok 42 "i8i8" 45 0 173) (mkPtok 17 "as" 46 4 174) (mkPtok 42 "Foo" 46 7 175) (mkPtok 2 "{" 47 0 177) [(mkMatchPair (mkSpan (mkPtok 31 """a\\""" 47 2 178) (mkPtok 40 "," 47 12 181)) (MKString (mkPtok 31 """a\\""" 47 2 178)) (mkPtok 39 ":" 47 8 179) (mkPtok 42 "x" 47 10 180) (Some (mkPtok 40 "," 47 12 181)))] (mkPtok 3 "}" 47 14 182)) (mkPtok 40 "," 47 16 183))); (mkFieldWithAttr (mkSpan (mkPtok 32 "@leftPad" 47 18 184) (mkPtok 40 "," 48 24 190)) [(FAPadding (mkSpan (mkPtok 32 "@leftPad" 47 18 184) (mkPtok 6 ")" 48 2 186)) (mkPaddingAttr (mkSpan (mkPtok 32 "@leftPad" 47 18 184) (mkPtok 6 ")" 48 2 186)) (mkPtok 32 "@leftPad" 47 18 184) (mkPtok 8 "(" 48 0 185) None (mkPtok 6 ")" 48 2 186)))] (MetaField (mkSpan (mkPtok 19 "char" 48 4 187) (mkPtok 40 "," 48 24 190)) None (mkMetaDecl (mkSpan (mkPtok 19 "char" 48 4 187) (mkPtok 40 "," 48 24 190)) (TyBasic (mkSpan (mkPtok 19 "char" 48 4 187) (mkPtok 19 "char" 48 4 187)) (mkBasicType (mkSpan (mkPtok 19 "char" 48 4 187) (mkPtok 19 "char" 48 4 187)) (mkPtok 19 "char" 48 4 187))) (mkPtok 42 "crc" 48 9 188) (Some (mkPtok 43 "`say ""hi""`" 48 13 189)) (mkPtok 40 "," 48 24 190))))] (mkPtok 3 "}" 49 0 191))); (DOption (mkOptionDef (mkSpan (mkPtok 1 "options" 49 2 192) (mkPtok 3 "}" 54 4 206)) (mkPtok 1 "options" 49 2 192) (mkPtok 2 "{" 49 10 193) [(mkOptionDecl (mkSpan (mkPtok 42 "Pad" 49 12 194) (mkPtok 41 ";" 52 1 200)) (mkPtok 42 "Pad" 49 12 194) (mkPtok 4 "=" 49 16 195) (VType (mkSpan (mkPtok 14 "zchar[" 50 4 196) (mkPtok 13 "]" 52 0 199)) (TyFixed (mkSpan (mkPtok 14 "zchar[" 50 4 196) (mkPtok 13 "]" 52 0 199)) (mkFixedString (mkSpan (mkPtok 14 "zchar[" 50 4 196) (mkPtok 13 "]" 52 0 199)) (mkPtok 14 "zchar[" 50 4 196) (mkPtok 30 "0" 51 0 198) (mkPtok 13 "]" 52 0 199)))) (Some (mkPtok 41 ";" 52 1 200))); (mkOptionDecl (mkSpan (mkPtok 42 "pack" 52 3 201) (mkPtok 41 ";" 53 0 205)) (mkPtok 42 "pack" 52 3 201) (mkPtok 4 "=" 52 7 202) (VString (mkSpan (mkPtok 31 """""" 52 8 203) (mkPtok 31 """""" 52 8 203)) (mkPtok 31 """""" 52 8 203)) (Some (mkPtok 41 ";" 53 0 205)))] (mkPtok 3 "}" 54 4 206))); (DPacket (mkPacketDef (mkSpan (mkPtok 34 "root" 54 6 207) (mkPtok 3 "}" 73 0 286)) (Some (mkPtok 34 "root" 54 6 207)) (mkPtok 35 "packet" 55 4 208) (mkPtok 42 "lengthOf" 55 11 209) (mkPtok 2 "{" 56 0 210) [(mkFieldWithAttr (mkSpan (mkPtok 32 "@leftPad" 56 2 211) (mkPtok 40 "," 61 5 222)) [(FAPadding (mkSpan (mkPtok 32 "@leftPad" 56 2 211) (mkPtok 6 ")" 56 16 214)) (mkPaddingAttr (mkSpan (mkPtok 32 "@leftPad" 56 2 211) (mkPtok 6 ")" 56 16 214)) (mkPtok 32 "@leftPad" 56 2 211) (mkPtok 8 "(" 56 11 212) (Some (mkPtok 33 "'0'" 56 12 213)) (mkPtok 6 ")" 56 16 214)))] (CheckSumField (mkSpan (mkPtok 42 "A" 56 18 215) (mkPtok 40 "," 61 5 222)) (mkChecksumFieldDecl (mkSpan (mkPtok 42 "A" 56 18 215) (mkPtok 40 "," 61 5 222)) None (mkPtok 42 "A" 56 18 215) (mkCalculatedFrom (mkSpan (mkPtok 5 "@calculatedFrom(" 58 4 217) (mkPtok 6 ")" 61 4 221)) (mkPtok 5 "@calculatedFrom(" 58 4 217) (mkPtok 31 (string_of_bytes [34; 92; 195; 169; 34]%N) 61 0 220) (mkPtok 6 ")" 61 4 221)) None (mkPtok 40 "," 61 5 222)))); (mkFieldWithAttr (mkSpan (mkPtok 5 "@calculatedFrom(" 61 6 223) (mkPtok 40 "," 63 10 231)) [(FACalculatedFrom (mkSpan (mkPtok 5 "@calculatedFrom(" 61 6 223) (mkPtok 6 ")" 62 0 226)) (mkCalculatedFrom (mkSpan (mkPtok 5 "@calculatedFrom(" 61 6 223) (mkPtok 6 ")" 62 0 226)) (mkPtok 5 "@calculatedFrom(" 61 6 223) (mkPtok 31 """abc""" 61 23 224) (mkPtok 6 ")" 62 0 226)))] (MetaField (mkSpan (mkPtok 36 "repeat" 62 3 227) (mkPtok 40 "," 63 10 231)) (Some (mkPtok 36 "repeat" 62 3 227)) (mkMetaDecl (mkSpan (mkPtok 16 "char[]" 63 0 229) (mkPtok 40 "," 63 10 231)) (TyDynamic (mkSpan (mkPtok 16 "char[]" 63 0 229) (mkPtok 16 "char[]" 63 0 229)) (mkDynamicString (mkSpan (mkPtok 16 "char[]" 63 0 229) (mkPtok 16 "char[]" 63 0 229)) (mkPtok 16 "char[]" 63 0 229))) (mkPtok 42 "a1" 63 7 230) None (mkPtok 40 "," 63 10 231)))); (mkFieldWithAttr (mkSpan (mkPtok 36 "repeat" 63 11 232) (mkPtok 40 "," 63 32 235)) [] (ObjectField (mkSpan (mkPtok 36 "repeat" 63 11 232) (mkPtok 40 "," 63 32 235)) (Some (mkPtok 36 "repeat" 63 11 232)) (mkPtok 42 "int" 63 18 233) (Some (mkPtok 42 "trueish" 63 23 234)) None (mkPtok 40 "," 63 32 235))); (mkFieldWithAttr (mkSpan (mkPtok 32 "@rightPad" 63 34 236) (mkPtok 40 "," 66 22 245)) [(FAPadding (mkSpan (mkPtok 32 "@rightPad" 63 34 236) (mkPtok 6 ")" 65 4 239)) (mkPaddingAttr (mkSpan (mkPtok 32 "@rightPad" 63 34 236) (mkPtok 6 ")" 65 4 239)) (mkPtok 32 "@rightPad" 63 34 236) (mkPtok 8 "(" 63 43 237) (Some (mkPtok 33 "'\x00'" 64 4 238)) (mkPtok 6 ")" 65 4 239)))] (MetaField (mkSpan (mkPtok 14 "zchar[" 66 0 241) (mkPtok 40 "," 66 22 245)) None (mkMetaDecl (mkSpan (mkPtok 14 "zchar[" 66 0 241) (mkPtok 40 "," 66 22 245)) (TyFixed (mkSpan (mkPtok 14 "zchar[" 66 0 241) (mkPtok 13 "]" 66 17 243)) (mkFixedString (mkSpan (mkPtok 14 "zchar[" 66 0 241) (mkPtok 13 "]" 66 17 243)) (mkPtok 14 "zchar[" 66 0 241) (mkPtok 30 "4294967296" 66 6 242) (mkPtok 13 "]" 66 17 243))) (mkPtok 42 "_x" 66 19 244) None (mkPtok 40 "," 66 22 245)))); (mkFieldWithAttr (mkSpan (mkPtok 36 "repeat" 66 23 246) (mkPtok 40 "," 68 2 250)) [] (ObjectField (mkSpan (mkPtok 36 "repeat" 66 23 246) (mkPtok 40 "," 68 2 250)) (Some (mkPtok 36 "repeat" 66 23 246)) (mkPtok 42 "stringy" 67 0 247) (Some (mkPtok 42 "x" 68 0 249)) None (mkPtok 40 "," 68 2 250))); (mkFieldWithAttr (mkSpan (mkPtok 9 "@tag(" 68 3 251) (mkPtok 40 "," 68 47 262)) [(FATag (mkSpan (mkPtok 9 "@tag(" 68 3 251) (mkPtok 6 ")" 68 13 253)) (mkTagAttr (mkSpan (mkPtok 9 "@tag(" 68 3 251) (mkPtok 6 ")" 68 13 253)) (mkPtok 9 "@tag(" 68 3 251) (mkPtok 30 "00" 68 9 252) (mkPtok 6 ")" 68 13 253))); (FALengthOf (mkSpan (mkPtok 7 "@lengthOf(" 68 15 254) (mkPtok 6 ")" 68 30 256)) (mkLengthOf (mkSpan (mkPtok 7 "@lengthOf(" 68 15 254) (mkPtok 6 ")" 68 30 256)) (mkPtok 7 "@lengthOf(" 68 15 254) (mkPtok 42 "int" 68 26 255) (mkPtok 6 ")" 68 30 256))); (FATag (mkSpan (mkPtok 9 "@tag(" 68 33 257) (mkPtok 6 ")" 68 40 259)) (mkTagAttr (mkSpan (mkPtok 9 "@tag(" 68 33 257) (mkPtok 6 ")" 68 40 259)) (mkPtok 9 "@tag(" 68 33 257) (mkPtok 30 "0" 68 39 258) (mkPtok 6 ")" 68 40 259)))] (MetaField (mkSpan (mkPtok 20 "u8" 68 42 260) (mkPtok 40 "," 68 47 262)) None (mkMetaDecl (mkSpan (mkPtok 20 "u8" 68 42 260) (mkPtok 40 "," 68 47 262)) (TyBasic (mkSpan (mkPtok 20 "u8" 68 42 260) (mkPtok 20 "u8" 68 42 260)) (mkBasicType (mkSpan (mkPtok 20 "u8" 68 42 260) (mkPtok 20 "u8" 68 42 260)) (mkPtok 20 "u8" 68 42 260))) (mkPtok 42 "T" 68 45 261) None (mkPtok 40 "," 68 47 262)))); (mkFieldWithAttr (mkSpan (mkPtok 9 "@tag(" 69 0 263) (mkPtok 40 "," 70 47 276)) [(FATag (mkSpan (mkPtok 9 "@tag(" 69 0 263) (mkPtok 6 ")" 69 7 265)) (mkTagAttr (mkSpan (mkPtok 9 "@tag(" 69 0 263) (mkPtok 6 ")" 69 7 265)) (mkPtok 9 "@tag(" 69 0 263) (mkPtok 30 "1" 69 5 264) (mkPtok 6 ")" 69 7 265))); (FALengthOf (mkSpan (mkPtok 7 "@lengthOf(" 69 9 266) (mkPtok 6 ")" 70 3 268)) (mkLengthOf (mkSpan (mkPtok 7 "@lengthOf(" 69 9 266) (mkPtok 6 ")" 70 3 268)) (mkPtok 7 "@lengthOf(" 69 9 266) (mkPtok 42 "a1" 70 0 267) (mkPtok 6 ")" 70 3 268))); (FACalculatedFrom (mkSpan (mkPtok 5 "@calculatedFrom(" 70 5 269) (mkPtok 6 ")" 70 29 271)) (mkCalculatedFrom (mkSpan (mkPtok 5 "@calculatedFrom(" 70 5 269) (mkPtok 6 ")" 70 29 271)) (mkPtok 5 "@calculatedFrom(" 70 5 269) (mkPtok 31 """it's""" 70 22 270) (mkPtok 6 ")" 70 29 271)))] (MetaField (mkSpan (mkPtok 12 "char[" 70 31 272) (mkPtok 40 "," 70 47 276)) None (mkMetaDecl (mkSpan (mkPtok 12 "char[" 70 31 272) (mkPtok 40 "," 70 47 276)) (TyFixed (mkSpan (mkPtok 12 "char[" 70 31 272) (mkPtok 13 "]" 70 40 274)) (mkFixedString (mkSpan (mkPtok 12 "char[" 70 31 272) (mkPtok 13 "]" 70 40 274)) (mkPtok 12 "char[" 70 31 272) (mkPtok 30 "10" 70 37 273) (mkPtok 13 "]" 70 40 274))) (mkPtok 42 "body" 70 42 275) None (mkPtok 40 "," 70 47 276)))); (mkFieldWithAttr (mkSpan (mkPtok 7 "@lengthOf(" 70 50 277) (mkPtok 40 "," 72 23 284)) [(FALengthOf (mkSpan (mkPtok 7 "@lengthOf(" 70 50 277) (mkPtok 6 ")" 70 66 279)) (mkLengthOf (mkSpan (mkPtok 7 "@lengthOf(" 70 50 277) (mkPtok 6 ")" 70 66 279)) (mkPtok 7 "@lengthOf(" 70 50 277) (mkPtok 42 "f32a" 70 61 278) (mkPtok 6 ")" 70 66 279)))] (CheckSumField (mkSpan (mkPtok 42 "rootA" 71 4 280) (mkPtok 40 "," 72 23 284)) (mkChecksumFieldDecl (mkSpan (mkPtok 42 "rootA" 71 4 280) (mkPtok 40 "," 72 23 284)) None (mkPtok 42 "rootA" 71 4 280) (mkCalculatedFrom (mkSpan (mkPtok 5 "@calculatedFrom(" 72 0 281) (mkPtok 6 ")" 72 22 283)) (mkPtok 5 "@calculatedFrom(" 72 0 281) (mkPtok 31 """{,}""" 72 16 282) (mkPtok 6 ")" 72 22 283)) None (mkPtok 40 "," 72 23 284))))] (mkPtok 3 "}" 73 0 286)))])).
-Eval vm_compute in ("<<<M157>>>" ++ check (runes_of_ascii "packet
-    Header	{	repeat string
-    Header
-,
-repeat options1  ,	zchar[
-    //	t
-    00 ] matchKey ,} options
-// @lengthOf(
-// `tick` ""quote"" 'q'
-{charz= ""\n"" ; // a // b
-BodyLength = ""x y"" u8x
-    = ""x y""
-    u // `tick` ""quote"" 'q'
-= 255 }
-MetaData u8x{
-// a // b
-// c
-Z9_
-i8i8 , float32  stringy , float msg_type // `tick` ""quote"" 'q'
-`doc`
-    ,
-calculatedFrom T , Foo T `a\` , }	root
-    packet
-    roots
-    {	@tag( 00
-) /// triple
-match// `tick` ""quote"" 'q'
-len
-    as roots {
-    // @lengthOf(
-    [ 4294967296 ]
-    : tag ""// no comment"" :float ,"""" : uint8x ,
-// " ++ [27880; 37322]%N ++ runes_of_ascii "
-// trailing space 
-007
-    // " ++ [27880; 37322]%N ++ runes_of_ascii "
-    :
-    options1 , } , }")).
-Eval vm_compute in ("<<<M189>>>" ++ check (runes_of_ascii "packet
-// @lengthOf(
-// " ++ [128512]%N ++ runes_of_ascii " emoji
-Foo { @calculatedFrom( """" )
-@calculatedFrom(""1""
-) @rightPad () int32 As
-@calculatedFrom( """"// a // b
-)
-    `say ""hi""` // c
-, @calculatedFrom( ""\n""
-)
-// trailing space 
-/// triple
-char[// trailing space 
-65535 ] asx ,
-    repeat	int8 trueish `{ , }` ,
-} root packet lengthOf{  }")).
-Eval vm_compute in ("<<<M221>>>" ++ check (runes_of_ascii "root packet matchKey{f32a// " ++ [27880; 37322]%N ++ runes_of_ascii "
-`u8 x,` ,	char[]u8x ,
-@calculatedFrom( ""a\""b"" )
-i32 i8i8 , }
-
-")).
-Eval vm_compute in ("<<<M253>>>" ++ check (runes_of_ascii "
-packet/// triple
-packetx {
-} // " ++ [27880; 37322]%N)).
-Eval vm_compute in ("<<<M285>>>" ++ check (runes_of_ascii "
-root  packet zchar
-    {zchar[007] Foo , }")).
-Eval vm_compute in ("<<<M317>>>" ++ check (runes_of_ascii "root packet tag
-    //x
-    { @tag(
-// trailing space 
-//x
-4294967296) zchar[ 255
-    ]
-    Foo	@calculatedFrom( ""\" ++ [233]%N ++ runes_of_ascii """  )// trailing space 
-, @lengthOf( // packet A { u8 x, }
-packetx
-) @tag( 1) @lengthOf( string_ ) // a // b
-zchar[
-255] u	, Z9_ {repeat stringy  {repeat
-body , }
-    ,
-    // `tick` ""quote"" 'q'
-    } ,
-    //
-    repeat uint8  a1 , i64// c
-tag  ,
-    // " ++ [128512]%N ++ runes_of_ascii " emoji
-    }
-    packet uint8x { // a // b
-@lengthOf( BodyLength	) @lengthOf( int )
-    //
-    uint64 As `{ , }` ,
-    char[
-65535	] zchar
-// " ++ [27880; 37322]%N ++ runes_of_ascii "
-// trailing space 
-@lengthOf(
-    stringy ) `tab	here` ,rootA @calculatedFrom( // a // b
-""x y"" ) , repeat options1	{ i8i8 calculatedFrom,
-// " ++ [27880; 37322]%N ++ runes_of_ascii "
-// `tick` ""quote"" 'q'
-}, repeat char[ 0]
-    MetaDataX ,} //")).
-Eval vm_compute in ("<<<M349>>>" ++ check (runes_of_ascii "
-
-")).
-Eval vm_compute in ("<<<T349>>>" ++ terms [mkTok 0 "<EOF>" 3 0 false] (mkPacket (mkPtok 0 "<EOF>" 3 0 0) None [])).
-Eval vm_compute in ("<<<M381>>>" ++ check (runes_of_ascii "root
-packet
-f32a {
-trueish
-    falsey
-, tag , repeat
-    // trailing space 
-    Pad{ u32
-    i8i8 @calculatedFrom(""x y""
-    )
-, } ,@calculatedFrom( ""// no comment""  )@lengthOf( calculatedFrom
-    ) @tag(	65535)  string T,
-    }
-
-")).
-Eval vm_compute in ("<<<M413>>>" ++ check (runes_of_ascii "packet falsey
-    //
-    { @calculatedFrom( // @lengthOf(
-""`tick`"" )
-Pad
-/// triple
-// c
-{
-match
-pack as roots { """ ++ [233]%N ++ runes_of_ascii "t" ++ [233]%N ++ runes_of_ascii """ : u ,
-42: //
-As""packet"" : Logon,
-}
-    ,}
-    , } options
-{ } root
-    packet stringy { }")).
-Eval vm_compute in ("<<<M445>>>" ++ check (runes_of_ascii "MetaData // `tick` ""quote"" 'q'
-uint8x { char[// `tick` ""quote"" 'q'
-7 ] Foo ,	float64
-//x
-/// triple
-repeatCount
-,/// triple
-a1 uint8x `// not a comment` , }
-    packet
-Header{	@calculatedFrom( ""packet""  ) repeat calculatedFrom charz , } packet rootA { @calculatedFrom(""abc"") @calculatedFrom( """"	)	@lengthOf( // " ++ [128512]%N ++ runes_of_ascii " emoji
-asx)
-repeat
-    repeatCount,
-repeat// " ++ [128512]%N ++ runes_of_ascii " emoji
-o {
-crc options1
-//x
-// " ++ [128512]%N ++ runes_of_ascii " emoji
-, zchar[
-7] A	, Z9_	@lengthOf(Pad
-) ,
-calculatedFrom
-    // trailing space 
-    @calculatedFrom(
-""a\""b"" ) // packet A { u8 x, }
-, } , repeat a1 Foo `{ , }` ,
-    charz , } options { body=
-    """ ++ [28040; 24687]%N ++ runes_of_ascii """  ;
-packetx // a // b
-=
-    0 }
-MetaData _x // @lengthOf(
-{ int16 crc, }")).
-Eval vm_compute in ("<<<M477>>>" ++ check (runes_of_ascii "  MetaData chars { len metadata ,
-    }
-")).
-Eval vm_compute in ("<<<M509>>>" ++ check (runes_of_ascii "
-MetaData
-    asx
-// a // b
-/// triple
-{
-char[]	Z9_ // " ++ [128512]%N ++ runes_of_ascii " emoji
-`doc` , }
-    packet roots { a1 @lengthOf( string_ ) ,	char[ 0123456789 ] Logon`
-` , // " ++ [128512]%N ++ runes_of_ascii " emoji
-@calculatedFrom(
-""`tick`""  )
-i64 u128
-    //
-    , i32 matchKey
-    `doc` ,match asx as pack { /// triple
-[ 0 ] : x_y_z
-0123456789 :float,
-00 : packetx
-65535 : crc
-,	4294967296
-    :a1 } , falsey
-float ,  @calculatedFrom(""CRC32"") // " ++ [128512]%N ++ runes_of_ascii " emoji
-@lengthOf( body ) @lengthOf( MetaDataX )// @lengthOf(
-leftPad
-@calculatedFrom( """ ++ [28040; 24687]%N ++ runes_of_ascii """
-)
-`// not a comment`,
-    uint8 packetx @calculatedFrom( ""a	b"")// packet A { u8 x, }
-,}  packet
-    Logon	{
-    } packet zchar { /// triple
-Z9_
-{ repeat i8 Foo	,	f64
-    // " ++ [128512]%N ++ runes_of_ascii " emoji
-    falsey
-`tab	here` // " ++ [27880; 37322]%N ++ runes_of_ascii "
-,
-match  msg_type as As{
-255: roots
-, [ 4294967296, 7
-    , ""`tick`""
-, 65535	] :
-metadata, """ ++ [233]%N ++ runes_of_ascii "t" ++ [233]%N ++ runes_of_ascii """: x_y_z ""`tick`"" : x_y_z , [
-    42 , ""CRC32"" , //x
-""// no comment"",  0123456789	, ""// no comment"" , ""CRC32"" ,	""" ++ [128512]%N ++ runes_of_ascii """ ,
-    ""{,}"" //
-]:packetx, } , o@lengthOf(
-msg_type ) `it's` , }	,	@calculatedFrom( """ ++ [28040; 24687]%N ++ runes_of_ascii """ )
-uint64 x
-`crlf
-line` , zchar[
-7 ]
-Logon , repeat rootA matchKey `crlf
-line` ,} // " ++ [27880; 37322]%N)).
-Eval vm_compute in ("<<<M541>>>" ++ check (runes_of_ascii "packet Pad {
-roots
-    int , @lengthOf(string_	) repeat char[] x, @calculatedFrom( ""CRC32""
-) u16 A	@lengthOf(  string_ ) `line1
-line2` , i32 zchar
-// `tick` ""quote"" 'q'
-// " ++ [27880; 37322]%N ++ runes_of_ascii "
-`say ""hi""`,match roots as i64_ /// triple
-{
-[ 4294967296,  ""abc"", ""x y"",// packet A { u8 x, }
-""a	b"" ,
-""a	b""] : Z9_ [ //x
-""// no comment"" , ""\n"" , 42 ,
-1 , ""\" ++ [233]%N ++ runes_of_ascii """
-,1 , 7
-    , 3
-]:  Header  ,[ //x
-""" ++ [128512]%N ++ runes_of_ascii """ , ""\" ++ [233]%N ++ runes_of_ascii """ ,
-""\" ++ [233]%N ++ runes_of_ascii """
-,00
-    ,
-    """ ++ [233]%N ++ runes_of_ascii "t" ++ [233]%N ++ runes_of_ascii """
-, 1
-, 00 ,	3 ] :	A , }, char[ 10
-] a1
-    ,	}
-
-")).
-Eval vm_compute in ("<<<M573>>>" ++ check (runes_of_ascii "
-MetaData u
-{} packet Header
-{ i64 Logon ``	, }
-")).
-Eval vm_compute in ("<<<T573>>>" ++ terms [mkTok 37 "MetaData" 2 0 false; mkTok 42 "u" 2 9 false; mkTok 2 "{" 3 0 false; mkTok 3 "}" 3 1 false; mkTok 35 "packet" 3 3 false; mkTok 42 "Header" 3 10 false; mkTok 2 "{" 4 0 false; mkTok 27 "i64" 4 2 false; mkTok 42 "Logon" 4 6 false; mkTok 43 "``" 4 12 false; mkTok 40 "," 4 15 false; mkTok 3 "}" 4 17 false; mkTok 0 "<EOF>" 5 0 false] (mkPacket (mkPtok 37 "MetaData" 2 0 0) (Some (mkPtok 3 "}" 4 17 11)) [(DMeta (mkMetaDef (mkSpan (mkPtok 37 "MetaData" 2 0 0) (mkPtok 3 "}" 3 1 3)) (mkPtok 37 "MetaData" 2 0 0) (mkPtok 42 "u" 2 9 1) (mkPtok 2 "{" 3 0 2) [] (mkPtok 3 "}" 3 1 3))); (DPacket (mkPacketDef (mkSpan (mkPtok 35 "packet" 3 3 4) (mkPtok 3 "}" 4 17 11)) None (mkPtok 35 "packet" 3 3 4) (mkPtok 42 "Header" 3 10 5) (mkPtok 2 "{" 4 0 6) [(mkFieldWithAttr (mkSpan (mkPtok 27 "i64" 4 2 7) (mkPtok 40 "," 4 15 10)) [] (MetaField (mkSpan (mkPtok 27 "i64" 4 2 7) (mkPtok 40 "," 4 15 10)) None (mkMetaDecl (mkSpan (mkPtok 27 "i64" 4 2 7) (mkPtok 40 "," 4 15 10)) (TyBasic (mkSpan (mkPtok 27 "i64" 4 2 7) (mkPtok 27 "i64" 4 2 7)) (mkBasicType (mkSpan (mkPtok 27 "i64" 4 2 7) (mkPtok 27 "i64" 4 2 7)) (mkPtok 27 "i64" 4 2 7))) (mkPtok 42 "Logon" 4 6 8) (Some (mkPtok 43 "``" 4 12 9)) (mkPtok 40 "," 4 15 10))))] (mkPtok 3 "}" 4 17 11)))])).
-Eval vm_compute in ("<<<M605>>>" ++ check (runes_of_ascii "options {
-}
-MetaData	x_y_z{
-    string_ packetx ,  metadata// packet A { u8 x, }
-o ,	char[
-3 ]charz
-// a // b
-//x
-, zchar
-charz,}
-MetaData
-    /// triple
-    T{ zchar[
-3 ] len ,u x_y_z	, u64 A ,
-} packet
-zchar  { @tag(
-    4294967296 ) @calculatedFrom( """ ++ [233]%N ++ runes_of_ascii "t" ++ [233]%N ++ runes_of_ascii """ ) @calculatedFrom( ""abc""
-) match tag as  tag
+Eval vm_compute in ("<<<M29>>>" ++ check (runes_of_ascii " 	 ")).
+Eval vm_compute in ("<<<M61>>>" ++ check (runes_of_ascii " // @lengthOf(")).
+Eval vm_compute in ("<<<M93>>>" ++ check (runes_of_ascii "// c
+root /// triple
+packet Pad
     {
-    """"
-    :
-    stringy ,
-""" ++ [28040; 24687]%N ++ runes_of_ascii """:
-    // trailing space 
-    f32a ,4294967296 :
-    matchKey ,	0
-: msg_type // " ++ [27880; 37322]%N ++ runes_of_ascii "
-,7 :
-    //	t
-    Logon
-, 7
-//
-// @lengthOf(
-:
-trueish
-,}
-    , roots@calculatedFrom( // @lengthOf(
-""" ++ [233]%N ++ runes_of_ascii "t" ++ [233]%N ++ runes_of_ascii """), BodyLength `" ++ [233]%N ++ runes_of_ascii "` , repeat  int zchar //
-`
-` , @leftPad () body @calculatedFrom(
-    // packet A { u8 x, }
-    """ ++ [233]%N ++ runes_of_ascii "t" ++ [233]%N ++ runes_of_ascii """	),}
-    packet // a // b
-Packet { @lengthOf(
-    uint8x
-    )
-    // @lengthOf(
-    i64_
-    { u128	{
-    stringy , }
-,  }, T MetaDataX
-`u8 x,`
-    , @calculatedFrom("""" ) @lengthOf( // @lengthOf(
-x_y_z )
-    @calculatedFrom( ""1"" ) uint32 charz@calculatedFrom(""`tick`""	) `" ++ [233]%N ++ runes_of_ascii "`
-,
-    // @lengthOf(
-    string
-    u8x	@calculatedFrom( ""\" ++ [233]%N ++ runes_of_ascii """ ) `line1
-line2` //
-,@leftPad (
-    )
-string tag @lengthOf(
-f32a ) `" ++ [233]%N ++ runes_of_ascii "`,@rightPad ( ) @tag(7)  @lengthOf(
-    rootA
-)
-    // " ++ [128512]%N ++ runes_of_ascii " emoji
-    repeat T matchKey , @lengthOf( metadata) zchar[
-    10 ] _x @lengthOf( a1 // a // b
-) , @leftPad(
-) f32a o `{ , }`
-    ,
-}
-// packet A { u8 x, }
-")).
-Eval vm_compute in ("<<<M637>>>" ++ check (runes_of_ascii "
-options
-{asx =
-    // " ++ [27880; 37322]%N ++ runes_of_ascii "
-    string ;}options
-// " ++ [27880; 37322]%N ++ runes_of_ascii "
-// trailing space 
-{ repeatCount = zchar[0
-    ] ; leftPad
-// packet A { u8 x, }
-// @lengthOf(
-=
-    string
-    ; uint8x
-= '0'
-    ; }
-//x
-//	t
-root packet uint8x { trueish x_y_z , As
-// a // b
-//	t
-, zchar[//
-00 ] uint8x @lengthOf( a1 ) //
-`say ""hi""`
-    ,
-    @leftPad
-    (  )
-zchar[ 4294967296 ]
-    // @lengthOf(
-    metadata
-    `say ""hi""` ,float32 u128
-`line1
-line2`, char[ 10]
-    // " ++ [27880; 37322]%N ++ runes_of_ascii "
-    lengthOf@calculatedFrom( ""CRC32""
-) `doc` ,a1@lengthOf( chars )
-,
-    char[ 10 ] calculatedFrom
-, repeat
-uint32 As
-    ,	}")).
-Eval vm_compute in ("<<<M669>>>" ++ check (runes_of_ascii "
-root	packet i64_ { roots a1	, @calculatedFrom(""`tick`"" )
-i64 //
-float `it's` ,@calculatedFrom(
-""\n"" ) @calculatedFrom( ""1"" ) @tag(
-    10 )	f64
-trueish
-`" ++ [28040; 24687; 31867; 22411]%N ++ runes_of_ascii "`	, trueish @calculatedFrom( ""\n"" ) ,}")).
-Eval vm_compute in ("<<<M701>>>" ++ check (runes_of_ascii "MetaData
-    //
-    body
-    {u16 roots `say ""hi""` , char[ 65535]
-o
-,
-    uint32 Z9_
-, char trueish `crlf
-line`
-, }
-packet crc // packet A { u8 x, }
-{
-    u128 ,
-repeat char[]trueish ,	string	asx  @lengthOf( zchar) // c
-`crlf
-line` , int
-{ int
-    u//
-,
-}
-,  @tag(10 )
-    // @lengthOf(
-    zchar[
-//x
-//x
-65535 ] /// triple
-zchar@calculatedFrom( """ ++ [28040; 24687]%N ++ runes_of_ascii """ ) `a\`
-    ,@rightPad ('\x00' ) string crc@lengthOf(
-    // trailing space 
-    o )
-    ,match
-rootA as len
-    {[ 10  , 3// " ++ [27880; 37322]%N ++ runes_of_ascii "
-, ""\n"" , """ ++ [233]%N ++ runes_of_ascii "t" ++ [233]%N ++ runes_of_ascii """
-,
-    ""packet""  ] :
-    // a // b
-    leftPad , 65535:
-pack } , zchar[ 65535 ]
-    //x
-    asx `u8 x,`
-    // a // b
-    , i16
-// @lengthOf(
-// " ++ [27880; 37322]%N ++ runes_of_ascii "
-roots`u8 x,` ,
-// " ++ [128512]%N ++ runes_of_ascii " emoji
-//
-@leftPad ( )	f64 Packet
-    ,
-    } packet tag
-    { @rightPad //
-( '0' )repeat char[00 ] crc	,
-    } packet stringy	{ char[] roots`" ++ [233]%N ++ runes_of_ascii "` //	t
-,
-    }")).
-Eval vm_compute in ("<<<M733>>>" ++ check (runes_of_ascii "packet leftPad { u64 Foo
-,
-// c
-// a // b
-}
-")).
-Eval vm_compute in ("<<<M765>>>" ++ check (runes_of_ascii "MetaData  u8x{ msg_type T
-    `it's` ,
-// `tick` ""quote"" 'q'
-// trailing space 
-zchar[
-    4294967296
-]	len/// triple
-, u32 chars `a\` , metadata calculatedFrom
-`{ , }`
-,
-    } packet Z9_ {	}  root packet
-Logon {}
-/// triple
-")).
-Eval vm_compute in ("<<<M797>>>" ++ check (runes_of_ascii "packet u8x {@tag( 0)
-match Header as	packetx
-// " ++ [128512]%N ++ runes_of_ascii " emoji
-//x
-{""\n"":	o , 0 :
-    Foo ,4294967296: rootA
-,
-    255 /// triple
-:i8i8 }
-,// `tick` ""quote"" 'q'
-repeat //	t
-uint8 stringy , chars ,
-uint64 options1 `say ""hi""`
-,@lengthOf( float )
-    string leftPad ,  x body // packet A { u8 x, }
-`line1
-line2`
-, @calculatedFrom(  ""// no comment"" ) uint16// a // b
-chars @calculatedFrom(
-""`tick`"" ) , }packet
-    Header {@calculatedFrom(
-    ""\" ++ [233]%N ++ runes_of_ascii """
-)
-zchar[ 007 ] As @lengthOf(
-    // @lengthOf(
-    Header )
-, Header
-// a // b
-//x
-@lengthOf( leftPad ) `doc` ,
-    repeat zchar	calculatedFrom ,	@lengthOf( float// `tick` ""quote"" 'q'
-) zchar[ 0123456789
-    ] trueish`` /// triple
-,
-    match x as
-string_ {
-[
-255] : A ,
-""abc"" : Packet , [//x
-""`tick`""
-    ,10
-    ]
-: Pad,
-    }
-,}  packet len {// " ++ [128512]%N ++ runes_of_ascii " emoji
-i8i8 body , } MetaData x
-    {float32 Header , uint8 A ,i8i8
-o , }
-
-")).
-Eval vm_compute in ("<<<T797>>>" ++ terms [mkTok 35 "packet" 1 0 false; mkTok 42 "u8x" 1 7 false; mkTok 2 "{" 1 11 false; mkTok 9 "@tag(" 1 12 false; mkTok 30 "0" 1 18 false; mkTok 6 ")" 1 19 false; mkTok 38 "match" 2 0 false; mkTok 42 "Header" 2 6 false; mkTok 17 "as" 2 13 false; mkTok 42 "packetx" 2 16 false; mkTok 44 (string_of_bytes [47; 47; 32; 240; 159; 152; 128; 32; 101; 109; 111; 106; 105]%N) 3 0 true; mkTok 44 "//x" 4 0 true; mkTok 2 "{" 5 0 false; mkTok 31 """\n""" 5 1 false; mkTok 39 ":" 5 5 false; mkTok 42 "o" 5 7 false; mkTok 40 "," 5 9 false; mkTok 30 "0" 5 11 false; mkTok 39 ":" 5 13 false; mkTok 42 "Foo" 6 4 false; mkTok 40 "," 6 8 false; mkTok 30 "4294967296" 6 9 false; mkTok 39 ":" 6 19 false; mkTok 42 "rootA" 6 21 false; mkTok 40 "," 7 0 false; mkTok 30 "255" 8 4 false; mkTok 44 "/// triple" 8 8 true; mkTok 39 ":" 9 0 false; mkTok 42 "i8i8" 9 1 false; mkTok 3 "}" 9 6 false; mkTok 40 "," 10 0 false; mkTok 44 "// `tick` ""quote"" 'q'" 10 1 true; mkTok 36 "repeat" 11 0 false; mkTok 44 (string_of_bytes [47; 47; 9; 116]%N) 11 7 true; mkTok 20 "uint8" 12 0 false; mkTok 42 "stringy" 12 6 false; mkTok 40 "," 12 14 false; mkTok 42 "chars" 12 16 false; mkTok 40 "," 12 22 false; mkTok 23 "uint64" 13 0 false; mkTok 42 "options1" 13 7 false; mkTok 43 "`say ""hi""`" 13 16 false; mkTok 40 "," 14 0 false; mkTok 7 "@lengthOf(" 14 1 false; mkTok 42 "float" 14 12 false; mkTok 6 ")" 14 18 false; mkTok 15 "string" 15 4 false; mkTok 42 "leftPad" 15 11 false; mkTok 40 "," 15 19 false; mkTok 42 "x" 15 22 false; mkTok 42 "body" 15 24 false; mkTok 44 "// packet A { u8 x, }" 15 29 true; mkTok 43 (string_of_bytes [96; 108; 105; 110; 101; 49; 10; 108; 105; 110; 101; 50; 96]%N) 16 0 false; mkTok 40 "," 18 0 false; mkTok 5 "@calculatedFrom(" 18 2 false; mkTok 31 """// no comment""" 18 20 false; mkTok 6 ")" 18 36 false; mkTok 21 "uint16" 18 38 false; mkTok 44 "// a // b" 18 44 true; mkTok 42 "chars" 19 0 false; mkTok 5 "@calculatedFrom(" 19 6 false; mkTok 31 """`tick`""" 20 0 false; mkTok 6 ")" 20 9 false; mkTok 40 "," 20 11 false; mkTok 3 "}" 20 13 false; mkTok 35 "packet" 20 14 false; mkTok 42 "Header" 21 4 false; mkTok 2 "{" 21 11 false; mkTok 5 "@calculatedFrom(" 21 12 false; mkTok 31 (string_of_bytes [34; 92; 195; 169; 34]%N) 22 4 false; mkTok 6 ")" 23 0 false; mkTok 14 "zchar[" 24 0 false; mkTok 30 "007" 24 7 false; mkTok 13 "]" 24 11 false; mkTok 42 "As" 24 13 false; mkTok 7 "@lengthOf(" 24 16 false; mkTok 44 "// @lengthOf(" 25 4 true; mkTok 42 "Header" 26 4 false; mkTok 6 ")" 26 11 false; mkTok 40 "," 27 0 false; mkTok 42 "Header" 27 2 false; mkTok 44 "// a // b" 28 0 true; mkTok 44 "//x" 29 0 true; mkTok 7 "@lengthOf(" 30 0 false; mkTok 42 "leftPad" 30 11 false; mkTok 6 ")" 30 19 false; mkTok 43 "`doc`" 30 21 false; mkTok 40 "," 30 27 false; mkTok 36 "repeat" 31 4 false; mkTok 42 "zchar" 31 11 false; mkTok 42 "calculatedFrom" 31 17 false; mkTok 40 "," 31 32 false; mkTok 7 "@lengthOf(" 31 34 false; mkTok 42 "float" 31 45 false; mkTok 44 "// `tick` ""quote"" 'q'" 31 50 true; mkTok 6 ")" 32 0 false; mkTok 14 "zchar[" 32 2 false; mkTok 30 "0123456789" 32 9 false; mkTok 13 "]" 33 4 false; mkTok 42 "trueish" 33 6 false; mkTok 43 "``" 33 13 false; mkTok 44 "/// triple" 33 16 true; mkTok 40 "," 34 0 false; mkTok 38 "match" 35 4 false; mkTok 42 "x" 35 10 false; mkTok 17 "as" 35 12 false; mkTok 42 "string_" 36 0 false; mkTok 2 "{" 36 8 false; mkTok 18 "[" 37 0 false; mkTok 30 "255" 38 0 false; mkTok 13 "]" 38 3 false; mkTok 39 ":" 38 5 false; mkTok 42 "A" 38 7 false; mkTok 40 "," 38 9 false; mkTok 31 """abc""" 39 0 false; mkTok 39 ":" 39 6 false; mkTok 42 "Packet" 39 8 false; mkTok 40 "," 39 15 false; mkTok 18 "[" 39 17 false; mkTok 44 "//x" 39 18 true; mkTok 31 """`tick`""" 40 0 false; mkTok 40 "," 41 4 false; mkTok 30 "10" 41 5 false; mkTok 13 "]" 42 4 false; mkTok 39 ":" 43 0 false; mkTok 42 "Pad" 43 2 false; mkTok 40 "," 43 5 false; mkTok 3 "}" 44 4 false; mkTok 40 "," 45 0 false; mkTok 3 "}" 45 1 false; mkTok 35 "packet" 45 4 false; mkTok 42 "len" 45 11 false; mkTok 2 "{" 45 15 false; mkTok 44 (string_of_bytes [47; 47; 32; 240; 159; 152; 128; 32; 101; 109; 111; 106; 105]%N) 45 16 true; mkTok 42 "i8i8" 46 0 false; mkTok 42 "body" 46 5 false; mkTok 40 "," 46 10 false; mkTok 3 "}" 46 12 false; mkTok 37 "MetaData" 46 14 false; mkTok 42 "x" 46 23 false; mkTok 2 "{" 47 4 false; mkTok 28 "float32" 47 5 false; mkTok 42 "Header" 47 13 false; mkTok 40 "," 47 20 false; mkTok 20 "uint8" 47 22 false; mkTok 42 "A" 47 28 false; mkTok 40 "," 47 30 false; mkTok 42 "i8i8" 47 31 false; mkTok 42 "o" 48 0 false; mkTok 40 "," 48 2 false; mkTok 3 "}" 48 4 false; mkTok 0 "<EOF>" 50 0 false] (mkPacket (mkPtok 35 "packet" 1 0 0) (Some (mkPtok 3 "}" 48 4 150)) [(DPacket (mkPacketDef (mkSpan (mkPtok 35 "packet" 1 0 0) (mkPtok 3 "}" 20 13 64)) None (mkPtok 35 "packet" 1 0 0) (mkPtok 42 "u8x" 1 7 1) (mkPtok 2 "{" 1 11 2) [(mkFieldWithAttr (mkSpan (mkPtok 9 "@tag(" 1 12 3) (mkPtok 40 "," 10 0 30)) [(FATag (mkSpan (mkPtok 9 "@tag(" 1 12 3) (mkPtok 6 ")" 1 19 5)) (mkTagAttr (mkSpan (mkPtok 9 "@tag(" 1 12 3) (mkPtok 6 ")" 1 19 5)) (mkPtok 9 "@tag(" 1 12 3) (mkPtok 30 "0" 1 18 4) (mkPtok 6 ")" 1 19 5)))] (MatchField (mkSpan (mkPtok 38 "match" 2 0 6) (mkPtok 40 "," 10 0 30)) (mkMatchFieldDecl (mkSpan (mkPtok 38 "match" 2 0 6) (mkPtok 3 "}" 9 6 29)) (mkPtok 38 "match" 2 0 6) (mkPtok 42 "Header" 2 6 7) (mkPtok 17 "as" 2 13 8) (mkPtok 42 "packetx" 2 16 9) (mkPtok 2 "{" 5 0 12) [(mkMatchPair (mkSpan (mkPtok 31 """\n""" 5 1 13) (mkPtok 40 "," 5 9 16)) (MKString (mkPtok 31 """\n""" 5 1 13)) (mkPtok 39 ":" 5 5 14) (mkPtok 42 "o" 5 7 15) (Some (mkPtok 40 "," 5 9 16))); (mkMatchPair (mkSpan (mkPtok 30 "0" 5 11 17) (mkPtok 40 "," 6 8 20)) (MKDigits (mkPtok 30 "0" 5 11 17)) (mkPtok 39 ":" 5 13 18) (mkPtok 42 "Foo" 6 4 19) (Some (mkPtok 40 "," 6 8 20))); (mkMatchPair (mkSpan (mkPtok 30 "4294967296" 6 9 21) (mkPtok 40 "," 7 0 24)) (MKDigits (mkPtok 30 "4294967296" 6 9 21)) (mkPtok 39 ":" 6 19 22) (mkPtok 42 "rootA" 6 21 23) (Some (mkPtok 40 "," 7 0 24))); (mkMatchPair (mkSpan (mkPtok 30 "255" 8 4 25) (mkPtok 42 "i8i8" 9 1 28)) (MKDigits (mkPtok 30 "255" 8 4 25)) (mkPtok 39 ":" 9 0 27) (mkPtok 42 "i8i8" 9 1 28) None)] (mkPtok 3 "}" 9 6 29)) (mkPtok 40 "," 10 0 30))); (mkFieldWithAttr (mkSpan (mkPtok 36 "repeat" 11 0 32) (mkPtok 40 "," 12 14 36)) [] (MetaField (mkSpan (mkPtok 36 "repeat" 11 0 32) (mkPtok 40 "," 12 14 36)) (Some (mkPtok 36 "repeat" 11 0 32)) (mkMetaDecl (mkSpan (mkPtok 20 "uint8" 12 0 34) (mkPtok 40 "," 12 14 36)) (TyBasic (mkSpan (mkPtok 20 "uint8" 12 0 34) (mkPtok 20 "uint8" 12 0 34)) (mkBasicType (mkSpan (mkPtok 20 "uint8" 12 0 34) (mkPtok 20 "uint8" 12 0 34)) (mkPtok 20 "uint8" 12 0 34))) (mkPtok 42 "stringy" 12 6 35) None (mkPtok 40 "," 12 14 36)))); (mkFieldWithAttr (mkSpan (mkPtok 42 "chars" 12 16 37) (mkPtok 40 "," 12 22 38)) [] (ObjectField (mkSpan (mkPtok 42 "chars" 12 16 37) (mkPtok 40 "," 12 22 38)) None (mkPtok 42 "chars" 12 16 37) None None (mkPtok 40 "," 12 22 38))); (mkFieldWithAttr (mkSpan (mkPtok 23 "uint64" 13 0 39) (mkPtok 40 "," 14 0 42)) [] (MetaField (mkSpan (mkPtok 23 "uint64" 13 0 39) (mkPtok 40 "," 14 0 42)) None (mkMetaDecl (mkSpan (mkPtok 23 "uint64" 13 0 39) (mkPtok 40 "," 14 0 42)) (TyBasic (mkSpan (mkPtok 23 "uint64" 13 0 39) (mkPtok 23 "uint64" 13 0 39)) (mkBasicType (mkSpan (mkPtok 23 "uint64" 13 0 39) (mkPtok 23 "uint64" 13 0 39)) (mkPtok 23 "uint64" 13 0 39))) (mkPtok 42 "options1" 13 7 40) (Some (mkPtok 43 "`say ""hi""`" 13 16 41)) (mkPtok 40 "," 14 0 42)))); (mkFieldWithAttr (mkSpan (mkPtok 7 "@lengthOf(" 14 1 43) (mkPtok 40 "," 15 19 48)) [(FALengthOf (mkSpan (mkPtok 7 "@lengthOf(" 14 1 43) (mkPtok 6 ")" 14 18 45)) (mkLengthOf (mkSpan (mkPtok 7 "@lengthOf(" 14 1 43) (mkPtok 6 ")" 14 18 45)) (mkPtok 7 "@lengthOf(" 14 1 43) (mkPtok 42 "float" 14 12 44) (mkPtok 6 ")" 14 18 45)))] (MetaField (mkSpan (mkPtok 15 "string" 15 4 46) (mkPtok 40 "," 15 19 48)) None (mkMetaDecl (mkSpan (mkPtok 15 "string" 15 4 46) (mkPtok 40 "," 15 19 48)) (TyDynamic (mkSpan (mkPtok 15 "string" 15 4 46) (mkPtok 15 "string" 15 4 46)) (mkDynamicString (mkSpan (mkPtok 15 "string" 15 4 46) (mkPtok 15 "string" 15 4 46)) (mkPtok 15 "string" 15 4 46))) (mkPtok 42 "leftPad" 15 11 47) None (mkPtok 40 "," 15 19 48)))); (mkFieldWithAttr (mkSpan (mkPtok 42 "x" 15 22 49) (mkPtok 40 "," 18 0 53)) [] (ObjectField (mkSpan (mkPtok 42 "x" 15 22 49) (mkPtok 40 "," 18 0 53)) None (mkPtok 42 "x" 15 22 49) (Some (mkPtok 42 "body" 15 24 50)) (Some (mkPtok 43 (string_of_bytes [96; 108; 105; 110; 101; 49; 10; 108; 105; 110; 101; 50; 96]%N) 16 0 52)) (mkPtok 40 "," 18 0 53))); (mkFieldWithAttr (mkSpan (mkPtok 5 "@calculatedFrom(" 18 2 54) (mkPtok 40 "," 20 11 63)) [(FACalculatedFrom (mkSpan (mkPtok 5 "@calculatedFrom(" 18 2 54) (mkPtok 6 ")" 18 36 56)) (mkCalculatedFrom (mkSpan (mkPtok 5 "@calculatedFrom(" 18 2 54) (mkPtok 6 ")" 18 36 56)) (mkPtok 5 "@calculatedFrom(" 18 2 54) (mkPtok 31 """// no comment""" 18 20 55) (mkPtok 6 ")" 18 36 56)))] (CheckSumField (mkSpan (mkPtok 21 "uint16" 18 38 57) (mkPtok 40 "," 20 11 63)) (mkChecksumFieldDecl (mkSpan (mkPtok 21 "uint16" 18 38 57) (mkPtok 40 "," 20 11 63)) (Some (TyBasic (mkSpan (mkPtok 21 "uint16" 18 38 57) (mkPtok 21 "uint16" 18 38 57)) (mkBasicType (mkSpan (mkPtok 21 "uint16" 18 38 57) (mkPtok 21 "uint16" 18 38 57)) (mkPtok 21 "uint16" 18 38 57)))) (mkPtok 42 "chars" 19 0 59) (mkCalculatedFrom (mkSpan (mkPtok 5 "@calculatedFrom(" 19 6 60) (mkPtok 6 ")" 20 9 62)) (mkPtok 5 "@calculatedFrom(" 19 6 60) (mkPtok 31 """`tick`""" 20 0 61) (mkPtok 6 ")" 20 9 62)) None (mkPtok 40 "," 20 11 63))))] (mkPtok 3 "}" 20 13 64))); (DPacket (mkPacketDef (mkSpan (mkPtok 35 "packet" 20 14 65) (mkPtok 3 "}" 45 1 129)) None (mkPtok 35 "packet" 20 14 65) (mkPtok 42 "Header" 21 4 66) (mkPtok 2 "{" 21 11 67) [(mkFieldWithAttr (mkSpan (mkPtok 5 "@calculatedFrom(" 21 12 68) (mkPtok 40 "," 27 0 79)) [(FACalculatedFrom (mkSpan (mkPtok 5 "@calculatedFrom(" 21 12 68) (mkPtok 6 ")" 23 0 70)) (mkCalculatedFrom (mkSpan (mkPtok 5 "@calculatedFrom(" 21 12 68) (mkPtok 6 ")" 23 0 70)) (mkPtok 5 "@calculatedFrom(" 21 12 68) (mkPtok 31 (string_of_bytes [34; 92; 195; 169; 34]%N) 22 4 69) (mkPtok 6 ")" 23 0 70)))] (LengthField (mkSpan (mkPtok 14 "zchar[" 24 0 71) (mkPtok 40 "," 27 0 79)) (mkLengthFieldDecl (mkSpan (mkPtok 14 "zchar[" 24 0 71) (mkPtok 40 "," 27 0 79)) (Some (TyFixed (mkSpan (mkPtok 14 "zchar[" 24 0 71) (mkPtok 13 "]" 24 11 73)) (mkFixedString (mkSpan (mkPtok 14 "zchar[" 24 0 71) (mkPtok 13 "]" 24 11 73)) (mkPtok 14 "zchar[" 24 0 71) (mkPtok 30 "007" 24 7 72) (mkPtok 13 "]" 24 11 73)))) (mkPtok 42 "As" 24 13 74) (mkLengthOf (mkSpan (mkPtok 7 "@lengthOf(" 24 16 75) (mkPtok 6 ")" 26 11 78)) (mkPtok 7 "@lengthOf(" 24 16 75) (mkPtok 42 "Header" 26 4 77) (mkPtok 6 ")" 26 11 78)) None (mkPtok 40 "," 27 0 79)))); (mkFieldWithAttr (mkSpan (mkPtok 42 "Header" 27 2 80) (mkPtok 40 "," 30 27 87)) [] (LengthField (mkSpan (mkPtok 42 "Header" 27 2 80) (mkPtok 40 "," 30 27 87)) (mkLengthFieldDecl (mkSpan (mkPtok 42 "Header" 27 2 80) (mkPtok 40 "," 30 27 87)) None (mkPtok 42 "Header" 27 2 80) (mkLengthOf (mkSpan (mkPtok 7 "@lengthOf(" 30 0 83) (mkPtok 6 ")" 30 19 85)) (mkPtok 7 "@lengthOf(" 30 0 83) (mkPtok 42 "leftPad" 30 11 84) (mkPtok 6 ")" 30 19 85)) (Some (mkPtok 43 "`doc`" 30 21 86)) (mkPtok 40 "," 30 27 87)))); (mkFieldWithAttr (mkSpan (mkPtok 36 "repeat" 31 4 88) (mkPtok 40 "," 31 32 91)) [] (ObjectField (mkSpan (mkPtok 36 "repeat" 31 4 88) (mkPtok 40 "," 31 32 91)) (Some (mkPtok 36 "repeat" 31 4 88)) (mkPtok 42 "zchar" 31 11 89) (Some (mkPtok 42 "calculatedFrom" 31 17 90)) None (mkPtok 40 "," 31 32 91))); (mkFieldWithAttr (mkSpan (mkPtok 7 "@lengthOf(" 31 34 92) (mkPtok 40 "," 34 0 102)) [(FALengthOf (mkSpan (mkPtok 7 "@lengthOf(" 31 34 92) (mkPtok 6 ")" 32 0 95)) (mkLengthOf (mkSpan (mkPtok 7 "@lengthOf(" 31 34 92) (mkPtok 6 ")" 32 0 95)) (mkPtok 7 "@lengthOf(" 31 34 92) (mkPtok 42 "float" 31 45 93) (mkPtok 6 ")" 32 0 95)))] (MetaField (mkSpan (mkPtok 14 "zchar[" 32 2 96) (mkPtok 40 "," 34 0 102)) None (mkMetaDecl (mkSpan (mkPtok 14 "zchar[" 32 2 96) (mkPtok 40 "," 34 0 102)) (TyFixed (mkSpan (mkPtok 14 "zchar[" 32 2 96) (mkPtok 13 "]" 33 4 98)) (mkFixedString (mkSpan (mkPtok 14 "zchar[" 32 2 96) (mkPtok 13 "]" 33 4 98)) (mkPtok 14 "zchar[" 32 2 96) (mkPtok 30 "0123456789" 32 9 97) (mkPtok 13 "]" 33 4 98))) (mkPtok 42 "trueish" 33 6 99) (Some (mkPtok 43 "``" 33 13 100)) (mkPtok 40 "," 34 0 102)))); (mkFieldWithAttr (mkSpan (mkPtok 38 "match" 35 4 103) (mkPtok 40 "," 45 0 128)) [] (MatchField (mkSpan (mkPtok 38 "match" 35 4 103) (mkPtok 40 "," 45 0 128)) (mkMatchFieldDecl (mkSpan (mkPtok 38 "match" 35 4 103) (mkPtok 3 "}" 44 4 127)) (mkPtok 38 "match" 35 4 103) (mkPtok 42 "x" 35 10 104) (mkPtok 17 "as" 35 12 105) (mkPtok 42 "string_" 36 0 106) (mkPtok 2 "{" 36 8 107) [(mkMatchPair (mkSpan (mkPtok 18 "[" 37 0 108) (mkPtok 40 "," 38 9 113)) (MKList (mkKeyList (mkSpan (mkPtok 18 "[" 37 0 108) (mkPtok 13 "]" 38 3 110)) (mkPtok 18 "[" 37 0 108) (mkPtok 30 "255" 38 0 109) [] (mkPtok 13 "]" 38 3 110))) (mkPtok 39 ":" 38 5 111) (mkPtok 42 "A" 38 7 112) (Some (mkPtok 40 "," 38 9 113))); (mkMatchPair (mkSpan (mkPtok 31 """abc""" 39 0 114) (mkPtok 40 "," 39 15 117)) (MKString (mkPtok 31 """abc""" 39 0 114)) (mkPtok 39 ":" 39 6 115) (mkPtok 42 "Packet" 39 8 116) (Some (mkPtok 40 "," 39 15 117))); (mkMatchPair (mkSpan (mkPtok 18 "[" 39 17 118) (mkPtok 40 "," 43 5 126)) (MKList (mkKeyList (mkSpan (mkPtok 18 "[" 39 17 118) (mkPtok 13 "]" 42 4 123)) (mkPtok 18 "[" 39 17 118) (mkPtok 31 """`tick`""" 40 0 120) [((mkPtok 40 "," 41 4 121), (mkPtok 30 "10" 41 5 122))] (mkPtok 13 "]" 42 4 123))) (mkPtok 39 ":" 43 0 124) (mkPtok 42 "Pad" 43 2 125) (Some (mkPtok 40 "," 43 5 126)))] (mkPtok 3 "}" 44 4 127)) (mkPtok 40 "," 45 0 128)))] (mkPtok 3 "}" 45 1 129))); (DPacket (mkPacketDef (mkSpan (mkPtok 35 "packet" 45 4 130) (mkPtok 3 "}" 46 12 137)) None (mkPtok 35 "packet" 45 4 130) (mkPtok 42 "len" 45 11 131) (mkPtok 2 "{" 45 15 132) [(mkFieldWithAttr (mkSpan (mkPtok 42 "i8i8" 46 0 134) (mkPtok 40 "," 46 10 136)) [] (ObjectField (mkSpan (mkPtok 42 "i8i8" 46 0 134) (mkPtok 40 "," 46 10 136)) None (mkPtok 42 "i8i8" 46 0 134) (Some (mkPtok 42 "body" 46 5 135)) None (mkPtok 40 "," 46 10 136)))] (mkPtok 3 "}" 46 12 137))); (DMeta (mkMetaDef (mkSpan (mkPtok 37 "MetaData" 46 14 138) (mkPtok 3 "}" 48 4 150)) (mkPtok 37 "MetaData" 46 14 138) (mkPtok 42 "x" 46 23 139) (mkPtok 2 "{" 47 4 140) [(MIDecl (mkMetaDecl (mkSpan (mkPtok 28 "float32" 47 5 141) (mkPtok 40 "," 47 20 143)) (TyBasic (mkSpan (mkPtok 28 "float32" 47 5 141) (mkPtok 28 "float32" 47 5 141)) (mkBasicType (mkSpan (mkPtok 28 "float32" 47 5 141) (mkPtok 28 "float32" 47 5 141)) (mkPtok 28 "float32" 47 5 141))) (mkPtok 42 "Header" 47 13 142) None (mkPtok 40 "," 47 20 143))); (MIDecl (mkMetaDecl (mkSpan (mkPtok 20 "uint8" 47 22 144) (mkPtok 40 "," 47 30 146)) (TyBasic (mkSpan (mkPtok 20 "uint8" 47 22 144) (mkPtok 20 "uint8" 47 22 144)) (mkBasicType (mkSpan (mkPtok 20 "uint8" 47 22 144) (mkPtok 20 "uint8" 47 22 144)) (mkPtok 20 "uint8" 47 22 144))) (mkPtok 42 "A" 47 28 145) None (mkPtok 40 "," 47 30 146))); (MIRef (mkRefMetaDecl (mkSpan (mkPtok 42 "i8i8" 47 31 147) (mkPtok 40 "," 48 2 149)) (mkPtok 42 "i8i8" 47 31 147) (mkPtok 42 "o" 48 0 148) None (mkPtok 40 "," 48 2 149)))] (mkPtok 3 "}" 48 4 150)))])).
-Eval vm_compute in ("<<<M829>>>" ++ check (runes_of_ascii "root packet i8i8
-// `tick` ""quote"" 'q'
-// packet A { u8 x, }
-{ string calculatedFrom @calculatedFrom( ""a	b"" //x
-)
-    , @calculatedFrom(
-""abc"") // " ++ [27880; 37322]%N ++ runes_of_ascii "
-int32 float// " ++ [128512]%N ++ runes_of_ascii " emoji
-,
-//x
-// a // b
-@calculatedFrom( ""a\""b"")
-repeat u64 BodyLength
-,
     }
 ")).
-Eval vm_compute in ("<<<M861>>>" ++ check (runes_of_ascii "MetaData string_{ Header
-    u128`tab	here` ,i64 Z9_
-// " ++ [27880; 37322]%N ++ runes_of_ascii "
-/// triple
-, x matchKey
-,string
-u, f64
-    Foo, }
-
-")).
-Eval vm_compute in ("<<<M893>>>" ++ check (runes_of_ascii "
-MetaData crc  {
-} packet options1
-{ u32 int@lengthOf(
-int), @leftPad
-    /// triple
-    ( '\x00' )  repeat string uint8x
-,
-@lengthOf(
-    T )
-zchar trueish , @leftPad( )
-int32 // a // b
-i8i8 @lengthOf( u8x
-    // " ++ [27880; 37322]%N ++ runes_of_ascii "
-    ),
-// c
-// " ++ [27880; 37322]%N ++ runes_of_ascii "
-repeatCount@calculatedFrom( ""x y"" )
-    ,
-    Logon	falsey ,}options {
-int
-= ""\n"" //	t
-len=true ; _x= char
-As =	int16
-    ; }packet Z9_ { repeat rootA
-    , @lengthOf( a1 )  string_
-trueish
-    `" ++ [233]%N ++ runes_of_ascii "` ,
-int8	Foo , @tag(
-007) repeat falsey`// not a comment` /// triple
-, @tag(  0
-)f64 x @calculatedFrom( ""a\\""
-    // c
-    ) `// not a comment` , // `tick` ""quote"" 'q'
-uint64
-Header
-,
-u8 charz	@calculatedFrom( """ ++ [128512]%N ++ runes_of_ascii """) `" ++ [28040; 24687; 31867; 22411]%N ++ runes_of_ascii "` , i32 As @lengthOf(
-a1) `{ , }` , @calculatedFrom(
-    ""a	b"")
-uint16 x ,
-}
-")).
-Eval vm_compute in ("<<<M925>>>" ++ check (runes_of_ascii "
-")).
-Eval vm_compute in ("<<<M957>>>" ++ check (runes_of_ascii "packet string_ {
-zchar[ 65535 ]
-    stringy `
-`
-,
-    // `tick` ""quote"" 'q'
-    @lengthOf( As) string
-Packet
-    ,
-} packet	Foo {@tag( 255)
-lengthOf@calculatedFrom(
-    ""{,}""
-) ,
-    }root packet MetaDataX {
-@leftPad( '0'  )
-    stringy`{ , }` , }
-")).
-Eval vm_compute in ("<<<M989>>>" ++ check (runes_of_ascii "
-packet _x  {repeat int8
-    trueish
-,// packet A { u8 x, }
-}
-
-")).
-Eval vm_compute in ("<<<M1021>>>" ++ check (runes_of_ascii "root
-packet // " ++ [128512]%N ++ runes_of_ascii " emoji
-msg_type
-    {
-zchar[ 1  ] float
-    @lengthOf( A )
-    // packet A { u8 x, }
-    , u8x {// @lengthOf(
-repeat trueish {match
-    crc as Logon {
-    [ 1, 7 ]
-: // @lengthOf(
-A
-,} , } ,  } ,@tag(255
-    // c
-    ) match A as options1 { 7:body ,
-    [	""x y"", 3 /// triple
-, 0 ,7  , 0123456789] : tag ,
-    ""x y"" : crc
-    }	,	match stringy// packet A { u8 x, }
-as Z9_ { ""it's""
-// a // b
-// " ++ [128512]%N ++ runes_of_ascii " emoji
-: x_y_z
-    //
-    ,	1
-:pack }
-, //	t
-}
-MetaData repeatCount
-    {
-}
-")).
-Eval vm_compute in ("<<<T1021>>>" ++ terms [mkTok 34 "root" 1 0 false; mkTok 35 "packet" 2 0 false; mkTok 44 (string_of_bytes [47; 47; 32; 240; 159; 152; 128; 32; 101; 109; 111; 106; 105]%N) 2 7 true; mkTok 42 "msg_type" 3 0 false; mkTok 2 "{" 4 4 false; mkTok 14 "zchar[" 5 0 false; mkTok 30 "1" 5 7 false; mkTok 13 "]" 5 10 false; mkTok 42 "float" 5 12 false; mkTok 7 "@lengthOf(" 6 4 false; mkTok 42 "A" 6 15 false; mkTok 6 ")" 6 17 false; mkTok 44 "// packet A { u8 x, }" 7 4 true; mkTok 40 "," 8 4 false; mkTok 42 "u8x" 8 6 false; mkTok 2 "{" 8 10 false; mkTok 44 "// @lengthOf(" 8 11 true; mkTok 36 "repeat" 9 0 false; mkTok 42 "trueish" 9 7 false; mkTok 2 "{" 9 15 false; mkTok 38 "match" 9 16 false; mkTok 42 "crc" 10 4 false; mkTok 17 "as" 10 8 false; mkTok 42 "Logon" 10 11 false; mkTok 2 "{" 10 17 false; mkTok 18 "[" 11 4 false; mkTok 30 "1" 11 6 false; mkTok 40 "," 11 7 false; mkTok 30 "7" 11 9 false; mkTok 13 "]" 11 11 false; mkTok 39 ":" 12 0 false; mkTok 44 "// @lengthOf(" 12 2 true; mkTok 42 "A" 13 0 false; mkTok 40 "," 14 0 false; mkTok 3 "}" 14 1 false; mkTok 40 "," 14 3 false; mkTok 3 "}" 14 5 false; mkTok 40 "," 14 7 false; mkTok 3 "}" 14 10 false; mkTok 40 "," 14 12 false; mkTok 9 "@tag(" 14 13 false; mkTok 30 "255" 14 18 false; mkTok 44 "// c" 15 4 true; mkTok 6 ")" 16 4 false; mkTok 38 "match" 16 6 false; mkTok 42 "A" 16 12 false; mkTok 17 "as" 16 14 false; mkTok 42 "options1" 16 17 false; mkTok 2 "{" 16 26 false; mkTok 30 "7" 16 28 false; mkTok 39 ":" 16 29 false; mkTok 42 "body" 16 30 false; mkTok 40 "," 16 35 false; mkTok 18 "[" 17 4 false; mkTok 31 """x y""" 17 6 false; mkTok 40 "," 17 11 false; mkTok 30 "3" 17 13 false; mkTok 44 "/// triple" 17 15 true; mkTok 40 "," 18 0 false; mkTok 30 "0" 18 2 false; mkTok 40 "," 18 4 false; mkTok 30 "7" 18 5 false; mkTok 40 "," 18 8 false; mkTok 30 "0123456789" 18 10 false; mkTok 13 "]" 18 20 false; mkTok 39 ":" 18 22 false; mkTok 42 "tag" 18 24 false; mkTok 40 "," 18 28 false; mkTok 31 """x y""" 19 4 false; mkTok 39 ":" 19 10 false; mkTok 42 "crc" 19 12 false; mkTok 3 "}" 20 4 false; mkTok 40 "," 20 6 false; mkTok 38 "match" 20 8 false; mkTok 42 "stringy" 20 14 false; mkTok 44 "// packet A { u8 x, }" 20 21 true; mkTok 17 "as" 21 0 false; mkTok 42 "Z9_" 21 3 false; mkTok 2 "{" 21 7 false; mkTok 31 """it's""" 21 9 false; mkTok 44 "// a // b" 22 0 true; mkTok 44 (string_of_bytes [47; 47; 32; 240; 159; 152; 128; 32; 101; 109; 111; 106; 105]%N) 23 0 true; mkTok 39 ":" 24 0 false; mkTok 42 "x_y_z" 24 2 false; mkTok 44 "//" 25 4 true; mkTok 40 "," 26 4 false; mkTok 30 "1" 26 6 false; mkTok 39 ":" 27 0 false; mkTok 42 "pack" 27 1 false; mkTok 3 "}" 27 6 false; mkTok 40 "," 28 0 false; mkTok 44 (string_of_bytes [47; 47; 9; 116]%N) 28 2 true; mkTok 3 "}" 29 0 false; mkTok 37 "MetaData" 30 0 false; mkTok 42 "repeatCount" 30 9 false; mkTok 2 "{" 31 4 false; mkTok 3 "}" 32 0 false; mkTok 0 "<EOF>" 33 0 false] (mkPacket (mkPtok 34 "root" 1 0 0) (Some (mkPtok 3 "}" 32 0 96)) [(DPacket (mkPacketDef (mkSpan (mkPtok 34 "root" 1 0 0) (mkPtok 3 "}" 29 0 92)) (Some (mkPtok 34 "root" 1 0 0)) (mkPtok 35 "packet" 2 0 1) (mkPtok 42 "msg_type" 3 0 3) (mkPtok 2 "{" 4 4 4) [(mkFieldWithAttr (mkSpan (mkPtok 14 "zchar[" 5 0 5) (mkPtok 40 "," 8 4 13)) [] (LengthField (mkSpan (mkPtok 14 "zchar[" 5 0 5) (mkPtok 40 "," 8 4 13)) (mkLengthFieldDecl (mkSpan (mkPtok 14 "zchar[" 5 0 5) (mkPtok 40 "," 8 4 13)) (Some (TyFixed (mkSpan (mkPtok 14 "zchar[" 5 0 5) (mkPtok 13 "]" 5 10 7)) (mkFixedString (mkSpan (mkPtok 14 "zchar[" 5 0 5) (mkPtok 13 "]" 5 10 7)) (mkPtok 14 "zchar[" 5 0 5) (mkPtok 30 "1" 5 7 6) (mkPtok 13 "]" 5 10 7)))) (mkPtok 42 "float" 5 12 8) (mkLengthOf (mkSpan (mkPtok 7 "@lengthOf(" 6 4 9) (mkPtok 6 ")" 6 17 11)) (mkPtok 7 "@lengthOf(" 6 4 9) (mkPtok 42 "A" 6 15 10) (mkPtok 6 ")" 6 17 11)) None (mkPtok 40 "," 8 4 13)))); (mkFieldWithAttr (mkSpan (mkPtok 42 "u8x" 8 6 14) (mkPtok 40 "," 14 12 39)) [] (InerObjectField (mkSpan (mkPtok 42 "u8x" 8 6 14) (mkPtok 40 "," 14 12 39)) None (InerObjectDecl (mkSpan (mkPtok 42 "u8x" 8 6 14) (mkPtok 3 "}" 14 10 38)) (mkPtok 42 "u8x" 8 6 14) (mkPtok 2 "{" 8 10 15) [(InerObjectField (mkSpan (mkPtok 36 "repeat" 9 0 17) (mkPtok 40 "," 14 7 37)) (Some (mkPtok 36 "repeat" 9 0 17)) (InerObjectDecl (mkSpan (mkPtok 42 "trueish" 9 7 18) (mkPtok 3 "}" 14 5 36)) (mkPtok 42 "trueish" 9 7 18) (mkPtok 2 "{" 9 15 19) [(MatchField (mkSpan (mkPtok 38 "match" 9 16 20) (mkPtok 40 "," 14 3 35)) (mkMatchFieldDecl (mkSpan (mkPtok 38 "match" 9 16 20) (mkPtok 3 "}" 14 1 34)) (mkPtok 38 "match" 9 16 20) (mkPtok 42 "crc" 10 4 21) (mkPtok 17 "as" 10 8 22) (mkPtok 42 "Logon" 10 11 23) (mkPtok 2 "{" 10 17 24) [(mkMatchPair (mkSpan (mkPtok 18 "[" 11 4 25) (mkPtok 40 "," 14 0 33)) (MKList (mkKeyList (mkSpan (mkPtok 18 "[" 11 4 25) (mkPtok 13 "]" 11 11 29)) (mkPtok 18 "[" 11 4 25) (mkPtok 30 "1" 11 6 26) [((mkPtok 40 "," 11 7 27), (mkPtok 30 "7" 11 9 28))] (mkPtok 13 "]" 11 11 29))) (mkPtok 39 ":" 12 0 30) (mkPtok 42 "A" 13 0 32) (Some (mkPtok 40 "," 14 0 33)))] (mkPtok 3 "}" 14 1 34)) (mkPtok 40 "," 14 3 35))] (mkPtok 3 "}" 14 5 36)) (mkPtok 40 "," 14 7 37))] (mkPtok 3 "}" 14 10 38)) (mkPtok 40 "," 14 12 39))); (mkFieldWithAttr (mkSpan (mkPtok 9 "@tag(" 14 13 40) (mkPtok 40 "," 20 6 72)) [(FATag (mkSpan (mkPtok 9 "@tag(" 14 13 40) (mkPtok 6 ")" 16 4 43)) (mkTagAttr (mkSpan (mkPtok 9 "@tag(" 14 13 40) (mkPtok 6 ")" 16 4 43)) (mkPtok 9 "@tag(" 14 13 40) (mkPtok 30 "255" 14 18 41) (mkPtok 6 ")" 16 4 43)))] (MatchField (mkSpan (mkPtok 38 "match" 16 6 44) (mkPtok 40 "," 20 6 72)) (mkMatchFieldDecl (mkSpan (mkPtok 38 "match" 16 6 44) (mkPtok 3 "}" 20 4 71)) (mkPtok 38 "match" 16 6 44) (mkPtok 42 "A" 16 12 45) (mkPtok 17 "as" 16 14 46) (mkPtok 42 "options1" 16 17 47) (mkPtok 2 "{" 16 26 48) [(mkMatchPair (mkSpan (mkPtok 30 "7" 16 28 49) (mkPtok 40 "," 16 35 52)) (MKDigits (mkPtok 30 "7" 16 28 49)) (mkPtok 39 ":" 16 29 50) (mkPtok 42 "body" 16 30 51) (Some (mkPtok 40 "," 16 35 52))); (mkMatchPair (mkSpan (mkPtok 18 "[" 17 4 53) (mkPtok 40 "," 18 28 67)) (MKList (mkKeyList (mkSpan (mkPtok 18 "[" 17 4 53) (mkPtok 13 "]" 18 20 64)) (mkPtok 18 "[" 17 4 53) (mkPtok 31 """x y""" 17 6 54) [((mkPtok 40 "," 17 11 55), (mkPtok 30 "3" 17 13 56)); ((mkPtok 40 "," 18 0 58), (mkPtok 30 "0" 18 2 59)); ((mkPtok 40 "," 18 4 60), (mkPtok 30 "7" 18 5 61)); ((mkPtok 40 "," 18 8 62), (mkPtok 30 "0123456789" 18 10 63))] (mkPtok 13 "]" 18 20 64))) (mkPtok 39 ":" 18 22 65) (mkPtok 42 "tag" 18 24 66) (Some (mkPtok 40 "," 18 28 67))); (mkMatchPair (mkSpan (mkPtok 31 """x y""" 19 4 68) (mkPtok 42 "crc" 19 12 70)) (MKString (mkPtok 31 """x y""" 19 4 68)) (mkPtok 39 ":" 19 10 69) (mkPtok 42 "crc" 19 12 70) None)] (mkPtok 3 "}" 20 4 71)) (mkPtok 40 "," 20 6 72))); (mkFieldWithAttr (mkSpan (mkPtok 38 "match" 20 8 73) (mkPtok 40 "," 28 0 90)) [] (MatchField (mkSpan (mkPtok 38 "match" 20 8 73) (mkPtok 40 "," 28 0 90)) (mkMatchFieldDecl (mkSpan (mkPtok 38 "match" 20 8 73) (mkPtok 3 "}" 27 6 89)) (mkPtok 38 "match" 20 8 73) (mkPtok 42 "stringy" 20 14 74) (mkPtok 17 "as" 21 0 76) (mkPtok 42 "Z9_" 21 3 77) (mkPtok 2 "{" 21 7 78) [(mkMatchPair (mkSpan (mkPtok 31 """it's""" 21 9 79) (mkPtok 40 "," 26 4 85)) (MKString (mkPtok 31 """it's""" 21 9 79)) (mkPtok 39 ":" 24 0 82) (mkPtok 42 "x_y_z" 24 2 83) (Some (mkPtok 40 "," 26 4 85))); (mkMatchPair (mkSpan (mkPtok 30 "1" 26 6 86) (mkPtok 42 "pack" 27 1 88)) (MKDigits (mkPtok 30 "1" 26 6 86)) (mkPtok 39 ":" 27 0 87) (mkPtok 42 "pack" 27 1 88) None)] (mkPtok 3 "}" 27 6 89)) (mkPtok 40 "," 28 0 90)))] (mkPtok 3 "}" 29 0 92))); (DMeta (mkMetaDef (mkSpan (mkPtok 37 "MetaData" 30 0 93) (mkPtok 3 "}" 32 0 96)) (mkPtok 37 "MetaData" 30 0 93) (mkPtok 42 "repeatCount" 30 9 94) (mkPtok 2 "{" 31 4 95) [] (mkPtok 3 "}" 32 0 96)))])).
-Eval vm_compute in ("<<<M1053>>>" ++ check (runes_of_ascii "
-
-")).
-Eval vm_compute in ("<<<M1085>>>" ++ check (runes_of_ascii "options {
-    calculatedFrom //x
-=float64; x_y_z = 00 } packet roots { @lengthOf( trueish)  zchar[
-// trailing space 
-// c
-42  ] charz , } MetaData Header {  }")).
-Eval vm_compute in ("<<<M1117>>>" ++ check (runes_of_ascii "MetaData charz {calculatedFrom leftPad
-    ,}
-")).
-Eval vm_compute in ("<<<M1149>>>" ++ check (runes_of_ascii "MetaData u
-    // packet A { u8 x, }
-    { packetx A
-    , /// triple
-zchar[ 10 ] Packet
-    `" ++ [28040; 24687; 31867; 22411]%N ++ runes_of_ascii "`,
-char[ 10 ]x
-    ,
-}
-")).
-Eval vm_compute in ("<<<M1181>>>" ++ check (runes_of_ascii "// @lengthOf(
-MetaData Logon	{	char[]
+Eval vm_compute in ("<<<M125>>>" ++ check (runes_of_ascii "packet zchar { @tag( 65535 ) @tag(
+10 ) charz , char[] MetaDataX
+@calculatedFrom( ""x y"" )	`line1
+line2` ,
+    } 	 ")).
+Eval vm_compute in ("<<<T125>>>" ++ terms [mkTok 35 "packet" 1 0 false; mkTok 42 "zchar" 1 7 false; mkTok 2 "{" 1 13 false; mkTok 9 "@tag(" 1 15 false; mkTok 30 "65535" 1 21 false; mkTok 6 ")" 1 27 false; mkTok 9 "@tag(" 1 29 false; mkTok 30 "10" 2 0 false; mkTok 6 ")" 2 3 false; mkTok 42 "charz" 2 5 false; mkTok 40 "," 2 11 false; mkTok 16 "char[]" 2 13 false; mkTok 42 "MetaDataX" 2 20 false; mkTok 5 "@calculatedFrom(" 3 0 false; mkTok 31 """x y""" 3 17 false; mkTok 6 ")" 3 23 false; mkTok 43 (string_of_bytes [96; 108; 105; 110; 101; 49; 10; 108; 105; 110; 101; 50; 96]%N) 3 25 false; mkTok 40 "," 4 7 false; mkTok 3 "}" 5 4 false; mkTok 0 "<EOF>" 5 8 false] (mkPacket (mkPtok 35 "packet" 1 0 0) (Some (mkPtok 3 "}" 5 4 18)) [(DPacket (mkPacketDef (mkSpan (mkPtok 35 "packet" 1 0 0) (mkPtok 3 "}" 5 4 18)) None (mkPtok 35 "packet" 1 0 0) (mkPtok 42 "zchar" 1 7 1) (mkPtok 2 "{" 1 13 2) [(mkFieldWithAttr (mkSpan (mkPtok 9 "@tag(" 1 15 3) (mkPtok 40 "," 2 11 10)) [(FATag (mkSpan (mkPtok 9 "@tag(" 1 15 3) (mkPtok 6 ")" 1 27 5)) (mkTagAttr (mkSpan (mkPtok 9 "@tag(" 1 15 3) (mkPtok 6 ")" 1 27 5)) (mkPtok 9 "@tag(" 1 15 3) (mkPtok 30 "65535" 1 21 4) (mkPtok 6 ")" 1 27 5))); (FATag (mkSpan (mkPtok 9 "@tag(" 1 29 6) (mkPtok 6 ")" 2 3 8)) (mkTagAttr (mkSpan (mkPtok 9 "@tag(" 1 29 6) (mkPtok 6 ")" 2 3 8)) (mkPtok 9 "@tag(" 1 29 6) (mkPtok 30 "10" 2 0 7) (mkPtok 6 ")" 2 3 8)))] (ObjectField (mkSpan (mkPtok 42 "charz" 2 5 9) (mkPtok 40 "," 2 11 10)) None (mkPtok 42 "charz" 2 5 9) None None (mkPtok 40 "," 2 11 10))); (mkFieldWithAttr (mkSpan (mkPtok 16 "char[]" 2 13 11) (mkPtok 40 "," 4 7 17)) [] (CheckSumField (mkSpan (mkPtok 16 "char[]" 2 13 11) (mkPtok 40 "," 4 7 17)) (mkChecksumFieldDecl (mkSpan (mkPtok 16 "char[]" 2 13 11) (mkPtok 40 "," 4 7 17)) (Some (TyDynamic (mkSpan (mkPtok 16 "char[]" 2 13 11) (mkPtok 16 "char[]" 2 13 11)) (mkDynamicString (mkSpan (mkPtok 16 "char[]" 2 13 11) (mkPtok 16 "char[]" 2 13 11)) (mkPtok 16 "char[]" 2 13 11)))) (mkPtok 42 "MetaDataX" 2 20 12) (mkCalculatedFrom (mkSpan (mkPtok 5 "@calculatedFrom(" 3 0 13) (mkPtok 6 ")" 3 23 15)) (mkPtok 5 "@calculatedFrom(" 3 0 13) (mkPtok 31 """x y""" 3 17 14) (mkPtok 6 ")" 3 23 15)) (Some (mkPtok 43 (string_of_bytes [96; 108; 105; 110; 101; 49; 10; 108; 105; 110; 101; 50; 96]%N) 3 25 16)) (mkPtok 40 "," 4 7 17))))] (mkPtok 3 "}" 5 4 18)))])).
+Eval vm_compute in ("<<<M157>>>" ++ check (runes_of_ascii "packet calculatedFrom {	char matchKey, zchar[
 //	t
-// " ++ [27880; 37322]%N ++ runes_of_ascii "
-Foo // c
-, T
-roots , char[65535 ] Z9_ ,
-}
-")).
-Eval vm_compute in ("<<<M1213>>>" ++ check (runes_of_ascii "
-
-")).
-Eval vm_compute in ("<<<M1245>>>" ++ check (runes_of_ascii "packet asx {@tag(// trailing space 
-00 )
-options1, string repeatCount @calculatedFrom( ""// no comment"" ) `// not a comment`,	@leftPad
+// `tick` ""quote"" 'q'
+7]  x_y_z `// not a comment`
+    , @leftPad
+( ' ' ) // packet A { u8 x, }
+@rightPad // trailing space 
 (
-    '0')
-@tag(
-    42) packetx @lengthOf(msg_type
-// " ++ [128512]%N ++ runes_of_ascii " emoji
-/// triple
-) `{ , }` // packet A { u8 x, }
-,  }  packet
-roots { @tag(	1 ) // `tick` ""quote"" 'q'
-@tag( 1 ) @lengthOf( // @lengthOf(
-BodyLength ) char[ 0123456789
-]MetaDataX , /// triple
-} MetaData	string_ { }
-")).
-Eval vm_compute in ("<<<T1245>>>" ++ terms [mkTok 35 "packet" 1 0 false; mkTok 42 "asx" 1 7 false; mkTok 2 "{" 1 11 false; mkTok 9 "@tag(" 1 12 false; mkTok 44 "// trailing space " 1 17 true; mkTok 30 "00" 2 0 false; mkTok 6 ")" 2 3 false; mkTok 42 "options1" 3 0 false; mkTok 40 "," 3 8 false; mkTok 15 "string" 3 10 false; mkTok 42 "repeatCount" 3 17 false; mkTok 5 "@calculatedFrom(" 3 29 false; mkTok 31 """// no comment""" 3 46 false; mkTok 6 ")" 3 62 false; mkTok 43 "`// not a comment`" 3 64 false; mkTok 40 "," 3 82 false; mkTok 32 "@leftPad" 3 84 false; mkTok 8 "(" 4 0 false; mkTok 33 "'0'" 5 4 false; mkTok 6 ")" 5 7 false; mkTok 9 "@tag(" 6 0 false; mkTok 30 "42" 7 4 false; mkTok 6 ")" 7 6 false; mkTok 42 "packetx" 7 8 false; mkTok 7 "@lengthOf(" 7 16 false; mkTok 42 "msg_type" 7 26 false; mkTok 44 (string_of_bytes [47; 47; 32; 240; 159; 152; 128; 32; 101; 109; 111; 106; 105]%N) 8 0 true; mkTok 44 "/// triple" 9 0 true; mkTok 6 ")" 10 0 false; mkTok 43 "`{ , }`" 10 2 false; mkTok 44 "// packet A { u8 x, }" 10 10 true; mkTok 40 "," 11 0 false; mkTok 3 "}" 11 3 false; mkTok 35 "packet" 11 6 false; mkTok 42 "roots" 12 0 false; mkTok 2 "{" 12 6 false; mkTok 9 "@tag(" 12 8 false; mkTok 30 "1" 12 14 false; mkTok 6 ")" 12 16 false; mkTok 44 "// `tick` ""quote"" 'q'" 12 18 true; mkTok 9 "@tag(" 13 0 false; mkTok 30 "1" 13 6 false; mkTok 6 ")" 13 8 false; mkTok 7 "@lengthOf(" 13 10 false; mkTok 44 "// @lengthOf(" 13 21 true; mkTok 42 "BodyLength" 14 0 false; mkTok 6 ")" 14 11 false; mkTok 12 "char[" 14 13 false; mkTok 30 "0123456789" 14 19 false; mkTok 13 "]" 15 0 false; mkTok 42 "MetaDataX" 15 1 false; mkTok 40 "," 15 11 false; mkTok 44 "/// triple" 15 13 true; mkTok 3 "}" 16 0 false; mkTok 37 "MetaData" 16 2 false; mkTok 42 "string_" 16 11 false; mkTok 2 "{" 16 19 false; mkTok 3 "}" 16 21 false; mkTok 0 "<EOF>" 17 0 false] (mkPacket (mkPtok 35 "packet" 1 0 0) (Some (mkPtok 3 "}" 16 21 57)) [(DPacket (mkPacketDef (mkSpan (mkPtok 35 "packet" 1 0 0) (mkPtok 3 "}" 11 3 32)) None (mkPtok 35 "packet" 1 0 0) (mkPtok 42 "asx" 1 7 1) (mkPtok 2 "{" 1 11 2) [(mkFieldWithAttr (mkSpan (mkPtok 9 "@tag(" 1 12 3) (mkPtok 40 "," 3 8 8)) [(FATag (mkSpan (mkPtok 9 "@tag(" 1 12 3) (mkPtok 6 ")" 2 3 6)) (mkTagAttr (mkSpan (mkPtok 9 "@tag(" 1 12 3) (mkPtok 6 ")" 2 3 6)) (mkPtok 9 "@tag(" 1 12 3) (mkPtok 30 "00" 2 0 5) (mkPtok 6 ")" 2 3 6)))] (ObjectField (mkSpan (mkPtok 42 "options1" 3 0 7) (mkPtok 40 "," 3 8 8)) None (mkPtok 42 "options1" 3 0 7) None None (mkPtok 40 "," 3 8 8))); (mkFieldWithAttr (mkSpan (mkPtok 15 "string" 3 10 9) (mkPtok 40 "," 3 82 15)) [] (CheckSumField (mkSpan (mkPtok 15 "string" 3 10 9) (mkPtok 40 "," 3 82 15)) (mkChecksumFieldDecl (mkSpan (mkPtok 15 "string" 3 10 9) (mkPtok 40 "," 3 82 15)) (Some (TyDynamic (mkSpan (mkPtok 15 "string" 3 10 9) (mkPtok 15 "string" 3 10 9)) (mkDynamicString (mkSpan (mkPtok 15 "string" 3 10 9) (mkPtok 15 "string" 3 10 9)) (mkPtok 15 "string" 3 10 9)))) (mkPtok 42 "repeatCount" 3 17 10) (mkCalculatedFrom (mkSpan (mkPtok 5 "@calculatedFrom(" 3 29 11) (mkPtok 6 ")" 3 62 13)) (mkPtok 5 "@calculatedFrom(" 3 29 11) (mkPtok 31 """// no comment""" 3 46 12) (mkPtok 6 ")" 3 62 13)) (Some (mkPtok 43 "`// not a comment`" 3 64 14)) (mkPtok 40 "," 3 82 15)))); (mkFieldWithAttr (mkSpan (mkPtok 32 "@leftPad" 3 84 16) (mkPtok 40 "," 11 0 31)) [(FAPadding (mkSpan (mkPtok 32 "@leftPad" 3 84 16) (mkPtok 6 ")" 5 7 19)) (mkPaddingAttr (mkSpan (mkPtok 32 "@leftPad" 3 84 16) (mkPtok 6 ")" 5 7 19)) (mkPtok 32 "@leftPad" 3 84 16) (mkPtok 8 "(" 4 0 17) (Some (mkPtok 33 "'0'" 5 4 18)) (mkPtok 6 ")" 5 7 19))); (FATag (mkSpan (mkPtok 9 "@tag(" 6 0 20) (mkPtok 6 ")" 7 6 22)) (mkTagAttr (mkSpan (mkPtok 9 "@tag(" 6 0 20) (mkPtok 6 ")" 7 6 22)) (mkPtok 9 "@tag(" 6 0 20) (mkPtok 30 "42" 7 4 21) (mkPtok 6 ")" 7 6 22)))] (LengthField (mkSpan (mkPtok 42 "packetx" 7 8 23) (mkPtok 40 "," 11 0 31)) (mkLengthFieldDecl (mkSpan (mkPtok 42 "packetx" 7 8 23) (mkPtok 40 "," 11 0 31)) None (mkPtok 42 "packetx" 7 8 23) (mkLengthOf (mkSpan (mkPtok 7 "@lengthOf(" 7 16 24) (mkPtok 6 ")" 10 0 28)) (mkPtok 7 "@lengthOf(" 7 16 24) (mkPtok 42 "msg_type" 7 26 25) (mkPtok 6 ")" 10 0 28)) (Some (mkPtok 43 "`{ , }`" 10 2 29)) (mkPtok 40 "," 11 0 31))))] (mkPtok 3 "}" 11 3 32))); (DPacket (mkPacketDef (mkSpan (mkPtok 35 "packet" 11 6 33) (mkPtok 3 "}" 16 0 53)) None (mkPtok 35 "packet" 11 6 33) (mkPtok 42 "roots" 12 0 34) (mkPtok 2 "{" 12 6 35) [(mkFieldWithAttr (mkSpan (mkPtok 9 "@tag(" 12 8 36) (mkPtok 40 "," 15 11 51)) [(FATag (mkSpan (mkPtok 9 "@tag(" 12 8 36) (mkPtok 6 ")" 12 16 38)) (mkTagAttr (mkSpan (mkPtok 9 "@tag(" 12 8 36) (mkPtok 6 ")" 12 16 38)) (mkPtok 9 "@tag(" 12 8 36) (mkPtok 30 "1" 12 14 37) (mkPtok 6 ")" 12 16 38))); (FATag (mkSpan (mkPtok 9 "@tag(" 13 0 40) (mkPtok 6 ")" 13 8 42)) (mkTagAttr (mkSpan (mkPtok 9 "@tag(" 13 0 40) (mkPtok 6 ")" 13 8 42)) (mkPtok 9 "@tag(" 13 0 40) (mkPtok 30 "1" 13 6 41) (mkPtok 6 ")" 13 8 42))); (FALengthOf (mkSpan (mkPtok 7 "@lengthOf(" 13 10 43) (mkPtok 6 ")" 14 11 46)) (mkLengthOf (mkSpan (mkPtok 7 "@lengthOf(" 13 10 43) (mkPtok 6 ")" 14 11 46)) (mkPtok 7 "@lengthOf(" 13 10 43) (mkPtok 42 "BodyLength" 14 0 45) (mkPtok 6 ")" 14 11 46)))] (MetaField (mkSpan (mkPtok 12 "char[" 14 13 47) (mkPtok 40 "," 15 11 51)) None (mkMetaDecl (mkSpan (mkPtok 12 "char[" 14 13 47) (mkPtok 40 "," 15 11 51)) (TyFixed (mkSpan (mkPtok 12 "char[" 14 13 47) (mkPtok 13 "]" 15 0 49)) (mkFixedString (mkSpan (mkPtok 12 "char[" 14 13 47) (mkPtok 13 "]" 15 0 49)) (mkPtok 12 "char[" 14 13 47) (mkPtok 30 "0123456789" 14 19 48) (mkPtok 13 "]" 15 0 49))) (mkPtok 42 "MetaDataX" 15 1 50) None (mkPtok 40 "," 15 11 51))))] (mkPtok 3 "}" 16 0 53))); (DMeta (mkMetaDef (mkSpan (mkPtok 37 "MetaData" 16 2 54) (mkPtok 3 "}" 16 21 57)) (mkPtok 37 "MetaData" 16 2 54) (mkPtok 42 "string_" 16 11 55) (mkPtok 2 "{" 16 19 56) [] (mkPtok 3 "}" 16 21 57)))])).
-Eval vm_compute in ("<<<M1277>>>" ++ check (runes_of_ascii "  packet  uint8x // a // b
-{
-    //x
-    } MetaData A
-    /// triple
-    {float32 options1 , roots
-    uint8x
-    , trueish asx , string options1 `" ++ [28040; 24687; 31867; 22411]%N ++ runes_of_ascii "`
-    , i32 int
+    )repeat  Header	`` ,
+body  { repeat i32
+BodyLength, } , match Foo as//x
+pack {
+    0
+: _x// @lengthOf(
 ,
-    u// " ++ [128512]%N ++ runes_of_ascii " emoji
-As `doc` ,
-} packet Header {
-    char[]
-A
-, // a // b
-repeat metadata{match
-    /// triple
-    leftPad as Foo { ""a\""b"" : msg_type
-    // `tick` ""quote"" 'q'
     }
-    , } , char[] trueish  ,
-matchKey  {
-char[ 4294967296//	t
-] roots	@calculatedFrom( ""x y"" ) , }, i8// " ++ [128512]%N ++ runes_of_ascii " emoji
-MetaDataX@calculatedFrom(  ""packet""
-), }
+    , int64
+Foo
+`100% of %d`
+    // `tick` ""quote"" 'q'
+    ,
+} packet asx{}options
+{ o =007; } packet A
+{ }	options { Logon = true}
 ")).
-Eval vm_compute in ("<<<M1309>>>" ++ check (runes_of_ascii "packet
-f32a {
-i64_  falsey ,match
-/// triple
-//
-i8i8 as _x { // " ++ [27880; 37322]%N ++ runes_of_ascii "
-0
-    //x
-    : Logon,[65535 , ""x y""
-    ]:Header ,
-4294967296//x
-: Foo, /// triple
-} ,
-@tag( 0123456789 )	u8x msg_type
-`say ""hi""`  , }  packet
+Eval vm_compute in ("<<<M189>>>" ++ check (runes_of_ascii "options {As	= 007 x
     // a // b
-    Z9_  {
-    repeatCount leftPad  `two words` // `tick` ""quote"" 'q'
-,
+    =
+    false ; x_y_z // trailing space 
+= ""a\\""
+//
+// 50% %s
+; }
+packet BodyLength{
+    @tag(  255
+)// " ++ [128512]%N ++ runes_of_ascii " emoji
+match trueish
+    // c
+    as Pad {
+""a\\"" : calculatedFrom	, ""a	b""//
+:leftPad
+    } , }
+MetaData calculatedFrom{
+    char[ 3 ]matchKey , char[ 4294967296  ] matchKey	, o x_y_z
+, lengthOf packetx
+    `crlf
+line`,
+// packet A { u8 x, }
+//	t
 }
-    MetaData
-calculatedFrom{ u charz `{ , }`
-,
-    u64 T //x
-`tab	here`, Foo	options1 `" ++ [233]%N ++ runes_of_ascii "` ,
-char[] x
-`doc` ,i8i8
-u8x  ,}
-
 ")).
-Eval vm_compute in ("<<<M1341>>>" ++ check (runes_of_ascii "packet T {@rightPad
-() @tag(00
-    ) char[]
-a1
+Eval vm_compute in ("<<<M221>>>" ++ check (runes_of_ascii "options {// " ++ [27880; 37322]%N ++ runes_of_ascii "
+len =
+    // a // b
+    ""a\\""
+    stringy = char[] ; // @lengthOf(
+A = 0 ;	len =int64 packetx = ""`tick`"" }")).
+Eval vm_compute in ("<<<M253>>>" ++ check (runes_of_ascii "packet calculatedFrom { @leftPad	( /// triple
+'\x00') match asx as
+x  { 0 :T
+,}, roots Pad
+, @lengthOf( o) packetx { BodyLength { f64 charz ,
+// c
+//x
+Packet  , repeat A {
+Header , } ,repeat
+Pad
+f32a
+    `a\`  , } ,
+    repeat options1 , } ,
+    @leftPad ( ' ' ) repeat packetx { //
+int16 Logon  , } , float32
+    rootA	@calculatedFrom( ""a\\""), char[] u	,
+tag leftPad `doc`
+,@calculatedFrom(	""" ++ [28040; 24687]%N ++ runes_of_ascii """ )
+match roots as trueish
+{[
+    255 ,
+""a\""b""
+    , ""1""
+, ""\n""
+,
+42 , 42  , 65535 ,
+10]
+: u8x,[ // trailing space 
+""""
+, ""CRC32"" ,
+3 ,
+    255, 0123456789 ,
+""packet"", ""a	b""
+, """"
+]
+:leftPad ,
+0123456789  : crc
+    , ""a\""b"" : Header , 1 :string_ 65535	: a1 } , repeat// `tick` ""quote"" 'q'
+crc ,
+    }
+")).
+Eval vm_compute in ("<<<M285>>>" ++ check (runes_of_ascii "
+")).
+Eval vm_compute in ("<<<M317>>>" ++ check (runes_of_ascii "packet matchKey {
+pack { repeat i32 body
+    , string
+/// triple
+// 50% %s
+crc
+    @lengthOf(
+As  )
+, } , @lengthOf( len )repeat f64 u// @lengthOf(
+, uint8 matchKey
+    ,/// triple
+@lengthOf(Logon )int32
+a1  `crlf
+line` ,A@lengthOf( msg_type/// triple
+)
+,@leftPad ( ' ') asx@lengthOf( tag
+    ), u32 crc
+`u8 x,` ,//x
+char[] Header`// not a comment`// packet A { u8 x, }
+,
+@rightPad (' ' ) repeat A`a\`	,
+}packet repeatCount
+    {  } packet lengthOf
+//
+// @lengthOf(
+{
+// a // b
+// c
+match As
+//	t
+// `tick` ""quote"" 'q'
+as
+    asx
+{ ""CRC32"" : rootA
+    ,
+""a	b"" : packetx , } , }
+root
+    packet
+matchKey {
+    @leftPad (
+    '\x00') uint16
+trueish
+    @lengthOf( i64_ ) `{ , }`
+,	@lengthOf(	i64_	) int calculatedFrom ,@leftPad
+    //
+    ( '0' ) float64 body ,}")).
+Eval vm_compute in ("<<<M349>>>" ++ check (runes_of_ascii "
+packet uint8x {
+    @lengthOf(
+// a // b
+//x
+falsey ) // " ++ [128512]%N ++ runes_of_ascii " emoji
+uint32 int , @lengthOf( BodyLength // c
+)
+    // trailing space 
     @calculatedFrom(
     ""a\""b""
-    )
-    `two words`
+) repeat
+matchKey u/// triple
+,
+    asx MetaDataX `line1
+line2` ,
+@leftPad ( '\x00'
+) repeat i64_ len,
+    u, @calculatedFrom(
+""abc""	) char[// 50% %s
+65535 ]
+    MetaDataX
+// c
+// @lengthOf(
+`" ++ [28040; 24687; 31867; 22411]%N ++ runes_of_ascii "`, } 	 ")).
+Eval vm_compute in ("<<<T349>>>" ++ terms [mkTok 35 "packet" 2 0 false; mkTok 42 "uint8x" 2 7 false; mkTok 2 "{" 2 14 false; mkTok 7 "@lengthOf(" 3 4 false; mkTok 44 "// a // b" 4 0 true; mkTok 44 "//x" 5 0 true; mkTok 42 "falsey" 6 0 false; mkTok 6 ")" 6 7 false; mkTok 44 (string_of_bytes [47; 47; 32; 240; 159; 152; 128; 32; 101; 109; 111; 106; 105]%N) 6 9 true; mkTok 22 "uint32" 7 0 false; mkTok 42 "int" 7 7 false; mkTok 40 "," 7 11 false; mkTok 7 "@lengthOf(" 7 13 false; mkTok 42 "BodyLength" 7 24 false; mkTok 44 "// c" 7 35 true; mkTok 6 ")" 8 0 false; mkTok 44 "// trailing space " 9 4 true; mkTok 5 "@calculatedFrom(" 10 4 false; mkTok 31 """a\""b""" 11 4 false; mkTok 6 ")" 12 0 false; mkTok 36 "repeat" 12 2 false; mkTok 42 "matchKey" 13 0 false; mkTok 42 "u" 13 9 false; mkTok 44 "/// triple" 13 10 true; mkTok 40 "," 14 0 false; mkTok 42 "asx" 15 4 false; mkTok 42 "MetaDataX" 15 8 false; mkTok 43 (string_of_bytes [96; 108; 105; 110; 101; 49; 10; 108; 105; 110; 101; 50; 96]%N) 15 18 false; mkTok 40 "," 16 7 false; mkTok 32 "@leftPad" 17 0 false; mkTok 8 "(" 17 9 false; mkTok 33 "'\x00'" 17 11 false; mkTok 6 ")" 18 0 false; mkTok 36 "repeat" 18 2 false; mkTok 42 "i64_" 18 9 false; mkTok 42 "len" 18 14 false; mkTok 40 "," 18 17 false; mkTok 42 "u" 19 4 false; mkTok 40 "," 19 5 false; mkTok 5 "@calculatedFrom(" 19 7 false; mkTok 31 """abc""" 20 0 false; mkTok 6 ")" 20 6 false; mkTok 12 "char[" 20 8 false; mkTok 44 "// 50% %s" 20 13 true; mkTok 30 "65535" 21 0 false; mkTok 13 "]" 21 6 false; mkTok 42 "MetaDataX" 22 4 false; mkTok 44 "// c" 23 0 true; mkTok 44 "// @lengthOf(" 24 0 true; mkTok 43 (string_of_bytes [96; 230; 182; 136; 230; 129; 175; 231; 177; 187; 229; 158; 139; 96]%N) 25 0 false; mkTok 40 "," 25 6 false; mkTok 3 "}" 25 8 false; mkTok 0 "<EOF>" 25 12 false] (mkPacket (mkPtok 35 "packet" 2 0 0) (Some (mkPtok 3 "}" 25 8 51)) [(DPacket (mkPacketDef (mkSpan (mkPtok 35 "packet" 2 0 0) (mkPtok 3 "}" 25 8 51)) None (mkPtok 35 "packet" 2 0 0) (mkPtok 42 "uint8x" 2 7 1) (mkPtok 2 "{" 2 14 2) [(mkFieldWithAttr (mkSpan (mkPtok 7 "@lengthOf(" 3 4 3) (mkPtok 40 "," 7 11 11)) [(FALengthOf (mkSpan (mkPtok 7 "@lengthOf(" 3 4 3) (mkPtok 6 ")" 6 7 7)) (mkLengthOf (mkSpan (mkPtok 7 "@lengthOf(" 3 4 3) (mkPtok 6 ")" 6 7 7)) (mkPtok 7 "@lengthOf(" 3 4 3) (mkPtok 42 "falsey" 6 0 6) (mkPtok 6 ")" 6 7 7)))] (MetaField (mkSpan (mkPtok 22 "uint32" 7 0 9) (mkPtok 40 "," 7 11 11)) None (mkMetaDecl (mkSpan (mkPtok 22 "uint32" 7 0 9) (mkPtok 40 "," 7 11 11)) (TyBasic (mkSpan (mkPtok 22 "uint32" 7 0 9) (mkPtok 22 "uint32" 7 0 9)) (mkBasicType (mkSpan (mkPtok 22 "uint32" 7 0 9) (mkPtok 22 "uint32" 7 0 9)) (mkPtok 22 "uint32" 7 0 9))) (mkPtok 42 "int" 7 7 10) None (mkPtok 40 "," 7 11 11)))); (mkFieldWithAttr (mkSpan (mkPtok 7 "@lengthOf(" 7 13 12) (mkPtok 40 "," 14 0 24)) [(FALengthOf (mkSpan (mkPtok 7 "@lengthOf(" 7 13 12) (mkPtok 6 ")" 8 0 15)) (mkLengthOf (mkSpan (mkPtok 7 "@lengthOf(" 7 13 12) (mkPtok 6 ")" 8 0 15)) (mkPtok 7 "@lengthOf(" 7 13 12) (mkPtok 42 "BodyLength" 7 24 13) (mkPtok 6 ")" 8 0 15))); (FACalculatedFrom (mkSpan (mkPtok 5 "@calculatedFrom(" 10 4 17) (mkPtok 6 ")" 12 0 19)) (mkCalculatedFrom (mkSpan (mkPtok 5 "@calculatedFrom(" 10 4 17) (mkPtok 6 ")" 12 0 19)) (mkPtok 5 "@calculatedFrom(" 10 4 17) (mkPtok 31 """a\""b""" 11 4 18) (mkPtok 6 ")" 12 0 19)))] (ObjectField (mkSpan (mkPtok 36 "repeat" 12 2 20) (mkPtok 40 "," 14 0 24)) (Some (mkPtok 36 "repeat" 12 2 20)) (mkPtok 42 "matchKey" 13 0 21) (Some (mkPtok 42 "u" 13 9 22)) None (mkPtok 40 "," 14 0 24))); (mkFieldWithAttr (mkSpan (mkPtok 42 "asx" 15 4 25) (mkPtok 40 "," 16 7 28)) [] (ObjectField (mkSpan (mkPtok 42 "asx" 15 4 25) (mkPtok 40 "," 16 7 28)) None (mkPtok 42 "asx" 15 4 25) (Some (mkPtok 42 "MetaDataX" 15 8 26)) (Some (mkPtok 43 (string_of_bytes [96; 108; 105; 110; 101; 49; 10; 108; 105; 110; 101; 50; 96]%N) 15 18 27)) (mkPtok 40 "," 16 7 28))); (mkFieldWithAttr (mkSpan (mkPtok 32 "@leftPad" 17 0 29) (mkPtok 40 "," 18 17 36)) [(FAPadding (mkSpan (mkPtok 32 "@leftPad" 17 0 29) (mkPtok 6 ")" 18 0 32)) (mkPaddingAttr (mkSpan (mkPtok 32 "@leftPad" 17 0 29) (mkPtok 6 ")" 18 0 32)) (mkPtok 32 "@leftPad" 17 0 29) (mkPtok 8 "(" 17 9 30) (Some (mkPtok 33 "'\x00'" 17 11 31)) (mkPtok 6 ")" 18 0 32)))] (ObjectField (mkSpan (mkPtok 36 "repeat" 18 2 33) (mkPtok 40 "," 18 17 36)) (Some (mkPtok 36 "repeat" 18 2 33)) (mkPtok 42 "i64_" 18 9 34) (Some (mkPtok 42 "len" 18 14 35)) None (mkPtok 40 "," 18 17 36))); (mkFieldWithAttr (mkSpan (mkPtok 42 "u" 19 4 37) (mkPtok 40 "," 19 5 38)) [] (ObjectField (mkSpan (mkPtok 42 "u" 19 4 37) (mkPtok 40 "," 19 5 38)) None (mkPtok 42 "u" 19 4 37) None None (mkPtok 40 "," 19 5 38))); (mkFieldWithAttr (mkSpan (mkPtok 5 "@calculatedFrom(" 19 7 39) (mkPtok 40 "," 25 6 50)) [(FACalculatedFrom (mkSpan (mkPtok 5 "@calculatedFrom(" 19 7 39) (mkPtok 6 ")" 20 6 41)) (mkCalculatedFrom (mkSpan (mkPtok 5 "@calculatedFrom(" 19 7 39) (mkPtok 6 ")" 20 6 41)) (mkPtok 5 "@calculatedFrom(" 19 7 39) (mkPtok 31 """abc""" 20 0 40) (mkPtok 6 ")" 20 6 41)))] (MetaField (mkSpan (mkPtok 12 "char[" 20 8 42) (mkPtok 40 "," 25 6 50)) None (mkMetaDecl (mkSpan (mkPtok 12 "char[" 20 8 42) (mkPtok 40 "," 25 6 50)) (TyFixed (mkSpan (mkPtok 12 "char[" 20 8 42) (mkPtok 13 "]" 21 6 45)) (mkFixedString (mkSpan (mkPtok 12 "char[" 20 8 42) (mkPtok 13 "]" 21 6 45)) (mkPtok 12 "char[" 20 8 42) (mkPtok 30 "65535" 21 0 44) (mkPtok 13 "]" 21 6 45))) (mkPtok 42 "MetaDataX" 22 4 46) (Some (mkPtok 43 (string_of_bytes [96; 230; 182; 136; 230; 129; 175; 231; 177; 187; 229; 158; 139; 96]%N) 25 0 49)) (mkPtok 40 "," 25 6 50))))] (mkPtok 3 "}" 25 8 51)))])).
+Eval vm_compute in ("<<<M381>>>" ++ check (runes_of_ascii "
+MetaData tag
+{ f32 float , char[ 0123456789] a1 , len	metadata`line1
+line2` ,
+    char[]body ,matchKey A // 50% %s
+,
+    }
+")).
+Eval vm_compute in ("<<<M413>>>" ++ check (runes_of_ascii "// c
+MetaData tag{char[] u , }
+")).
+Eval vm_compute in ("<<<M445>>>" ++ check (runes_of_ascii " 	 ")).
+Eval vm_compute in ("<<<M477>>>" ++ check (runes_of_ascii "root packet roots { } packet repeatCount
+    {f32 lengthOf ,}
+packet f32a {
+uint64
+    lengthOf @lengthOf( Foo ) ,
+    @lengthOf( As)/// triple
+@tag( 0)match chars
+// @lengthOf(
+// trailing space 
+as // a // b
+uint8x{ [ ""x y""
+, ""// no comment""	] // 50% %s
+:
+    // trailing space 
+    stringy // " ++ [27880; 37322]%N ++ runes_of_ascii "
+,[ 1 ] : A,
+""`tick`"" :
+// c
+/// triple
+metadata 10 :
+// a // b
+//
+zchar 007 :  u128, } ,	string_ , x_y_z ``, }
+")).
+Eval vm_compute in ("<<<M509>>>" ++ check (runes_of_ascii "root packet // `tick` ""quote"" 'q'
+Packet
+// `tick` ""quote"" 'q'
+// `tick` ""quote"" 'q'
+{ char i64_,match
+crc
+    as
+trueish
+{007
+    :pack  ,[""a\\"" , 255 // a // b
+] :
+a1 , // packet A { u8 x, }
+} ,MetaDataX{
+char[ 1
+]
+    Z9_ `100% of %d` ,
+    } ,	@calculatedFrom( ""a	b"" ) @tag( 3 // trailing space 
+)@tag(42) match stringy  as calculatedFrom
+    //	t
+    { """ ++ [233]%N ++ runes_of_ascii "t" ++ [233]%N ++ runes_of_ascii """
+:
+Z9_ , ""\n"":
+    uint8x ,[""x y"",
+    ""packet"", ""it's""]: repeatCount
+    }
+, @tag(
+65535 )	int16 x `doc` , @leftPad ( '0' )char[]
+options1
+    , // 50% %s
+match len
+as // a // b
+As	{ [ ""x y""
+    , 00 , // " ++ [128512]%N ++ runes_of_ascii " emoji
+""it's""
+    ,
+    ""1"" , // @lengthOf(
+10	, ""`tick`""
+    , ""// no comment""] :
+crc	,
+    3:
+T,} ,}options{ calculatedFrom = f64 calculatedFrom= '\x00'
+; zchar = f32
+;
+    } packet lengthOf  {i8
+leftPad
+    ,i8 uint8x @calculatedFrom(
+    ""packet"" ) `100% of %d` ,
+@calculatedFrom("""" )@tag( 007 )char[ 10
+]
+    T // @lengthOf(
+@calculatedFrom(	""""
+) , u8x
+    {// " ++ [128512]%N ++ runes_of_ascii " emoji
+zchar
+    // 50% %s
+    @lengthOf( u)  `100% of %d`	,	}
+, float // trailing space 
+`" ++ [233]%N ++ runes_of_ascii "`,
+i64 packetx  , @lengthOf( BodyLength)	string calculatedFrom
+    , repeat
+    zchar[
+00 //
+] roots, }packet
+    T // packet A { u8 x, }
+{ }
+//x
+")).
+Eval vm_compute in ("<<<M541>>>" ++ check (runes_of_ascii "options
+{
+matchKey =
+    ' '; } root packet options1 {  @tag(
+    1 // trailing space 
+) char[]
+repeatCount // a // b
+`tab	here` ,
+@lengthOf( rootA )
+zchar[ 42 //	t
+]// c
+o,
+match Header as
+i64_
+{[ ""x y"" , ""1"", 3
+] : int,""" ++ [128512]%N ++ runes_of_ascii """
+: options1, [
+    ""abc"" ] // a // b
+: body , 65535 : roots
+//	t
+// a // b
+, // " ++ [128512]%N ++ runes_of_ascii " emoji
+} , msg_type /// triple
+charz ,string f32a
+`// not a comment`  ,repeat
+int ,
+char[
+0 ] _x`two words` ,  i16 metadata// packet A { u8 x, }
+@lengthOf(  metadata ) `two words`
+    ,
+    }
+MetaData uint8x { len stringy `{ , }`
+, } options { u128
+=
+/// triple
+// a // b
+00;// `tick` ""quote"" 'q'
+Pad =
+char[ 7 ] ; calculatedFrom
+=
+    """ ++ [28040; 24687]%N ++ runes_of_ascii """crc=
+    char[]	; Z9_ =	'0';
+} packet rootA{
+    // a // b
+    repeat
+    x_y_z
     , }
 ")).
-Eval vm_compute in ("<<<M1373>>>" ++ check (runes_of_ascii "MetaData
-    //	t
-    i8i8  {
-    u8 string_ `crlf
-line` ,} root // trailing space 
-packet MetaDataX
-{ @rightPad
-    //
-    ( ' '
-)char[] MetaDataX
-@lengthOf(
-packetx	) ,//	t
-} packet packetx	{ @lengthOf(
-uint8x )//
-trueish`doc`	,
-@calculatedFrom(
-    ""a\""b""
+Eval vm_compute in ("<<<M573>>>" ++ check (runes_of_ascii "root	packet chars { @leftPad('0' ) f32
+options1 @lengthOf(
+x )
+    `it's`  , } packet i8i8{// trailing space 
+uint8 //x
+body
+,zchar[ 65535 ] pack	@lengthOf( leftPad
+) , @lengthOf( lengthOf
+    ) u8 i8i8 @lengthOf(
+f32a ),	}
+    packet u8x
+    // packet A { u8 x, }
+    { }")).
+Eval vm_compute in ("<<<T573>>>" ++ terms [mkTok 34 "root" 1 0 false; mkTok 35 "packet" 1 5 false; mkTok 42 "chars" 1 12 false; mkTok 2 "{" 1 18 false; mkTok 32 "@leftPad" 1 20 false; mkTok 8 "(" 1 28 false; mkTok 33 "'0'" 1 29 false; mkTok 6 ")" 1 33 false; mkTok 28 "f32" 1 35 false; mkTok 42 "options1" 2 0 false; mkTok 7 "@lengthOf(" 2 9 false; mkTok 42 "x" 3 0 false; mkTok 6 ")" 3 2 false; mkTok 43 "`it's`" 4 4 false; mkTok 40 "," 4 12 false; mkTok 3 "}" 4 14 false; mkTok 35 "packet" 4 16 false; mkTok 42 "i8i8" 4 23 false; mkTok 2 "{" 4 27 false; mkTok 44 "// trailing space " 4 28 true; mkTok 20 "uint8" 5 0 false; mkTok 44 "//x" 5 6 true; mkTok 42 "body" 6 0 false; mkTok 40 "," 7 0 false; mkTok 14 "zchar[" 7 1 false; mkTok 30 "65535" 7 8 false; mkTok 13 "]" 7 14 false; mkTok 42 "pack" 7 16 false; mkTok 7 "@lengthOf(" 7 21 false; mkTok 42 "leftPad" 7 32 false; mkTok 6 ")" 8 0 false; mkTok 40 "," 8 2 false; mkTok 7 "@lengthOf(" 8 4 false; mkTok 42 "lengthOf" 8 15 false; mkTok 6 ")" 9 4 false; mkTok 20 "u8" 9 6 false; mkTok 42 "i8i8" 9 9 false; mkTok 7 "@lengthOf(" 9 14 false; mkTok 42 "f32a" 10 0 false; mkTok 6 ")" 10 5 false; mkTok 40 "," 10 6 false; mkTok 3 "}" 10 8 false; mkTok 35 "packet" 11 4 false; mkTok 42 "u8x" 11 11 false; mkTok 44 "// packet A { u8 x, }" 12 4 true; mkTok 2 "{" 13 4 false; mkTok 3 "}" 13 6 false; mkTok 0 "<EOF>" 13 7 false] (mkPacket (mkPtok 34 "root" 1 0 0) (Some (mkPtok 3 "}" 13 6 46)) [(DPacket (mkPacketDef (mkSpan (mkPtok 34 "root" 1 0 0) (mkPtok 3 "}" 4 14 15)) (Some (mkPtok 34 "root" 1 0 0)) (mkPtok 35 "packet" 1 5 1) (mkPtok 42 "chars" 1 12 2) (mkPtok 2 "{" 1 18 3) [(mkFieldWithAttr (mkSpan (mkPtok 32 "@leftPad" 1 20 4) (mkPtok 40 "," 4 12 14)) [(FAPadding (mkSpan (mkPtok 32 "@leftPad" 1 20 4) (mkPtok 6 ")" 1 33 7)) (mkPaddingAttr (mkSpan (mkPtok 32 "@leftPad" 1 20 4) (mkPtok 6 ")" 1 33 7)) (mkPtok 32 "@leftPad" 1 20 4) (mkPtok 8 "(" 1 28 5) (Some (mkPtok 33 "'0'" 1 29 6)) (mkPtok 6 ")" 1 33 7)))] (LengthField (mkSpan (mkPtok 28 "f32" 1 35 8) (mkPtok 40 "," 4 12 14)) (mkLengthFieldDecl (mkSpan (mkPtok 28 "f32" 1 35 8) (mkPtok 40 "," 4 12 14)) (Some (TyBasic (mkSpan (mkPtok 28 "f32" 1 35 8) (mkPtok 28 "f32" 1 35 8)) (mkBasicType (mkSpan (mkPtok 28 "f32" 1 35 8) (mkPtok 28 "f32" 1 35 8)) (mkPtok 28 "f32" 1 35 8)))) (mkPtok 42 "options1" 2 0 9) (mkLengthOf (mkSpan (mkPtok 7 "@lengthOf(" 2 9 10) (mkPtok 6 ")" 3 2 12)) (mkPtok 7 "@lengthOf(" 2 9 10) (mkPtok 42 "x" 3 0 11) (mkPtok 6 ")" 3 2 12)) (Some (mkPtok 43 "`it's`" 4 4 13)) (mkPtok 40 "," 4 12 14))))] (mkPtok 3 "}" 4 14 15))); (DPacket (mkPacketDef (mkSpan (mkPtok 35 "packet" 4 16 16) (mkPtok 3 "}" 10 8 41)) None (mkPtok 35 "packet" 4 16 16) (mkPtok 42 "i8i8" 4 23 17) (mkPtok 2 "{" 4 27 18) [(mkFieldWithAttr (mkSpan (mkPtok 20 "uint8" 5 0 20) (mkPtok 40 "," 7 0 23)) [] (MetaField (mkSpan (mkPtok 20 "uint8" 5 0 20) (mkPtok 40 "," 7 0 23)) None (mkMetaDecl (mkSpan (mkPtok 20 "uint8" 5 0 20) (mkPtok 40 "," 7 0 23)) (TyBasic (mkSpan (mkPtok 20 "uint8" 5 0 20) (mkPtok 20 "uint8" 5 0 20)) (mkBasicType (mkSpan (mkPtok 20 "uint8" 5 0 20) (mkPtok 20 "uint8" 5 0 20)) (mkPtok 20 "uint8" 5 0 20))) (mkPtok 42 "body" 6 0 22) None (mkPtok 40 "," 7 0 23)))); (mkFieldWithAttr (mkSpan (mkPtok 14 "zchar[" 7 1 24) (mkPtok 40 "," 8 2 31)) [] (LengthField (mkSpan (mkPtok 14 "zchar[" 7 1 24) (mkPtok 40 "," 8 2 31)) (mkLengthFieldDecl (mkSpan (mkPtok 14 "zchar[" 7 1 24) (mkPtok 40 "," 8 2 31)) (Some (TyFixed (mkSpan (mkPtok 14 "zchar[" 7 1 24) (mkPtok 13 "]" 7 14 26)) (mkFixedString (mkSpan (mkPtok 14 "zchar[" 7 1 24) (mkPtok 13 "]" 7 14 26)) (mkPtok 14 "zchar[" 7 1 24) (mkPtok 30 "65535" 7 8 25) (mkPtok 13 "]" 7 14 26)))) (mkPtok 42 "pack" 7 16 27) (mkLengthOf (mkSpan (mkPtok 7 "@lengthOf(" 7 21 28) (mkPtok 6 ")" 8 0 30)) (mkPtok 7 "@lengthOf(" 7 21 28) (mkPtok 42 "leftPad" 7 32 29) (mkPtok 6 ")" 8 0 30)) None (mkPtok 40 "," 8 2 31)))); (mkFieldWithAttr (mkSpan (mkPtok 7 "@lengthOf(" 8 4 32) (mkPtok 40 "," 10 6 40)) [(FALengthOf (mkSpan (mkPtok 7 "@lengthOf(" 8 4 32) (mkPtok 6 ")" 9 4 34)) (mkLengthOf (mkSpan (mkPtok 7 "@lengthOf(" 8 4 32) (mkPtok 6 ")" 9 4 34)) (mkPtok 7 "@lengthOf(" 8 4 32) (mkPtok 42 "lengthOf" 8 15 33) (mkPtok 6 ")" 9 4 34)))] (LengthField (mkSpan (mkPtok 20 "u8" 9 6 35) (mkPtok 40 "," 10 6 40)) (mkLengthFieldDecl (mkSpan (mkPtok 20 "u8" 9 6 35) (mkPtok 40 "," 10 6 40)) (Some (TyBasic (mkSpan (mkPtok 20 "u8" 9 6 35) (mkPtok 20 "u8" 9 6 35)) (mkBasicType (mkSpan (mkPtok 20 "u8" 9 6 35) (mkPtok 20 "u8" 9 6 35)) (mkPtok 20 "u8" 9 6 35)))) (mkPtok 42 "i8i8" 9 9 36) (mkLengthOf (mkSpan (mkPtok 7 "@lengthOf(" 9 14 37) (mkPtok 6 ")" 10 5 39)) (mkPtok 7 "@lengthOf(" 9 14 37) (mkPtok 42 "f32a" 10 0 38) (mkPtok 6 ")" 10 5 39)) None (mkPtok 40 "," 10 6 40))))] (mkPtok 3 "}" 10 8 41))); (DPacket (mkPacketDef (mkSpan (mkPtok 35 "packet" 11 4 42) (mkPtok 3 "}" 13 6 46)) None (mkPtok 35 "packet" 11 4 42) (mkPtok 42 "u8x" 11 11 43) (mkPtok 2 "{" 13 4 45) [] (mkPtok 3 "}" 13 6 46)))])).
+Eval vm_compute in ("<<<M605>>>" ++ check (runes_of_ascii "
+options{ //	t
+roots =
+// c
+// " ++ [27880; 37322]%N ++ runes_of_ascii "
+65535
+; Packet=
+""abc"" options1 =
+'\x00'
+    ;}
+    packet pack {
+    @tag(
+//x
+// trailing space 
+255  )@calculatedFrom( ""\" ++ [233]%N ++ runes_of_ascii """
+// a // b
+//
+) u {	repeat MetaDataX
+_x , char[ // @lengthOf(
+255 ]
+int @calculatedFrom( ""\n""
 )
-    @rightPad
-    (' '
-) @calculatedFrom(  ""a\\""
-) repeat zchar[7/// triple
-]asx	, @tag( 1
-) char[3 ] string_
-    , string_
+// a // b
+//
+,
+repeat
+    i8 leftPad , match roots as tag { 1	:BodyLength 255 :	asx , ""a\""b""
+:matchKey, } , } ,	@rightPad( '\x00' ) u8x u128// `tick` ""quote"" 'q'
+`it's` //	t
+, @leftPad (
+'0' )
+//
+// " ++ [27880; 37322]%N ++ runes_of_ascii "
+charz{ i8 roots
+@lengthOf(MetaDataX),  _x float `doc` , x_y_z , } , repeat  string	MetaDataX `" ++ [28040; 24687; 31867; 22411]%N ++ runes_of_ascii "` // " ++ [128512]%N ++ runes_of_ascii " emoji
+, @leftPad ( ' ') @tag(	42 )string// " ++ [27880; 37322]%N ++ runes_of_ascii "
+BodyLength
 @lengthOf(
-Logon// a // b
-) ,	@rightPad ( // " ++ [128512]%N ++ runes_of_ascii " emoji
-'\x00' )@leftPad
+i8i8 ) ,	BodyLength _x`100% of %d` , } packet rootA { @tag(
+3 ) u8 x , // a // b
+}
+")).
+Eval vm_compute in ("<<<M637>>>" ++ check (runes_of_ascii "root
+packet
+    i8i8	{ } packet u8x {uint8x  o ,
+    string_ { tag
+    float `crlf
+line`
+    , } ,
+    repeat // " ++ [128512]%N ++ runes_of_ascii " emoji
+char[ 7]
+stringy `two words` // trailing space 
+, }
+")).
+Eval vm_compute in ("<<<M669>>>" ++ check (runes_of_ascii "options { rootA = string ;
+} packet string_ {repeat a1 Packet , }
+")).
+Eval vm_compute in ("<<<M701>>>" ++ check (runes_of_ascii "options{ charz =// " ++ [128512]%N ++ runes_of_ascii " emoji
+false ; body =
+//	t
+//x
+'\x00' ; int = '0' } 	 ")).
+Eval vm_compute in ("<<<M733>>>" ++ check (runes_of_ascii "MetaData
+    MetaDataX{ char[ 65535 // c
+]
+falsey  ,
+//	t
+// @lengthOf(
+asx
+lengthOf`say ""hi""`,	u8 // `tick` ""quote"" 'q'
+metadata , string body`
+` // " ++ [128512]%N ++ runes_of_ascii " emoji
+,
+} MetaData tag
+    {
+    char[ 007] u8x , x_y_z zchar
+    // a // b
+    `line1
+line2`
+, A As ,
+}
+MetaData msg_type { uint32 pack`tab	here` , }
+    options {trueish
+    =
+false
+    i8i8
+    = 007 ;
+    int
+=
+char[]
+; }")).
+Eval vm_compute in ("<<<M765>>>" ++ check (runes_of_ascii "// a // b
+packet o { match rootA as
+    matchKey {"""" ://
+body ,
+0 :
+    i8i8 // trailing space 
+65535 : x_y_z , [""" ++ [233]%N ++ runes_of_ascii "t" ++ [233]%N ++ runes_of_ascii """
+, 00
+] // packet A { u8 x, }
+:charz ,//
+}, /// triple
+zchar[ 10  ] calculatedFrom
+    `
+`
+,
+@tag(	00 ) @calculatedFrom( ""\" ++ [233]%N ++ runes_of_ascii """ ) i16 stringy,}MetaData
+    //
+    string_ { uint8 u8x , u u8x
+    ,
+    string
+    /// triple
+    body ,	}
+")).
+Eval vm_compute in ("<<<M797>>>" ++ check (runes_of_ascii "packet stringy
+{repeat
+u
+// c
+//x
+`tab	here` , crc,
+    repeat a1 { x trueish
+    `it's`
+, zchar[
+1]
+roots @lengthOf( lengthOf) ,int16 f32a//x
+, uint32
+    // " ++ [128512]%N ++ runes_of_ascii " emoji
+    a1
+@lengthOf( u ) , } , match
+    // " ++ [128512]%N ++ runes_of_ascii " emoji
+    Logon as
+//	t
+/// triple
+u128 { [ ""x y""]
+    : uint8x ""// no comment"" : pack , ""1"":
+//	t
+// `tick` ""quote"" 'q'
+crc , } ,u16 uint8x @lengthOf( int
+    // trailing space 
+    ) ,  @tag( 007)//x
+repeat f32a , }
+")).
+Eval vm_compute in ("<<<T797>>>" ++ terms [mkTok 35 "packet" 1 0 false; mkTok 42 "stringy" 1 7 false; mkTok 2 "{" 2 0 false; mkTok 36 "repeat" 2 1 false; mkTok 42 "u" 3 0 false; mkTok 44 "// c" 4 0 true; mkTok 44 "//x" 5 0 true; mkTok 43 (string_of_bytes [96; 116; 97; 98; 9; 104; 101; 114; 101; 96]%N) 6 0 false; mkTok 40 "," 6 11 false; mkTok 42 "crc" 6 13 false; mkTok 40 "," 6 16 false; mkTok 36 "repeat" 7 4 false; mkTok 42 "a1" 7 11 false; mkTok 2 "{" 7 14 false; mkTok 42 "x" 7 16 false; mkTok 42 "trueish" 7 18 false; mkTok 43 "`it's`" 8 4 false; mkTok 40 "," 9 0 false; mkTok 14 "zchar[" 9 2 false; mkTok 30 "1" 10 0 false; mkTok 13 "]" 10 1 false; mkTok 42 "roots" 11 0 false; mkTok 7 "@lengthOf(" 11 6 false; mkTok 42 "lengthOf" 11 17 false; mkTok 6 ")" 11 25 false; mkTok 40 "," 11 27 false; mkTok 25 "int16" 11 28 false; mkTok 42 "f32a" 11 34 false; mkTok 44 "//x" 11 38 true; mkTok 40 "," 12 0 false; mkTok 22 "uint32" 12 2 false; mkTok 44 (string_of_bytes [47; 47; 32; 240; 159; 152; 128; 32; 101; 109; 111; 106; 105]%N) 13 4 true; mkTok 42 "a1" 14 4 false; mkTok 7 "@lengthOf(" 15 0 false; mkTok 42 "u" 15 11 false; mkTok 6 ")" 15 13 false; mkTok 40 "," 15 15 false; mkTok 3 "}" 15 17 false; mkTok 40 "," 15 19 false; mkTok 38 "match" 15 21 false; mkTok 44 (string_of_bytes [47; 47; 32; 240; 159; 152; 128; 32; 101; 109; 111; 106; 105]%N) 16 4 true; mkTok 42 "Logon" 17 4 false; mkTok 17 "as" 17 10 false; mkTok 44 (string_of_bytes [47; 47; 9; 116]%N) 18 0 true; mkTok 44 "/// triple" 19 0 true; mkTok 42 "u128" 20 0 false; mkTok 2 "{" 20 5 false; mkTok 18 "[" 20 7 false; mkTok 31 """x y""" 20 9 false; mkTok 13 "]" 20 14 false; mkTok 39 ":" 21 4 false; mkTok 42 "uint8x" 21 6 false; mkTok 31 """// no comment""" 21 13 false; mkTok 39 ":" 21 29 false; mkTok 42 "pack" 21 31 false; mkTok 40 "," 21 36 false; mkTok 31 """1""" 21 38 false; mkTok 39 ":" 21 41 false; mkTok 44 (string_of_bytes [47; 47; 9; 116]%N) 22 0 true; mkTok 44 "// `tick` ""quote"" 'q'" 23 0 true; mkTok 42 "crc" 24 0 false; mkTok 40 "," 24 4 false; mkTok 3 "}" 24 6 false; mkTok 40 "," 24 8 false; mkTok 21 "u16" 24 9 false; mkTok 42 "uint8x" 24 13 false; mkTok 7 "@lengthOf(" 24 20 false; mkTok 42 "int" 24 31 false; mkTok 44 "// trailing space " 25 4 true; mkTok 6 ")" 26 4 false; mkTok 40 "," 26 6 false; mkTok 9 "@tag(" 26 9 false; mkTok 30 "007" 26 15 false; mkTok 6 ")" 26 18 false; mkTok 44 "//x" 26 19 true; mkTok 36 "repeat" 27 0 false; mkTok 42 "f32a" 27 7 false; mkTok 40 "," 27 12 false; mkTok 3 "}" 27 14 false; mkTok 0 "<EOF>" 28 0 false] (mkPacket (mkPtok 35 "packet" 1 0 0) (Some (mkPtok 3 "}" 27 14 78)) [(DPacket (mkPacketDef (mkSpan (mkPtok 35 "packet" 1 0 0) (mkPtok 3 "}" 27 14 78)) None (mkPtok 35 "packet" 1 0 0) (mkPtok 42 "stringy" 1 7 1) (mkPtok 2 "{" 2 0 2) [(mkFieldWithAttr (mkSpan (mkPtok 36 "repeat" 2 1 3) (mkPtok 40 "," 6 11 8)) [] (ObjectField (mkSpan (mkPtok 36 "repeat" 2 1 3) (mkPtok 40 "," 6 11 8)) (Some (mkPtok 36 "repeat" 2 1 3)) (mkPtok 42 "u" 3 0 4) None (Some (mkPtok 43 (string_of_bytes [96; 116; 97; 98; 9; 104; 101; 114; 101; 96]%N) 6 0 7)) (mkPtok 40 "," 6 11 8))); (mkFieldWithAttr (mkSpan (mkPtok 42 "crc" 6 13 9) (mkPtok 40 "," 6 16 10)) [] (ObjectField (mkSpan (mkPtok 42 "crc" 6 13 9) (mkPtok 40 "," 6 16 10)) None (mkPtok 42 "crc" 6 13 9) None None (mkPtok 40 "," 6 16 10))); (mkFieldWithAttr (mkSpan (mkPtok 36 "repeat" 7 4 11) (mkPtok 40 "," 15 19 38)) [] (InerObjectField (mkSpan (mkPtok 36 "repeat" 7 4 11) (mkPtok 40 "," 15 19 38)) (Some (mkPtok 36 "repeat" 7 4 11)) (InerObjectDecl (mkSpan (mkPtok 42 "a1" 7 11 12) (mkPtok 3 "}" 15 17 37)) (mkPtok 42 "a1" 7 11 12) (mkPtok 2 "{" 7 14 13) [(ObjectField (mkSpan (mkPtok 42 "x" 7 16 14) (mkPtok 40 "," 9 0 17)) None (mkPtok 42 "x" 7 16 14) (Some (mkPtok 42 "trueish" 7 18 15)) (Some (mkPtok 43 "`it's`" 8 4 16)) (mkPtok 40 "," 9 0 17)); (LengthField (mkSpan (mkPtok 14 "zchar[" 9 2 18) (mkPtok 40 "," 11 27 25)) (mkLengthFieldDecl (mkSpan (mkPtok 14 "zchar[" 9 2 18) (mkPtok 40 "," 11 27 25)) (Some (TyFixed (mkSpan (mkPtok 14 "zchar[" 9 2 18) (mkPtok 13 "]" 10 1 20)) (mkFixedString (mkSpan (mkPtok 14 "zchar[" 9 2 18) (mkPtok 13 "]" 10 1 20)) (mkPtok 14 "zchar[" 9 2 18) (mkPtok 30 "1" 10 0 19) (mkPtok 13 "]" 10 1 20)))) (mkPtok 42 "roots" 11 0 21) (mkLengthOf (mkSpan (mkPtok 7 "@lengthOf(" 11 6 22) (mkPtok 6 ")" 11 25 24)) (mkPtok 7 "@lengthOf(" 11 6 22) (mkPtok 42 "lengthOf" 11 17 23) (mkPtok 6 ")" 11 25 24)) None (mkPtok 40 "," 11 27 25))); (MetaField (mkSpan (mkPtok 25 "int16" 11 28 26) (mkPtok 40 "," 12 0 29)) None (mkMetaDecl (mkSpan (mkPtok 25 "int16" 11 28 26) (mkPtok 40 "," 12 0 29)) (TyBasic (mkSpan (mkPtok 25 "int16" 11 28 26) (mkPtok 25 "int16" 11 28 26)) (mkBasicType (mkSpan (mkPtok 25 "int16" 11 28 26) (mkPtok 25 "int16" 11 28 26)) (mkPtok 25 "int16" 11 28 26))) (mkPtok 42 "f32a" 11 34 27) None (mkPtok 40 "," 12 0 29))); (LengthField (mkSpan (mkPtok 22 "uint32" 12 2 30) (mkPtok 40 "," 15 15 36)) (mkLengthFieldDecl (mkSpan (mkPtok 22 "uint32" 12 2 30) (mkPtok 40 "," 15 15 36)) (Some (TyBasic (mkSpan (mkPtok 22 "uint32" 12 2 30) (mkPtok 22 "uint32" 12 2 30)) (mkBasicType (mkSpan (mkPtok 22 "uint32" 12 2 30) (mkPtok 22 "uint32" 12 2 30)) (mkPtok 22 "uint32" 12 2 30)))) (mkPtok 42 "a1" 14 4 32) (mkLengthOf (mkSpan (mkPtok 7 "@lengthOf(" 15 0 33) (mkPtok 6 ")" 15 13 35)) (mkPtok 7 "@lengthOf(" 15 0 33) (mkPtok 42 "u" 15 11 34) (mkPtok 6 ")" 15 13 35)) None (mkPtok 40 "," 15 15 36)))] (mkPtok 3 "}" 15 17 37)) (mkPtok 40 "," 15 19 38))); (mkFieldWithAttr (mkSpan (mkPtok 38 "match" 15 21 39) (mkPtok 40 "," 24 8 63)) [] (MatchField (mkSpan (mkPtok 38 "match" 15 21 39) (mkPtok 40 "," 24 8 63)) (mkMatchFieldDecl (mkSpan (mkPtok 38 "match" 15 21 39) (mkPtok 3 "}" 24 6 62)) (mkPtok 38 "match" 15 21 39) (mkPtok 42 "Logon" 17 4 41) (mkPtok 17 "as" 17 10 42) (mkPtok 42 "u128" 20 0 45) (mkPtok 2 "{" 20 5 46) [(mkMatchPair (mkSpan (mkPtok 18 "[" 20 7 47) (mkPtok 42 "uint8x" 21 6 51)) (MKList (mkKeyList (mkSpan (mkPtok 18 "[" 20 7 47) (mkPtok 13 "]" 20 14 49)) (mkPtok 18 "[" 20 7 47) (mkPtok 31 """x y""" 20 9 48) [] (mkPtok 13 "]" 20 14 49))) (mkPtok 39 ":" 21 4 50) (mkPtok 42 "uint8x" 21 6 51) None); (mkMatchPair (mkSpan (mkPtok 31 """// no comment""" 21 13 52) (mkPtok 40 "," 21 36 55)) (MKString (mkPtok 31 """// no comment""" 21 13 52)) (mkPtok 39 ":" 21 29 53) (mkPtok 42 "pack" 21 31 54) (Some (mkPtok 40 "," 21 36 55))); (mkMatchPair (mkSpan (mkPtok 31 """1""" 21 38 56) (mkPtok 40 "," 24 4 61)) (MKString (mkPtok 31 """1""" 21 38 56)) (mkPtok 39 ":" 21 41 57) (mkPtok 42 "crc" 24 0 60) (Some (mkPtok 40 "," 24 4 61)))] (mkPtok 3 "}" 24 6 62)) (mkPtok 40 "," 24 8 63))); (mkFieldWithAttr (mkSpan (mkPtok 21 "u16" 24 9 64) (mkPtok 40 "," 26 6 70)) [] (LengthField (mkSpan (mkPtok 21 "u16" 24 9 64) (mkPtok 40 "," 26 6 70)) (mkLengthFieldDecl (mkSpan (mkPtok 21 "u16" 24 9 64) (mkPtok 40 "," 26 6 70)) (Some (TyBasic (mkSpan (mkPtok 21 "u16" 24 9 64) (mkPtok 21 "u16" 24 9 64)) (mkBasicType (mkSpan (mkPtok 21 "u16" 24 9 64) (mkPtok 21 "u16" 24 9 64)) (mkPtok 21 "u16" 24 9 64)))) (mkPtok 42 "uint8x" 24 13 65) (mkLengthOf (mkSpan (mkPtok 7 "@lengthOf(" 24 20 66) (mkPtok 6 ")" 26 4 69)) (mkPtok 7 "@lengthOf(" 24 20 66) (mkPtok 42 "int" 24 31 67) (mkPtok 6 ")" 26 4 69)) None (mkPtok 40 "," 26 6 70)))); (mkFieldWithAttr (mkSpan (mkPtok 9 "@tag(" 26 9 71) (mkPtok 40 "," 27 12 77)) [(FATag (mkSpan (mkPtok 9 "@tag(" 26 9 71) (mkPtok 6 ")" 26 18 73)) (mkTagAttr (mkSpan (mkPtok 9 "@tag(" 26 9 71) (mkPtok 6 ")" 26 18 73)) (mkPtok 9 "@tag(" 26 9 71) (mkPtok 30 "007" 26 15 72) (mkPtok 6 ")" 26 18 73)))] (ObjectField (mkSpan (mkPtok 36 "repeat" 27 0 75) (mkPtok 40 "," 27 12 77)) (Some (mkPtok 36 "repeat" 27 0 75)) (mkPtok 42 "f32a" 27 7 76) None None (mkPtok 40 "," 27 12 77)))] (mkPtok 3 "}" 27 14 78)))])).
+Eval vm_compute in ("<<<M829>>>" ++ check (runes_of_ascii "root packet Logon { zchar[ 00 ] roots  @calculatedFrom(	""a\""b""
+)  ,} MetaData /// triple
+int{ float roots , char	u8x  `u8 x,` , uint64	_x , u128 chars  `doc`,
+zchar string_
+    ,	char[	1
+] string_ , } packet trueish
+{
+asx { msg_type { repeat string A `// not a comment` , }
+// 50% %s
+// packet A { u8 x, }
+, }	, u32 asx
+@calculatedFrom( ""packet""
+    )
+, match  u128 as	len { [
+"""" , ""\n""
+    ]
+    : i64_, 0123456789
+:options1 ""abc"" : As// " ++ [27880; 37322]%N ++ runes_of_ascii "
+[	007 , 3 , ""{,}""
+    , ""`tick`""
+, ""a	b"" ,
+    10 , ""abc"" ]
+: u128 , } , uint32 i64_
+    @lengthOf( i8i8)
+,
+    // packet A { u8 x, }
+    u64 charz @calculatedFrom(
+    ""{,}""
+    )
+`say ""hi""`	, match charz
+as //x
+calculatedFrom
+{ [ ""a	b"" , 4294967296 ,
+    10	,
+1 ,  0, 0123456789
+    ]
 //x
 // " ++ [128512]%N ++ runes_of_ascii " emoji
-(
-    // " ++ [128512]%N ++ runes_of_ascii " emoji
-    '0' )	repeat
-As
-    // packet A { u8 x, }
-    { trueish { leftPad{i64 crc
-,
-u8 zchar @lengthOf(
-    f32a
-)
-    // packet A { u8 x, }
-    ,
-tag @lengthOf( Z9_ )	`// not a comment` , Z9_  _x , }
-,// packet A { u8 x, }
-char[ 00] Foo `a\` , }	,} , @tag( 7 // packet A { u8 x, }
-) char[
-    4294967296 ] u128	, }
-// packet A { u8 x, }
-")).
-Eval vm_compute in ("<<<M1405>>>" ++ check (runes_of_ascii "packet
-    body { @tag(255 ) int @lengthOf( matchKey
-    ) `tab	here` ,
-}
-    packet Z9_ { @lengthOf( As
-)
-    repeat _x
-lengthOf ,	@tag( 0123456789
-    ) repeat
-uint8x ,int64  stringy@calculatedFrom(
-    ""{,}"" )`crlf
-line`
-, //x
-@lengthOf(	i8i8)@tag( 4294967296	) @rightPad ( // c
-'0' // `tick` ""quote"" 'q'
-) char[
-    // c
-    3]
-int , } packet roots { } root
-packet body { match f32a as  u8x{//x
-""\" ++ [233]%N ++ runes_of_ascii """ //x
-:	chars, } , @tag(255 )
-@tag( 00) trueish
-Header, @tag( //x
-1)
-match
-A
-    as falsey { [""a\""b"" ]: i64_ ,// trailing space 
-[ 7 ,""packet"" , ""{,}""
-, 4294967296 , 007] :u128 , 0
 :
-string_ , 007 : x
-    , 1 :As ,
-    }
-    , @lengthOf(
-    options1 ) repeat u16  Header
-`` ,string trueish
-, // " ++ [128512]%N ++ runes_of_ascii " emoji
-@lengthOf( len ) x repeatCount
-    `crlf
-line` ,
-    }
-")).
-Eval vm_compute in ("<<<M1437>>>" ++ check (runes_of_ascii "MetaData Pad
-{	roots	f32a , char[ 10
-// trailing space 
-//	t
-] u8x	, //	t
-calculatedFrom
-A , }
-packet leftPad	{ roots// " ++ [27880; 37322]%N ++ runes_of_ascii "
-@lengthOf(
-string_) `two words`
-,@tag(
-255
-)match o as options1	{ [
-    0 //
-, ""1""
-,
-""" ++ [128512]%N ++ runes_of_ascii """
-//x
-//	t
-,42 ]
-    :
-    //
-    i8i8
-    , } , /// triple
-repeatCount msg_type , }	options
-{
-    }")).
-Eval vm_compute in ("<<<M1469>>>" ++ check (runes_of_ascii "root  packet
-roots {
-repeat rootA`{ , }`
-,BodyLength, @lengthOf(
-    int )
-    u64	pack
-`// not a comment` , chars @lengthOf( crc
-) // packet A { u8 x, }
-,
-// @lengthOf(
-// `tick` ""quote"" 'q'
-tag `u8 x,` , match x_y_z	as chars{// " ++ [128512]%N ++ runes_of_ascii " emoji
-[ 65535 ,""x y""// a // b
-,
-    10	, 4294967296]: //x
-repeatCount,
-[ 255 ] // @lengthOf(
-: i8i8,4294967296
-    : metadata
-, [ 10 , """", 255 ,0 , ""abc""
-    , 10 ]  :rootA
+msg_type ,
+""it's"" : Pad ,3	:
+    MetaDataX
+3: lengthOf ""a\\"" :
+int
+, 007 :Header } ,// c
+@calculatedFrom( ""it's"" ) u8  asx // " ++ [27880; 37322]%N ++ runes_of_ascii "
+@lengthOf( Foo // packet A { u8 x, }
+)
+`{ , }`
+    ,
     // @lengthOf(
-    ,
-[ ""1"" , ""1""
-    ]
-:uint8x , ["""" , 10
-    // trailing space 
-    ]
-:
-    options1 ,} ,  }packet trueish {uint16
-i64_ , }
-    packet zchar
-    {Logon {
+    @calculatedFrom(
+""a\\"" ) len @calculatedFrom(
+""""  ) `tab	here` , T
+falsey//x
+,
+As@lengthOf( leftPad
+) , } MetaData u8x { A Header`{ , }` ,zchar[ 42  ]  crc  `doc` , _x
+    lengthOf, charz
+lengthOf, }
+")).
+Eval vm_compute in ("<<<M861>>>" ++ check (runes_of_ascii "root  packet	BodyLength { @tag( 1 ) f64
+    x_y_z `it's` , @calculatedFrom(""packet"") @calculatedFrom( ""CRC32""
+/// triple
+/// triple
+)// c
+char /// triple
+Pad
+    //	t
+    , string msg_type , }")).
+Eval vm_compute in ("<<<M893>>>" ++ check (runes_of_ascii "MetaData
+    msg_type { }	packet  Pad {@calculatedFrom( """ ++ [28040; 24687]%N ++ runes_of_ascii """) repeat
+char[ 7 ] T , }
+MetaData BodyLength
+{ Packet Pad , o int `crlf
+line`
+, string string_ // `tick` ""quote"" 'q'
+, BodyLength	u, int
+repeatCount , // packet A { u8 x, }
+}")).
+Eval vm_compute in ("<<<M925>>>" ++ check (runes_of_ascii "  packet	falsey /// triple
+{ f32 uint8x `" ++ [28040; 24687; 31867; 22411]%N ++ runes_of_ascii "`,
+    } // " ++ [27880; 37322]%N ++ runes_of_ascii "
+packet _x
 // " ++ [27880; 37322]%N ++ runes_of_ascii "
 // @lengthOf(
-match pack as
-asx {[
-1 ,// `tick` ""quote"" 'q'
-10] : Logon , [7 ]: pack
-, [
-42,  ""// no comment"" ,
-    7 ,00 ,65535
-]
-    : x
-, //
-""1""
-: uint8x, """" :A 65535	:
-u8x } ,
-}  ,x `u8 x,`, @tag( 65535
-) string stringy `say ""hi""`  , repeat uint16 leftPad `
+{	}root packet lengthOf	{
+    // @lengthOf(
+    trueish
+    , }")).
+Eval vm_compute in ("<<<M957>>>" ++ check (runes_of_ascii "MetaData crc  {char[] packetx
+    , } MetaData f32a { string
+    o`
 ` ,
-match options1
-as Foo
-    { ""abc"" : falsey	,
-3:	T
-    ,}
-,zchar[ 4294967296 ]
-charz
-    @lengthOf(	As) , i64 Packet , @lengthOf( MetaDataX ) @lengthOf( metadata	) @calculatedFrom( """ ++ [128512]%N ++ runes_of_ascii """ ) uint8 T @calculatedFrom( """ ++ [128512]%N ++ runes_of_ascii """ ) `" ++ [233]%N ++ runes_of_ascii "` , } // `tick` ""quote"" 'q'")).
-Eval vm_compute in ("<<<T1469>>>" ++ terms [mkTok 34 "root" 1 0 false; mkTok 35 "packet" 1 6 false; mkTok 42 "roots" 2 0 false; mkTok 2 "{" 2 6 false; mkTok 36 "repeat" 3 0 false; mkTok 42 "rootA" 3 7 false; mkTok 43 "`{ , }`" 3 12 false; mkTok 40 "," 4 0 false; mkTok 42 "BodyLength" 4 1 false; mkTok 40 "," 4 11 false; mkTok 7 "@lengthOf(" 4 13 false; mkTok 42 "int" 5 4 false; mkTok 6 ")" 5 8 false; mkTok 23 "u64" 6 4 false; mkTok 42 "pack" 6 8 false; mkTok 43 "`// not a comment`" 7 0 false; mkTok 40 "," 7 19 false; mkTok 42 "chars" 7 21 false; mkTok 7 "@lengthOf(" 7 27 false; mkTok 42 "crc" 7 38 false; mkTok 6 ")" 8 0 false; mkTok 44 "// packet A { u8 x, }" 8 2 true; mkTok 40 "," 9 0 false; mkTok 44 "// @lengthOf(" 10 0 true; mkTok 44 "// `tick` ""quote"" 'q'" 11 0 true; mkTok 42 "tag" 12 0 false; mkTok 43 "`u8 x,`" 12 4 false; mkTok 40 "," 12 12 false; mkTok 38 "match" 12 14 false; mkTok 42 "x_y_z" 12 20 false; mkTok 17 "as" 12 26 false; mkTok 42 "chars" 12 29 false; mkTok 2 "{" 12 34 false; mkTok 44 (string_of_bytes [47; 47; 32; 240; 159; 152; 128; 32; 101; 109; 111; 106; 105]%N) 12 35 true; mkTok 18 "[" 13 0 false; mkTok 30 "65535" 13 2 false; mkTok 40 "," 13 8 false; mkTok 31 """x y""" 13 9 false; mkTok 44 "// a // b" 13 14 true; mkTok 40 "," 14 0 false; mkTok 30 "10" 15 4 false; mkTok 40 "," 15 7 false; mkTok 30 "4294967296" 15 9 false; mkTok 13 "]" 15 19 false; mkTok 39 ":" 15 20 false; mkTok 44 "//x" 15 22 true; mkTok 42 "repeatCount" 16 0 false; mkTok 40 "," 16 11 false; mkTok 18 "[" 17 0 false; mkTok 30 "255" 17 2 false; mkTok 13 "]" 17 6 false; mkTok 44 "// @lengthOf(" 17 8 true; mkTok 39 ":" 18 0 false; mkTok 42 "i8i8" 18 2 false; mkTok 40 "," 18 6 false; mkTok 30 "4294967296" 18 7 false; mkTok 39 ":" 19 4 false; mkTok 42 "metadata" 19 6 false; mkTok 40 "," 20 0 false; mkTok 18 "[" 20 2 false; mkTok 30 "10" 20 4 false; mkTok 40 "," 20 7 false; mkTok 31 """""" 20 9 false; mkTok 40 "," 20 11 false; mkTok 30 "255" 20 13 false; mkTok 40 "," 20 17 false; mkTok 30 "0" 20 18 false; mkTok 40 "," 20 20 false; mkTok 31 """abc""" 20 22 false; mkTok 40 "," 21 4 false; mkTok 30 "10" 21 6 false; mkTok 13 "]" 21 9 false; mkTok 39 ":" 21 12 false; mkTok 42 "rootA" 21 13 false; mkTok 44 "// @lengthOf(" 22 4 true; mkTok 40 "," 23 4 false; mkTok 18 "[" 24 0 false; mkTok 31 """1""" 24 2 false; mkTok 40 "," 24 6 false; mkTok 31 """1""" 24 8 false; mkTok 13 "]" 25 4 false; mkTok 39 ":" 26 0 false; mkTok 42 "uint8x" 26 1 false; mkTok 40 "," 26 8 false; mkTok 18 "[" 26 10 false; mkTok 31 """""" 26 11 false; mkTok 40 "," 26 14 false; mkTok 30 "10" 26 16 false; mkTok 44 "// trailing space " 27 4 true; mkTok 13 "]" 28 4 false; mkTok 39 ":" 29 0 false; mkTok 42 "options1" 30 4 false; mkTok 40 "," 30 13 false; mkTok 3 "}" 30 14 false; mkTok 40 "," 30 16 false; mkTok 3 "}" 30 19 false; mkTok 35 "packet" 30 20 false; mkTok 42 "trueish" 30 27 false; mkTok 2 "{" 30 35 false; mkTok 21 "uint16" 30 36 false; mkTok 42 "i64_" 31 0 false; mkTok 40 "," 31 5 false; mkTok 3 "}" 31 7 false; mkTok 35 "packet" 32 4 false; mkTok 42 "zchar" 32 11 false; mkTok 2 "{" 33 4 false; mkTok 42 "Logon" 33 5 false; mkTok 2 "{" 33 11 false; mkTok 44 (string_of_bytes [47; 47; 32; 230; 179; 168; 233; 135; 138]%N) 34 0 true; mkTok 44 "// @lengthOf(" 35 0 true; mkTok 38 "match" 36 0 false; mkTok 42 "pack" 36 6 false; mkTok 17 "as" 36 11 false; mkTok 42 "asx" 37 0 false; mkTok 2 "{" 37 4 false; mkTok 18 "[" 37 5 false; mkTok 30 "1" 38 0 false; mkTok 40 "," 38 2 false; mkTok 44 "// `tick` ""quote"" 'q'" 38 3 true; mkTok 30 "10" 39 0 false; mkTok 13 "]" 39 2 false; mkTok 39 ":" 39 4 false; mkTok 42 "Logon" 39 6 false; mkTok 40 "," 39 12 false; mkTok 18 "[" 39 14 false; mkTok 30 "7" 39 15 false; mkTok 13 "]" 39 17 false; mkTok 39 ":" 39 18 false; mkTok 42 "pack" 39 20 false; mkTok 40 "," 40 0 false; mkTok 18 "[" 40 2 false; mkTok 30 "42" 41 0 false; mkTok 40 "," 41 2 false; mkTok 31 """// no comment""" 41 5 false; mkTok 40 "," 41 21 false; mkTok 30 "7" 42 4 false; mkTok 40 "," 42 6 false; mkTok 30 "00" 42 7 false; mkTok 40 "," 42 10 false; mkTok 30 "65535" 42 11 false; mkTok 13 "]" 43 0 false; mkTok 39 ":" 44 4 false; mkTok 42 "x" 44 6 false; mkTok 40 "," 45 0 false; mkTok 44 "//" 45 2 true; mkTok 31 """1""" 46 0 false; mkTok 39 ":" 47 0 false; mkTok 42 "uint8x" 47 2 false; mkTok 40 "," 47 8 false; mkTok 31 """""" 47 10 false; mkTok 39 ":" 47 13 false; mkTok 42 "A" 47 14 false; mkTok 30 "65535" 47 16 false; mkTok 39 ":" 47 22 false; mkTok 42 "u8x" 48 0 false; mkTok 3 "}" 48 4 false; mkTok 40 "," 48 6 false; mkTok 3 "}" 49 0 false; mkTok 40 "," 49 3 false; mkTok 42 "x" 49 4 false; mkTok 43 "`u8 x,`" 49 6 false; mkTok 40 "," 49 13 false; mkTok 9 "@tag(" 49 15 false; mkTok 30 "65535" 49 21 false; mkTok 6 ")" 50 0 false; mkTok 15 "string" 50 2 false; mkTok 42 "stringy" 50 9 false; mkTok 43 "`say ""hi""`" 50 17 false; mkTok 40 "," 50 29 false; mkTok 36 "repeat" 50 31 false; mkTok 21 "uint16" 50 38 false; mkTok 42 "leftPad" 50 45 false; mkTok 43 (string_of_bytes [96; 10; 96]%N) 50 53 false; mkTok 40 "," 51 2 false; mkTok 38 "match" 52 0 false; mkTok 42 "options1" 52 6 false; mkTok 17 "as" 53 0 false; mkTok 42 "Foo" 53 3 false; mkTok 2 "{" 54 4 false; mkTok 31 """abc""" 54 6 false; mkTok 39 ":" 54 12 false; mkTok 42 "falsey" 54 14 false; mkTok 40 "," 54 21 false; mkTok 30 "3" 55 0 false; mkTok 39 ":" 55 1 false; mkTok 42 "T" 55 3 false; mkTok 40 "," 56 4 false; mkTok 3 "}" 56 5 false; mkTok 40 "," 57 0 false; mkTok 14 "zchar[" 57 1 false; mkTok 30 "4294967296" 57 8 false; mkTok 13 "]" 57 19 false; mkTok 42 "charz" 58 0 false; mkTok 7 "@lengthOf(" 59 4 false; mkTok 42 "As" 59 15 false; mkTok 6 ")" 59 17 false; mkTok 40 "," 59 19 false; mkTok 27 "i64" 59 21 false; mkTok 42 "Packet" 59 25 false; mkTok 40 "," 59 32 false; mkTok 7 "@lengthOf(" 59 34 false; mkTok 42 "MetaDataX" 59 45 false; mkTok 6 ")" 59 55 false; mkTok 7 "@lengthOf(" 59 57 false; mkTok 42 "metadata" 59 68 false; mkTok 6 ")" 59 77 false; mkTok 5 "@calculatedFrom(" 59 79 false; mkTok 31 (string_of_bytes [34; 240; 159; 152; 128; 34]%N) 59 96 false; mkTok 6 ")" 59 100 false; mkTok 20 "uint8" 59 102 false; mkTok 42 "T" 59 108 false; mkTok 5 "@calculatedFrom(" 59 110 false; mkTok 31 (string_of_bytes [34; 240; 159; 152; 128; 34]%N) 59 127 false; mkTok 6 ")" 59 131 false; mkTok 43 (string_of_bytes [96; 195; 169; 96]%N) 59 133 false; mkTok 40 "," 59 137 false; mkTok 3 "}" 59 139 false; mkTok 44 "// `tick` ""quote"" 'q'" 59 141 true; mkTok 0 "<EOF>" 59 162 false] (mkPacket (mkPtok 34 "root" 1 0 0) (Some (mkPtok 3 "}" 59 139 216)) [(DPacket (mkPacketDef (mkSpan (mkPtok 34 "root" 1 0 0) (mkPtok 3 "}" 30 19 95)) (Some (mkPtok 34 "root" 1 0 0)) (mkPtok 35 "packet" 1 6 1) (mkPtok 42 "roots" 2 0 2) (mkPtok 2 "{" 2 6 3) [(mkFieldWithAttr (mkSpan (mkPtok 36 "repeat" 3 0 4) (mkPtok 40 "," 4 0 7)) [] (ObjectField (mkSpan (mkPtok 36 "repeat" 3 0 4) (mkPtok 40 "," 4 0 7)) (Some (mkPtok 36 "repeat" 3 0 4)) (mkPtok 42 "rootA" 3 7 5) None (Some (mkPtok 43 "`{ , }`" 3 12 6)) (mkPtok 40 "," 4 0 7))); (mkFieldWithAttr (mkSpan (mkPtok 42 "BodyLength" 4 1 8) (mkPtok 40 "," 4 11 9)) [] (ObjectField (mkSpan (mkPtok 42 "BodyLength" 4 1 8) (mkPtok 40 "," 4 11 9)) None (mkPtok 42 "BodyLength" 4 1 8) None None (mkPtok 40 "," 4 11 9))); (mkFieldWithAttr (mkSpan (mkPtok 7 "@lengthOf(" 4 13 10) (mkPtok 40 "," 7 19 16)) [(FALengthOf (mkSpan (mkPtok 7 "@lengthOf(" 4 13 10) (mkPtok 6 ")" 5 8 12)) (mkLengthOf (mkSpan (mkPtok 7 "@lengthOf(" 4 13 10) (mkPtok 6 ")" 5 8 12)) (mkPtok 7 "@lengthOf(" 4 13 10) (mkPtok 42 "int" 5 4 11) (mkPtok 6 ")" 5 8 12)))] (MetaField (mkSpan (mkPtok 23 "u64" 6 4 13) (mkPtok 40 "," 7 19 16)) None (mkMetaDecl (mkSpan (mkPtok 23 "u64" 6 4 13) (mkPtok 40 "," 7 19 16)) (TyBasic (mkSpan (mkPtok 23 "u64" 6 4 13) (mkPtok 23 "u64" 6 4 13)) (mkBasicType (mkSpan (mkPtok 23 "u64" 6 4 13) (mkPtok 23 "u64" 6 4 13)) (mkPtok 23 "u64" 6 4 13))) (mkPtok 42 "pack" 6 8 14) (Some (mkPtok 43 "`// not a comment`" 7 0 15)) (mkPtok 40 "," 7 19 16)))); (mkFieldWithAttr (mkSpan (mkPtok 42 "chars" 7 21 17) (mkPtok 40 "," 9 0 22)) [] (LengthField (mkSpan (mkPtok 42 "chars" 7 21 17) (mkPtok 40 "," 9 0 22)) (mkLengthFieldDecl (mkSpan (mkPtok 42 "chars" 7 21 17) (mkPtok 40 "," 9 0 22)) None (mkPtok 42 "chars" 7 21 17) (mkLengthOf (mkSpan (mkPtok 7 "@lengthOf(" 7 27 18) (mkPtok 6 ")" 8 0 20)) (mkPtok 7 "@lengthOf(" 7 27 18) (mkPtok 42 "crc" 7 38 19) (mkPtok 6 ")" 8 0 20)) None (mkPtok 40 "," 9 0 22)))); (mkFieldWithAttr (mkSpan (mkPtok 42 "tag" 12 0 25) (mkPtok 40 "," 12 12 27)) [] (ObjectField (mkSpan (mkPtok 42 "tag" 12 0 25) (mkPtok 40 "," 12 12 27)) None (mkPtok 42 "tag" 12 0 25) None (Some (mkPtok 43 "`u8 x,`" 12 4 26)) (mkPtok 40 "," 12 12 27))); (mkFieldWithAttr (mkSpan (mkPtok 38 "match" 12 14 28) (mkPtok 40 "," 30 16 94)) [] (MatchField (mkSpan (mkPtok 38 "match" 12 14 28) (mkPtok 40 "," 30 16 94)) (mkMatchFieldDecl (mkSpan (mkPtok 38 "match" 12 14 28) (mkPtok 3 "}" 30 14 93)) (mkPtok 38 "match" 12 14 28) (mkPtok 42 "x_y_z" 12 20 29) (mkPtok 17 "as" 12 26 30) (mkPtok 42 "chars" 12 29 31) (mkPtok 2 "{" 12 34 32) [(mkMatchPair (mkSpan (mkPtok 18 "[" 13 0 34) (mkPtok 40 "," 16 11 47)) (MKList (mkKeyList (mkSpan (mkPtok 18 "[" 13 0 34) (mkPtok 13 "]" 15 19 43)) (mkPtok 18 "[" 13 0 34) (mkPtok 30 "65535" 13 2 35) [((mkPtok 40 "," 13 8 36), (mkPtok 31 """x y""" 13 9 37)); ((mkPtok 40 "," 14 0 39), (mkPtok 30 "10" 15 4 40)); ((mkPtok 40 "," 15 7 41), (mkPtok 30 "4294967296" 15 9 42))] (mkPtok 13 "]" 15 19 43))) (mkPtok 39 ":" 15 20 44) (mkPtok 42 "repeatCount" 16 0 46) (Some (mkPtok 40 "," 16 11 47))); (mkMatchPair (mkSpan (mkPtok 18 "[" 17 0 48) (mkPtok 40 "," 18 6 54)) (MKList (mkKeyList (mkSpan (mkPtok 18 "[" 17 0 48) (mkPtok 13 "]" 17 6 50)) (mkPtok 18 "[" 17 0 48) (mkPtok 30 "255" 17 2 49) [] (mkPtok 13 "]" 17 6 50))) (mkPtok 39 ":" 18 0 52) (mkPtok 42 "i8i8" 18 2 53) (Some (mkPtok 40 "," 18 6 54))); (mkMatchPair (mkSpan (mkPtok 30 "4294967296" 18 7 55) (mkPtok 40 "," 20 0 58)) (MKDigits (mkPtok 30 "4294967296" 18 7 55)) (mkPtok 39 ":" 19 4 56) (mkPtok 42 "metadata" 19 6 57) (Some (mkPtok 40 "," 20 0 58))); (mkMatchPair (mkSpan (mkPtok 18 "[" 20 2 59) (mkPtok 40 "," 23 4 75)) (MKList (mkKeyList (mkSpan (mkPtok 18 "[" 20 2 59) (mkPtok 13 "]" 21 9 71)) (mkPtok 18 "[" 20 2 59) (mkPtok 30 "10" 20 4 60) [((mkPtok 40 "," 20 7 61), (mkPtok 31 """""" 20 9 62)); ((mkPtok 40 "," 20 11 63), (mkPtok 30 "255" 20 13 64)); ((mkPtok 40 "," 20 17 65), (mkPtok 30 "0" 20 18 66)); ((mkPtok 40 "," 20 20 67), (mkPtok 31 """abc""" 20 22 68)); ((mkPtok 40 "," 21 4 69), (mkPtok 30 "10" 21 6 70))] (mkPtok 13 "]" 21 9 71))) (mkPtok 39 ":" 21 12 72) (mkPtok 42 "rootA" 21 13 73) (Some (mkPtok 40 "," 23 4 75))); (mkMatchPair (mkSpan (mkPtok 18 "[" 24 0 76) (mkPtok 40 "," 26 8 83)) (MKList (mkKeyList (mkSpan (mkPtok 18 "[" 24 0 76) (mkPtok 13 "]" 25 4 80)) (mkPtok 18 "[" 24 0 76) (mkPtok 31 """1""" 24 2 77) [((mkPtok 40 "," 24 6 78), (mkPtok 31 """1""" 24 8 79))] (mkPtok 13 "]" 25 4 80))) (mkPtok 39 ":" 26 0 81) (mkPtok 42 "uint8x" 26 1 82) (Some (mkPtok 40 "," 26 8 83))); (mkMatchPair (mkSpan (mkPtok 18 "[" 26 10 84) (mkPtok 40 "," 30 13 92)) (MKList (mkKeyList (mkSpan (mkPtok 18 "[" 26 10 84) (mkPtok 13 "]" 28 4 89)) (mkPtok 18 "[" 26 10 84) (mkPtok 31 """""" 26 11 85) [((mkPtok 40 "," 26 14 86), (mkPtok 30 "10" 26 16 87))] (mkPtok 13 "]" 28 4 89))) (mkPtok 39 ":" 29 0 90) (mkPtok 42 "options1" 30 4 91) (Some (mkPtok 40 "," 30 13 92)))] (mkPtok 3 "}" 30 14 93)) (mkPtok 40 "," 30 16 94)))] (mkPtok 3 "}" 30 19 95))); (DPacket (mkPacketDef (mkSpan (mkPtok 35 "packet" 30 20 96) (mkPtok 3 "}" 31 7 102)) None (mkPtok 35 "packet" 30 20 96) (mkPtok 42 "trueish" 30 27 97) (mkPtok 2 "{" 30 35 98) [(mkFieldWithAttr (mkSpan (mkPtok 21 "uint16" 30 36 99) (mkPtok 40 "," 31 5 101)) [] (MetaField (mkSpan (mkPtok 21 "uint16" 30 36 99) (mkPtok 40 "," 31 5 101)) None (mkMetaDecl (mkSpan (mkPtok 21 "uint16" 30 36 99) (mkPtok 40 "," 31 5 101)) (TyBasic (mkSpan (mkPtok 21 "uint16" 30 36 99) (mkPtok 21 "uint16" 30 36 99)) (mkBasicType (mkSpan (mkPtok 21 "uint16" 30 36 99) (mkPtok 21 "uint16" 30 36 99)) (mkPtok 21 "uint16" 30 36 99))) (mkPtok 42 "i64_" 31 0 100) None (mkPtok 40 "," 31 5 101))))] (mkPtok 3 "}" 31 7 102))); (DPacket (mkPacketDef (mkSpan (mkPtok 35 "packet" 32 4 103) (mkPtok 3 "}" 59 139 216)) None (mkPtok 35 "packet" 32 4 103) (mkPtok 42 "zchar" 32 11 104) (mkPtok 2 "{" 33 4 105) [(mkFieldWithAttr (mkSpan (mkPtok 42 "Logon" 33 5 106) (mkPtok 40 "," 49 3 158)) [] (InerObjectField (mkSpan (mkPtok 42 "Logon" 33 5 106) (mkPtok 40 "," 49 3 158)) None (InerObjectDecl (mkSpan (mkPtok 42 "Logon" 33 5 106) (mkPtok 3 "}" 49 0 157)) (mkPtok 42 "Logon" 33 5 106) (mkPtok 2 "{" 33 11 107) [(MatchField (mkSpan (mkPtok 38 "match" 36 0 110) (mkPtok 40 "," 48 6 156)) (mkMatchFieldDecl (mkSpan (mkPtok 38 "match" 36 0 110) (mkPtok 3 "}" 48 4 155)) (mkPtok 38 "match" 36 0 110) (mkPtok 42 "pack" 36 6 111) (mkPtok 17 "as" 36 11 112) (mkPtok 42 "asx" 37 0 113) (mkPtok 2 "{" 37 4 114) [(mkMatchPair (mkSpan (mkPtok 18 "[" 37 5 115) (mkPtok 40 "," 39 12 123)) (MKList (mkKeyList (mkSpan (mkPtok 18 "[" 37 5 115) (mkPtok 13 "]" 39 2 120)) (mkPtok 18 "[" 37 5 115) (mkPtok 30 "1" 38 0 116) [((mkPtok 40 "," 38 2 117), (mkPtok 30 "10" 39 0 119))] (mkPtok 13 "]" 39 2 120))) (mkPtok 39 ":" 39 4 121) (mkPtok 42 "Logon" 39 6 122) (Some (mkPtok 40 "," 39 12 123))); (mkMatchPair (mkSpan (mkPtok 18 "[" 39 14 124) (mkPtok 40 "," 40 0 129)) (MKList (mkKeyList (mkSpan (mkPtok 18 "[" 39 14 124) (mkPtok 13 "]" 39 17 126)) (mkPtok 18 "[" 39 14 124) (mkPtok 30 "7" 39 15 125) [] (mkPtok 13 "]" 39 17 126))) (mkPtok 39 ":" 39 18 127) (mkPtok 42 "pack" 39 20 128) (Some (mkPtok 40 "," 40 0 129))); (mkMatchPair (mkSpan (mkPtok 18 "[" 40 2 130) (mkPtok 40 "," 45 0 143)) (MKList (mkKeyList (mkSpan (mkPtok 18 "[" 40 2 130) (mkPtok 13 "]" 43 0 140)) (mkPtok 18 "[" 40 2 130) (mkPtok 30 "42" 41 0 131) [((mkPtok 40 "," 41 2 132), (mkPtok 31 """// no comment""" 41 5 133)); ((mkPtok 40 "," 41 21 134), (mkPtok 30 "7" 42 4 135)); ((mkPtok 40 "," 42 6 136), (mkPtok 30 "00" 42 7 137)); ((mkPtok 40 "," 42 10 138), (mkPtok 30 "65535" 42 11 139))] (mkPtok 13 "]" 43 0 140))) (mkPtok 39 ":" 44 4 141) (mkPtok 42 "x" 44 6 142) (Some (mkPtok 40 "," 45 0 143))); (mkMatchPair (mkSpan (mkPtok 31 """1""" 46 0 145) (mkPtok 40 "," 47 8 148)) (MKString (mkPtok 31 """1""" 46 0 145)) (mkPtok 39 ":" 47 0 146) (mkPtok 42 "uint8x" 47 2 147) (Some (mkPtok 40 "," 47 8 148))); (mkMatchPair (mkSpan (mkPtok 31 """""" 47 10 149) (mkPtok 42 "A" 47 14 151)) (MKString (mkPtok 31 """""" 47 10 149)) (mkPtok 39 ":" 47 13 150) (mkPtok 42 "A" 47 14 151) None); (mkMatchPair (mkSpan (mkPtok 30 "65535" 47 16 152) (mkPtok 42 "u8x" 48 0 154)) (MKDigits (mkPtok 30 "65535" 47 16 152)) (mkPtok 39 ":" 47 22 153) (mkPtok 42 "u8x" 48 0 154) None)] (mkPtok 3 "}" 48 4 155)) (mkPtok 40 "," 48 6 156))] (mkPtok 3 "}" 49 0 157)) (mkPtok 40 "," 49 3 158))); (mkFieldWithAttr (mkSpan (mkPtok 42 "x" 49 4 159) (mkPtok 40 "," 49 13 161)) [] (ObjectField (mkSpan (mkPtok 42 "x" 49 4 159) (mkPtok 40 "," 49 13 161)) None (mkPtok 42 "x" 49 4 159) None (Some (mkPtok 43 "`u8 x,`" 49 6 160)) (mkPtok 40 "," 49 13 161))); (mkFieldWithAttr (mkSpan (mkPtok 9 "@tag(" 49 15 162) (mkPtok 40 "," 50 29 168)) [(FATag (mkSpan (mkPtok 9 "@tag(" 49 15 162) (mkPtok 6 ")" 50 0 164)) (mkTagAttr (mkSpan (mkPtok 9 "@tag(" 49 15 162) (mkPtok 6 ")" 50 0 164)) (mkPtok 9 "@tag(" 49 15 162) (mkPtok 30 "65535" 49 21 163) (mkPtok 6 ")" 50 0 164)))] (MetaField (mkSpan (mkPtok 15 "string" 50 2 165) (mkPtok 40 "," 50 29 168)) None (mkMetaDecl (mkSpan (mkPtok 15 "string" 50 2 165) (mkPtok 40 "," 50 29 168)) (TyDynamic (mkSpan (mkPtok 15 "string" 50 2 165) (mkPtok 15 "string" 50 2 165)) (mkDynamicString (mkSpan (mkPtok 15 "string" 50 2 165) (mkPtok 15 "string" 50 2 165)) (mkPtok 15 "string" 50 2 165))) (mkPtok 42 "stringy" 50 9 166) (Some (mkPtok 43 "`say ""hi""`" 50 17 167)) (mkPtok 40 "," 50 29 168)))); (mkFieldWithAttr (mkSpan (mkPtok 36 "repeat" 50 31 169) (mkPtok 40 "," 51 2 173)) [] (MetaField (mkSpan (mkPtok 36 "repeat" 50 31 169) (mkPtok 40 "," 51 2 173)) (Some (mkPtok 36 "repeat" 50 31 169)) (mkMetaDecl (mkSpan (mkPtok 21 "uint16" 50 38 170) (mkPtok 40 "," 51 2 173)) (TyBasic (mkSpan (mkPtok 21 "uint16" 50 38 170) (mkPtok 21 "uint16" 50 38 170)) (mkBasicType (mkSpan (mkPtok 21 "uint16" 50 38 170) (mkPtok 21 "uint16" 50 38 170)) (mkPtok 21 "uint16" 50 38 170))) (mkPtok 42 "leftPad" 50 45 171) (Some (mkPtok 43 (string_of_bytes [96; 10; 96]%N) 50 53 172)) (mkPtok 40 "," 51 2 173)))); (mkFieldWithAttr (mkSpan (mkPtok 38 "match" 52 0 174) (mkPtok 40 "," 57 0 188)) [] (MatchField (mkSpan (mkPtok 38 "match" 52 0 174) (mkPtok 40 "," 57 0 188)) (mkMatchFieldDecl (mkSpan (mkPtok 38 "match" 52 0 174) (mkPtok 3 "}" 56 5 187)) (mkPtok 38 "match" 52 0 174) (mkPtok 42 "options1" 52 6 175) (mkPtok 17 "as" 53 0 176) (mkPtok 42 "Foo" 53 3 177) (mkPtok 2 "{" 54 4 178) [(mkMatchPair (mkSpan (mkPtok 31 """abc""" 54 6 179) (mkPtok 40 "," 54 21 182)) (MKString (mkPtok 31 """abc""" 54 6 179)) (mkPtok 39 ":" 54 12 180) (mkPtok 42 "falsey" 54 14 181) (Some (mkPtok 40 "," 54 21 182))); (mkMatchPair (mkSpan (mkPtok 30 "3" 55 0 183) (mkPtok 40 "," 56 4 186)) (MKDigits (mkPtok 30 "3" 55 0 183)) (mkPtok 39 ":" 55 1 184) (mkPtok 42 "T" 55 3 185) (Some (mkPtok 40 "," 56 4 186)))] (mkPtok 3 "}" 56 5 187)) (mkPtok 40 "," 57 0 188))); (mkFieldWithAttr (mkSpan (mkPtok 14 "zchar[" 57 1 189) (mkPtok 40 "," 59 19 196)) [] (LengthField (mkSpan (mkPtok 14 "zchar[" 57 1 189) (mkPtok 40 "," 59 19 196)) (mkLengthFieldDecl (mkSpan (mkPtok 14 "zchar[" 57 1 189) (mkPtok 40 "," 59 19 196)) (Some (TyFixed (mkSpan (mkPtok 14 "zchar[" 57 1 189) (mkPtok 13 "]" 57 19 191)) (mkFixedString (mkSpan (mkPtok 14 "zchar[" 57 1 189) (mkPtok 13 "]" 57 19 191)) (mkPtok 14 "zchar[" 57 1 189) (mkPtok 30 "4294967296" 57 8 190) (mkPtok 13 "]" 57 19 191)))) (mkPtok 42 "charz" 58 0 192) (mkLengthOf (mkSpan (mkPtok 7 "@lengthOf(" 59 4 193) (mkPtok 6 ")" 59 17 195)) (mkPtok 7 "@lengthOf(" 59 4 193) (mkPtok 42 "As" 59 15 194) (mkPtok 6 ")" 59 17 195)) None (mkPtok 40 "," 59 19 196)))); (mkFieldWithAttr (mkSpan (mkPtok 27 "i64" 59 21 197) (mkPtok 40 "," 59 32 199)) [] (MetaField (mkSpan (mkPtok 27 "i64" 59 21 197) (mkPtok 40 "," 59 32 199)) None (mkMetaDecl (mkSpan (mkPtok 27 "i64" 59 21 197) (mkPtok 40 "," 59 32 199)) (TyBasic (mkSpan (mkPtok 27 "i64" 59 21 197) (mkPtok 27 "i64" 59 21 197)) (mkBasicType (mkSpan (mkPtok 27 "i64" 59 21 197) (mkPtok 27 "i64" 59 21 197)) (mkPtok 27 "i64" 59 21 197))) (mkPtok 42 "Packet" 59 25 198) None (mkPtok 40 "," 59 32 199)))); (mkFieldWithAttr (mkSpan (mkPtok 7 "@lengthOf(" 59 34 200) (mkPtok 40 "," 59 137 215)) [(FALengthOf (mkSpan (mkPtok 7 "@lengthOf(" 59 34 200) (mkPtok 6 ")" 59 55 202)) (mkLengthOf (mkSpan (mkPtok 7 "@lengthOf(" 59 34 200) (mkPtok 6 ")" 59 55 202)) (mkPtok 7 "@lengthOf(" 59 34 200) (mkPtok 42 "MetaDataX" 59 45 201) (mkPtok 6 ")" 59 55 202))); (FALengthOf (mkSpan (mkPtok 7 "@lengthOf(" 59 57 203) (mkPtok 6 ")" 59 77 205)) (mkLengthOf (mkSpan (mkPtok 7 "@lengthOf(" 59 57 203) (mkPtok 6 ")" 59 77 205)) (mkPtok 7 "@lengthOf(" 59 57 203) (mkPtok 42 "metadata" 59 68 204) (mkPtok 6 ")" 59 77 205))); (FACalculatedFrom (mkSpan (mkPtok 5 "@calculatedFrom(" 59 79 206) (mkPtok 6 ")" 59 100 208)) (mkCalculatedFrom (mkSpan (mkPtok 5 "@calculatedFrom(" 59 79 206) (mkPtok 6 ")" 59 100 208)) (mkPtok 5 "@calculatedFrom(" 59 79 206) (mkPtok 31 (string_of_bytes [34; 240; 159; 152; 128; 34]%N) 59 96 207) (mkPtok 6 ")" 59 100 208)))] (CheckSumField (mkSpan (mkPtok 20 "uint8" 59 102 209) (mkPtok 40 "," 59 137 215)) (mkChecksumFieldDecl (mkSpan (mkPtok 20 "uint8" 59 102 209) (mkPtok 40 "," 59 137 215)) (Some (TyBasic (mkSpan (mkPtok 20 "uint8" 59 102 209) (mkPtok 20 "uint8" 59 102 209)) (mkBasicType (mkSpan (mkPtok 20 "uint8" 59 102 209) (mkPtok 20 "uint8" 59 102 209)) (mkPtok 20 "uint8" 59 102 209)))) (mkPtok 42 "T" 59 108 210) (mkCalculatedFrom (mkSpan (mkPtok 5 "@calculatedFrom(" 59 110 211) (mkPtok 6 ")" 59 131 213)) (mkPtok 5 "@calculatedFrom(" 59 110 211) (mkPtok 31 (string_of_bytes [34; 240; 159; 152; 128; 34]%N) 59 127 212) (mkPtok 6 ")" 59 131 213)) (Some (mkPtok 43 (string_of_bytes [96; 195; 169; 96]%N) 59 133 214)) (mkPtok 40 "," 59 137 215))))] (mkPtok 3 "}" 59 139 216)))])).
-Eval vm_compute in ("<<<M1501>>>" ++ check (runes_of_ascii "options{rootA
-    =
-""it's"" ;//x
+    }  packet  Packet {repeat
+i8i8 i64_
+,
+}")).
+Eval vm_compute in ("<<<M989>>>" ++ check (runes_of_ascii "options
+{
+}")).
+Eval vm_compute in ("<<<M1021>>>" ++ check (runes_of_ascii "
+packet Packet  {
+    @tag(
+3 )
+u8x { string_ @lengthOf(
+options1 )
+, options1 @lengthOf(u128 ) , float64
+Foo @calculatedFrom( ""abc"" ) `two words` ,
+//	t
+// 50% %s
+char[]falsey @lengthOf(o), // `tick` ""quote"" 'q'
+} ,}
+packet zchar { }
+")).
+Eval vm_compute in ("<<<T1021>>>" ++ terms [mkTok 35 "packet" 2 0 false; mkTok 42 "Packet" 2 7 false; mkTok 2 "{" 2 15 false; mkTok 9 "@tag(" 3 4 false; mkTok 30 "3" 4 0 false; mkTok 6 ")" 4 2 false; mkTok 42 "u8x" 5 0 false; mkTok 2 "{" 5 4 false; mkTok 42 "string_" 5 6 false; mkTok 7 "@lengthOf(" 5 14 false; mkTok 42 "options1" 6 0 false; mkTok 6 ")" 6 9 false; mkTok 40 "," 7 0 false; mkTok 42 "options1" 7 2 false; mkTok 7 "@lengthOf(" 7 11 false; mkTok 42 "u128" 7 21 false; mkTok 6 ")" 7 26 false; mkTok 40 "," 7 28 false; mkTok 29 "float64" 7 30 false; mkTok 42 "Foo" 8 0 false; mkTok 5 "@calculatedFrom(" 8 4 false; mkTok 31 """abc""" 8 21 false; mkTok 6 ")" 8 27 false; mkTok 43 "`two words`" 8 29 false; mkTok 40 "," 8 41 false; mkTok 44 (string_of_bytes [47; 47; 9; 116]%N) 9 0 true; mkTok 44 "// 50% %s" 10 0 true; mkTok 16 "char[]" 11 0 false; mkTok 42 "falsey" 11 6 false; mkTok 7 "@lengthOf(" 11 13 false; mkTok 42 "o" 11 23 false; mkTok 6 ")" 11 24 false; mkTok 40 "," 11 25 false; mkTok 44 "// `tick` ""quote"" 'q'" 11 27 true; mkTok 3 "}" 12 0 false; mkTok 40 "," 12 2 false; mkTok 3 "}" 12 3 false; mkTok 35 "packet" 13 0 false; mkTok 42 "zchar" 13 7 false; mkTok 2 "{" 13 13 false; mkTok 3 "}" 13 15 false; mkTok 0 "<EOF>" 14 0 false] (mkPacket (mkPtok 35 "packet" 2 0 0) (Some (mkPtok 3 "}" 13 15 40)) [(DPacket (mkPacketDef (mkSpan (mkPtok 35 "packet" 2 0 0) (mkPtok 3 "}" 12 3 36)) None (mkPtok 35 "packet" 2 0 0) (mkPtok 42 "Packet" 2 7 1) (mkPtok 2 "{" 2 15 2) [(mkFieldWithAttr (mkSpan (mkPtok 9 "@tag(" 3 4 3) (mkPtok 40 "," 12 2 35)) [(FATag (mkSpan (mkPtok 9 "@tag(" 3 4 3) (mkPtok 6 ")" 4 2 5)) (mkTagAttr (mkSpan (mkPtok 9 "@tag(" 3 4 3) (mkPtok 6 ")" 4 2 5)) (mkPtok 9 "@tag(" 3 4 3) (mkPtok 30 "3" 4 0 4) (mkPtok 6 ")" 4 2 5)))] (InerObjectField (mkSpan (mkPtok 42 "u8x" 5 0 6) (mkPtok 40 "," 12 2 35)) None (InerObjectDecl (mkSpan (mkPtok 42 "u8x" 5 0 6) (mkPtok 3 "}" 12 0 34)) (mkPtok 42 "u8x" 5 0 6) (mkPtok 2 "{" 5 4 7) [(LengthField (mkSpan (mkPtok 42 "string_" 5 6 8) (mkPtok 40 "," 7 0 12)) (mkLengthFieldDecl (mkSpan (mkPtok 42 "string_" 5 6 8) (mkPtok 40 "," 7 0 12)) None (mkPtok 42 "string_" 5 6 8) (mkLengthOf (mkSpan (mkPtok 7 "@lengthOf(" 5 14 9) (mkPtok 6 ")" 6 9 11)) (mkPtok 7 "@lengthOf(" 5 14 9) (mkPtok 42 "options1" 6 0 10) (mkPtok 6 ")" 6 9 11)) None (mkPtok 40 "," 7 0 12))); (LengthField (mkSpan (mkPtok 42 "options1" 7 2 13) (mkPtok 40 "," 7 28 17)) (mkLengthFieldDecl (mkSpan (mkPtok 42 "options1" 7 2 13) (mkPtok 40 "," 7 28 17)) None (mkPtok 42 "options1" 7 2 13) (mkLengthOf (mkSpan (mkPtok 7 "@lengthOf(" 7 11 14) (mkPtok 6 ")" 7 26 16)) (mkPtok 7 "@lengthOf(" 7 11 14) (mkPtok 42 "u128" 7 21 15) (mkPtok 6 ")" 7 26 16)) None (mkPtok 40 "," 7 28 17))); (CheckSumField (mkSpan (mkPtok 29 "float64" 7 30 18) (mkPtok 40 "," 8 41 24)) (mkChecksumFieldDecl (mkSpan (mkPtok 29 "float64" 7 30 18) (mkPtok 40 "," 8 41 24)) (Some (TyBasic (mkSpan (mkPtok 29 "float64" 7 30 18) (mkPtok 29 "float64" 7 30 18)) (mkBasicType (mkSpan (mkPtok 29 "float64" 7 30 18) (mkPtok 29 "float64" 7 30 18)) (mkPtok 29 "float64" 7 30 18)))) (mkPtok 42 "Foo" 8 0 19) (mkCalculatedFrom (mkSpan (mkPtok 5 "@calculatedFrom(" 8 4 20) (mkPtok 6 ")" 8 27 22)) (mkPtok 5 "@calculatedFrom(" 8 4 20) (mkPtok 31 """abc""" 8 21 21) (mkPtok 6 ")" 8 27 22)) (Some (mkPtok 43 "`two words`" 8 29 23)) (mkPtok 40 "," 8 41 24))); (LengthField (mkSpan (mkPtok 16 "char[]" 11 0 27) (mkPtok 40 "," 11 25 32)) (mkLengthFieldDecl (mkSpan (mkPtok 16 "char[]" 11 0 27) (mkPtok 40 "," 11 25 32)) (Some (TyDynamic (mkSpan (mkPtok 16 "char[]" 11 0 27) (mkPtok 16 "char[]" 11 0 27)) (mkDynamicString (mkSpan (mkPtok 16 "char[]" 11 0 27) (mkPtok 16 "char[]" 11 0 27)) (mkPtok 16 "char[]" 11 0 27)))) (mkPtok 42 "falsey" 11 6 28) (mkLengthOf (mkSpan (mkPtok 7 "@lengthOf(" 11 13 29) (mkPtok 6 ")" 11 24 31)) (mkPtok 7 "@lengthOf(" 11 13 29) (mkPtok 42 "o" 11 23 30) (mkPtok 6 ")" 11 24 31)) None (mkPtok 40 "," 11 25 32)))] (mkPtok 3 "}" 12 0 34)) (mkPtok 40 "," 12 2 35)))] (mkPtok 3 "}" 12 3 36))); (DPacket (mkPacketDef (mkSpan (mkPtok 35 "packet" 13 0 37) (mkPtok 3 "}" 13 15 40)) None (mkPtok 35 "packet" 13 0 37) (mkPtok 42 "zchar" 13 7 38) (mkPtok 2 "{" 13 13 39) [] (mkPtok 3 "}" 13 15 40)))])).
+Eval vm_compute in ("<<<M1053>>>" ++ check (runes_of_ascii "// " ++ [27880; 37322]%N ++ runes_of_ascii "
+packet len
+    {
+repeat
+metadata uint8x
+`say ""hi""` ,}")).
+Eval vm_compute in ("<<<M1085>>>" ++ check (runes_of_ascii "packet asx { //
+}packet Z9_ { @rightPad
+(
+    '\x00' ) leftPad  @calculatedFrom("""")
+    ,
+@calculatedFrom( ""packet"" )
+    roots calculatedFrom `two words` , @calculatedFrom( ""x y"") @calculatedFrom( // `tick` ""quote"" 'q'
+""a\""b"" ) repeat x
+    // " ++ [128512]%N ++ runes_of_ascii " emoji
+    charz
+    , repeat	f32a
+{ char[] // `tick` ""quote"" 'q'
+falsey @lengthOf(pack ),
+zchar[
+10 ] options1 @lengthOf(// 50% %s
+float
+    ),char[ 00
+    ]
+Packet @lengthOf(chars
+    ) , } ,@calculatedFrom( ""a	b"" ) T
+BodyLength `doc`	,@tag( 10
+    )match
+x as msg_type
+    {
+    007 :
+    /// triple
+    Z9_ ,
+[255
+// " ++ [128512]%N ++ runes_of_ascii " emoji
+// `tick` ""quote"" 'q'
+, ""a	b"" // `tick` ""quote"" 'q'
+] :
+    lengthOf , } ,
+}packet tag
+    //x
+    {
+    Logon @calculatedFrom(""\" ++ [233]%N ++ runes_of_ascii """
+),
+repeat f32a
+{
+    int8 Logon @lengthOf(repeatCount ) `100% of %d` ,}
+, @calculatedFrom( ""{,}""
+    )
+@leftPad ( '0'
+    ) @tag( 255//
+) int32 MetaDataX`it's`,@rightPad
+    ( '0' )@calculatedFrom( """ ++ [128512]%N ++ runes_of_ascii """
+) Pad
+x , zchar[  007	]
+    MetaDataX , } packet BodyLength {
+}packet calculatedFrom
+{// packet A { u8 x, }
 }
 ")).
-Eval vm_compute in ("<<<M1533>>>" ++ check (runes_of_ascii "packet
-//x
-//
-calculatedFrom
+Eval vm_compute in ("<<<M1117>>>" ++ check (runes_of_ascii " 	 ")).
+Eval vm_compute in ("<<<M1149>>>" ++ check (runes_of_ascii "packet crc {
+}
+")).
+Eval vm_compute in ("<<<M1181>>>" ++ check (runes_of_ascii "MetaData metadata  {x tag , float64
+chars
+,// packet A { u8 x, }
+}	root	packet Pad
+    {
+} options
+    {
+    }")).
+Eval vm_compute in ("<<<M1213>>>" ++ check (runes_of_ascii "options { body // packet A { u8 x, }
+=
+    ""\" ++ [233]%N ++ runes_of_ascii """
+; }
+options{chars =  ""x y"" } packet BodyLength	{ chars@calculatedFrom( //	t
+""" ++ [233]%N ++ runes_of_ascii "t" ++ [233]%N ++ runes_of_ascii """  )
+`100% of %d`
+    , @calculatedFrom( ""a	b"" // " ++ [128512]%N ++ runes_of_ascii " emoji
+) int32
+    msg_type , } packet
+    metadata
+{
+    @leftPad(
+    ) u8 u128 ,u , //	t
+trueish , stringy	trueish//	t
+,@lengthOf(
+Pad) pack
+{
+char[ 10
+    ] charz `u8 x,` , }, repeat char leftPad , @rightPad ( '0' ) i64
+    int@lengthOf( pack)
+, char[] charz , // @lengthOf(
+match _x // c
+as pack { //x
+3 :	body	,
+[ ""// no comment"" ,
+""a\""b""]
+:
+uint8x , 3 :lengthOf , } , matchKey
+    // 50% %s
+    , }
+")).
+Eval vm_compute in ("<<<M1245>>>" ++ check (runes_of_ascii "MetaData
+// " ++ [128512]%N ++ runes_of_ascii " emoji
+/// triple
+roots { // packet A { u8 x, }
+}  MetaData  stringy
 { }
+")).
+Eval vm_compute in ("<<<T1245>>>" ++ terms [mkTok 37 "MetaData" 1 0 false; mkTok 44 (string_of_bytes [47; 47; 32; 240; 159; 152; 128; 32; 101; 109; 111; 106; 105]%N) 2 0 true; mkTok 44 "/// triple" 3 0 true; mkTok 42 "roots" 4 0 false; mkTok 2 "{" 4 6 false; mkTok 44 "// packet A { u8 x, }" 4 8 true; mkTok 3 "}" 5 0 false; mkTok 37 "MetaData" 5 3 false; mkTok 42 "stringy" 5 13 false; mkTok 2 "{" 6 0 false; mkTok 3 "}" 6 2 false; mkTok 0 "<EOF>" 7 0 false] (mkPacket (mkPtok 37 "MetaData" 1 0 0) (Some (mkPtok 3 "}" 6 2 10)) [(DMeta (mkMetaDef (mkSpan (mkPtok 37 "MetaData" 1 0 0) (mkPtok 3 "}" 5 0 6)) (mkPtok 37 "MetaData" 1 0 0) (mkPtok 42 "roots" 4 0 3) (mkPtok 2 "{" 4 6 4) [] (mkPtok 3 "}" 5 0 6))); (DMeta (mkMetaDef (mkSpan (mkPtok 37 "MetaData" 5 3 7) (mkPtok 3 "}" 6 2 10)) (mkPtok 37 "MetaData" 5 3 7) (mkPtok 42 "stringy" 5 13 8) (mkPtok 2 "{" 6 0 9) [] (mkPtok 3 "}" 6 2 10)))])).
+Eval vm_compute in ("<<<M1277>>>" ++ check (runes_of_ascii "//
+options { } packet leftPad{ }packet trueish{
+    i8 pack	,
+} packet body {
+}
+")).
+Eval vm_compute in ("<<<M1309>>>" ++ check (runes_of_ascii "MetaData a1{  }
+")).
+Eval vm_compute in ("<<<M1341>>>" ++ check (runes_of_ascii "  packet len	{ string tag , @calculatedFrom(
+    """ ++ [233]%N ++ runes_of_ascii "t" ++ [233]%N ++ runes_of_ascii """)
+repeat Z9_{ // " ++ [27880; 37322]%N ++ runes_of_ascii "
+zchar[ 65535// c
+] //	t
+len @lengthOf( matchKey
+) ,
+//
+/// triple
+} ,  }MetaData float {
+f32a rootA // trailing space 
+`" ++ [233]%N ++ runes_of_ascii "`
+    , // trailing space 
+}
+")).
+Eval vm_compute in ("<<<M1373>>>" ++ check (runes_of_ascii "// c
+options{
+chars = '\x00' ; pack = true
+float
+=0123456789// c
+}packet i64_ { string lengthOf
+    @lengthOf(
+    u8x // " ++ [128512]%N ++ runes_of_ascii " emoji
+)
+    `it's`	, msg_type	`" ++ [233]%N ++ runes_of_ascii "` ,
+    f32 body `line1
+line2`,A // " ++ [27880; 37322]%N ++ runes_of_ascii "
+{zchar[0] Foo // 50% %s
+@lengthOf( x ) ,
+i32 body @calculatedFrom(""`tick`"" )`doc`
+,
+} ,u8	i8i8 @lengthOf( Logon //
+) `a\`, } 	 ")).
+Eval vm_compute in ("<<<M1405>>>" ++ check (runes_of_ascii "options { rootA
+= """ ++ [233]%N ++ runes_of_ascii "t" ++ [233]%N ++ runes_of_ascii """ tag =
+true body
+=	'0' }
+    root packet
+    leftPad{}")).
+Eval vm_compute in ("<<<M1437>>>" ++ check (runes_of_ascii "//	t
+packet int	{ chars falsey`u8 x,`	,char[ 3 // `tick` ""quote"" 'q'
+] asx
+@lengthOf(string_ ) `say ""hi""`, @calculatedFrom(
+""" ++ [128512]%N ++ runes_of_ascii """ )
+u64 x_y_z `line1
+line2`
+    ,
+} packet leftPad { @calculatedFrom(
+    //
+    ""it's""	)
+uint8 chars
+    `two words`,@calculatedFrom(""CRC32""
+) @lengthOf(
+    o)repeat char[4294967296] x/// triple
+,@calculatedFrom(""CRC32""
+) float64 Packet `it's` , @tag(	65535 )
+char[]f32a @calculatedFrom( ""x y"" ) `doc`  ,// c
+} 	 ")).
+Eval vm_compute in ("<<<M1469>>>" ++ check (runes_of_ascii "MetaData  chars{ i64	zchar `a\`
+    , } // " ++ [27880; 37322]%N ++ runes_of_ascii "
+packet f32a
+    { @tag( 00
+    ) match
+    // 50% %s
+    BodyLength as u128
+    { [0 ] : rootA , [	""{,}""
+    , 0
+    ]: matchKey ""it's""
+: stringy ,
+""""	: As, }, @calculatedFrom( ""a\\"" // @lengthOf(
+)
+//x
+// packet A { u8 x, }
+matchKey	@lengthOf( i8i8 )`a\`
+,@calculatedFrom(	""it's"" ) string
+    x_y_z, // `tick` ""quote"" 'q'
+@lengthOf(repeatCount
+) //x
+char[ 00 ]Header  `
+`,
+    // a // b
+    } root
+    packet u
+{ As @lengthOf( f32a ) `" ++ [233]%N ++ runes_of_ascii "` , @calculatedFrom( ""it's"" )
+@tag(7
+)  zchar[
+0 //x
+]
+    As	@lengthOf( //
+zchar
+    ) `say ""hi""`,// `tick` ""quote"" 'q'
+@rightPad ( '\x00' )
+match/// triple
+T as len { 4294967296: metadata ,0: x } ,  repeat
+// `tick` ""quote"" 'q'
+// " ++ [128512]%N ++ runes_of_ascii " emoji
+trueish , // @lengthOf(
+@calculatedFrom(""" ++ [233]%N ++ runes_of_ascii "t" ++ [233]%N ++ runes_of_ascii """
+) @lengthOf( lengthOf
+    )
+    @rightPad( '\x00' )repeat char[  255  ] string_ `" ++ [233]%N ++ runes_of_ascii "`
+, T	{
+repeat
+// 50% %s
+// c
+crc msg_type
+,uint64
+    u8x
+    , len
+BodyLength ,
+    }
+,	} MetaData BodyLength{options1 MetaDataX ,
+    }
+")).
+Eval vm_compute in ("<<<T1469>>>" ++ terms [mkTok 37 "MetaData" 1 0 false; mkTok 42 "chars" 1 10 false; mkTok 2 "{" 1 15 false; mkTok 27 "i64" 1 17 false; mkTok 42 "zchar" 1 21 false; mkTok 43 "`a\`" 1 27 false; mkTok 40 "," 2 4 false; mkTok 3 "}" 2 6 false; mkTok 44 (string_of_bytes [47; 47; 32; 230; 179; 168; 233; 135; 138]%N) 2 8 true; mkTok 35 "packet" 3 0 false; mkTok 42 "f32a" 3 7 false; mkTok 2 "{" 4 4 false; mkTok 9 "@tag(" 4 6 false; mkTok 30 "00" 4 12 false; mkTok 6 ")" 5 4 false; mkTok 38 "match" 5 6 false; mkTok 44 "// 50% %s" 6 4 true; mkTok 42 "BodyLength" 7 4 false; mkTok 17 "as" 7 15 false; mkTok 42 "u128" 7 18 false; mkTok 2 "{" 8 4 false; mkTok 18 "[" 8 6 false; mkTok 30 "0" 8 7 false; mkTok 13 "]" 8 9 false; mkTok 39 ":" 8 11 false; mkTok 42 "rootA" 8 13 false; mkTok 40 "," 8 19 false; mkTok 18 "[" 8 21 false; mkTok 31 """{,}""" 8 23 false; mkTok 40 "," 9 4 false; mkTok 30 "0" 9 6 false; mkTok 13 "]" 10 4 false; mkTok 39 ":" 10 5 false; mkTok 42 "matchKey" 10 7 false; mkTok 31 """it's""" 10 16 false; mkTok 39 ":" 11 0 false; mkTok 42 "stringy" 11 2 false; mkTok 40 "," 11 10 false; mkTok 31 """""" 12 0 false; mkTok 39 ":" 12 3 false; mkTok 42 "As" 12 5 false; mkTok 40 "," 12 7 false; mkTok 3 "}" 12 9 false; mkTok 40 "," 12 10 false; mkTok 5 "@calculatedFrom(" 12 12 false; mkTok 31 """a\\""" 12 29 false; mkTok 44 "// @lengthOf(" 12 35 true; mkTok 6 ")" 13 0 false; mkTok 44 "//x" 14 0 true; mkTok 44 "// packet A { u8 x, }" 15 0 true; mkTok 42 "matchKey" 16 0 false; mkTok 7 "@lengthOf(" 16 9 false; mkTok 42 "i8i8" 16 20 false; mkTok 6 ")" 16 25 false; mkTok 43 "`a\`" 16 26 false; mkTok 40 "," 17 0 false; mkTok 5 "@calculatedFrom(" 17 1 false; mkTok 31 """it's""" 17 18 false; mkTok 6 ")" 17 25 false; mkTok 15 "string" 17 27 false; mkTok 42 "x_y_z" 18 4 false; mkTok 40 "," 18 9 false; mkTok 44 "// `tick` ""quote"" 'q'" 18 11 true; mkTok 7 "@lengthOf(" 19 0 false; mkTok 42 "repeatCount" 19 10 false; mkTok 6 ")" 20 0 false; mkTok 44 "//x" 20 2 true; mkTok 12 "char[" 21 0 false; mkTok 30 "00" 21 6 false; mkTok 13 "]" 21 9 false; mkTok 42 "Header" 21 10 false; mkTok 43 (string_of_bytes [96; 10; 96]%N) 21 18 false; mkTok 40 "," 22 1 false; mkTok 44 "// a // b" 23 4 true; mkTok 3 "}" 24 4 false; mkTok 34 "root" 24 6 false; mkTok 35 "packet" 25 4 false; mkTok 42 "u" 25 11 false; mkTok 2 "{" 26 0 false; mkTok 42 "As" 26 2 false; mkTok 7 "@lengthOf(" 26 5 false; mkTok 42 "f32a" 26 16 false; mkTok 6 ")" 26 21 false; mkTok 43 (string_of_bytes [96; 195; 169; 96]%N) 26 23 false; mkTok 40 "," 26 27 false; mkTok 5 "@calculatedFrom(" 26 29 false; mkTok 31 """it's""" 26 46 false; mkTok 6 ")" 26 53 false; mkTok 9 "@tag(" 27 0 false; mkTok 30 "7" 27 5 false; mkTok 6 ")" 28 0 false; mkTok 14 "zchar[" 28 3 false; mkTok 30 "0" 29 0 false; mkTok 44 "//x" 29 2 true; mkTok 13 "]" 30 0 false; mkTok 42 "As" 31 4 false; mkTok 7 "@lengthOf(" 31 7 false; mkTok 44 "//" 31 18 true; mkTok 42 "zchar" 32 0 false; mkTok 6 ")" 33 4 false; mkTok 43 "`say ""hi""`" 33 6 false; mkTok 40 "," 33 16 false; mkTok 44 "// `tick` ""quote"" 'q'" 33 17 true; mkTok 32 "@rightPad" 34 0 false; mkTok 8 "(" 34 10 false; mkTok 33 "'\x00'" 34 12 false; mkTok 6 ")" 34 19 false; mkTok 38 "match" 35 0 false; mkTok 44 "/// triple" 35 5 true; mkTok 42 "T" 36 0 false; mkTok 17 "as" 36 2 false; mkTok 42 "len" 36 5 false; mkTok 2 "{" 36 9 false; mkTok 30 "4294967296" 36 11 false; mkTok 39 ":" 36 21 false; mkTok 42 "metadata" 36 23 false; mkTok 40 "," 36 32 false; mkTok 30 "0" 36 33 false; mkTok 39 ":" 36 34 false; mkTok 42 "x" 36 36 false; mkTok 3 "}" 36 38 false; mkTok 40 "," 36 40 false; mkTok 36 "repeat" 36 43 false; mkTok 44 "// `tick` ""quote"" 'q'" 37 0 true; mkTok 44 (string_of_bytes [47; 47; 32; 240; 159; 152; 128; 32; 101; 109; 111; 106; 105]%N) 38 0 true; mkTok 42 "trueish" 39 0 false; mkTok 40 "," 39 8 false; mkTok 44 "// @lengthOf(" 39 10 true; mkTok 5 "@calculatedFrom(" 40 0 false; mkTok 31 (string_of_bytes [34; 195; 169; 116; 195; 169; 34]%N) 40 16 false; mkTok 6 ")" 41 0 false; mkTok 7 "@lengthOf(" 41 2 false; mkTok 42 "lengthOf" 41 13 false; mkTok 6 ")" 42 4 false; mkTok 32 "@rightPad" 43 4 false; mkTok 8 "(" 43 13 false; mkTok 33 "'\x00'" 43 15 false; mkTok 6 ")" 43 22 false; mkTok 36 "repeat" 43 23 false; mkTok 12 "char[" 43 30 false; mkTok 30 "255" 43 37 false; mkTok 13 "]" 43 42 false; mkTok 42 "string_" 43 44 false; mkTok 43 (string_of_bytes [96; 195; 169; 96]%N) 43 52 false; mkTok 40 "," 44 0 false; mkTok 42 "T" 44 2 false; mkTok 2 "{" 44 4 false; mkTok 36 "repeat" 45 0 false; mkTok 44 "// 50% %s" 46 0 true; mkTok 44 "// c" 47 0 true; mkTok 42 "crc" 48 0 false; mkTok 42 "msg_type" 48 4 false; mkTok 40 "," 49 0 false; mkTok 23 "uint64" 49 1 false; mkTok 42 "u8x" 50 4 false; mkTok 40 "," 51 4 false; mkTok 42 "len" 51 6 false; mkTok 42 "BodyLength" 52 0 false; mkTok 40 "," 52 11 false; mkTok 3 "}" 53 4 false; mkTok 40 "," 54 0 false; mkTok 3 "}" 54 2 false; mkTok 37 "MetaData" 54 4 false; mkTok 42 "BodyLength" 54 13 false; mkTok 2 "{" 54 23 false; mkTok 42 "options1" 54 24 false; mkTok 42 "MetaDataX" 54 33 false; mkTok 40 "," 54 43 false; mkTok 3 "}" 55 4 false; mkTok 0 "<EOF>" 56 0 false] (mkPacket (mkPtok 37 "MetaData" 1 0 0) (Some (mkPtok 3 "}" 55 4 168)) [(DMeta (mkMetaDef (mkSpan (mkPtok 37 "MetaData" 1 0 0) (mkPtok 3 "}" 2 6 7)) (mkPtok 37 "MetaData" 1 0 0) (mkPtok 42 "chars" 1 10 1) (mkPtok 2 "{" 1 15 2) [(MIDecl (mkMetaDecl (mkSpan (mkPtok 27 "i64" 1 17 3) (mkPtok 40 "," 2 4 6)) (TyBasic (mkSpan (mkPtok 27 "i64" 1 17 3) (mkPtok 27 "i64" 1 17 3)) (mkBasicType (mkSpan (mkPtok 27 "i64" 1 17 3) (mkPtok 27 "i64" 1 17 3)) (mkPtok 27 "i64" 1 17 3))) (mkPtok 42 "zchar" 1 21 4) (Some (mkPtok 43 "`a\`" 1 27 5)) (mkPtok 40 "," 2 4 6)))] (mkPtok 3 "}" 2 6 7))); (DPacket (mkPacketDef (mkSpan (mkPtok 35 "packet" 3 0 9) (mkPtok 3 "}" 24 4 74)) None (mkPtok 35 "packet" 3 0 9) (mkPtok 42 "f32a" 3 7 10) (mkPtok 2 "{" 4 4 11) [(mkFieldWithAttr (mkSpan (mkPtok 9 "@tag(" 4 6 12) (mkPtok 40 "," 12 10 43)) [(FATag (mkSpan (mkPtok 9 "@tag(" 4 6 12) (mkPtok 6 ")" 5 4 14)) (mkTagAttr (mkSpan (mkPtok 9 "@tag(" 4 6 12) (mkPtok 6 ")" 5 4 14)) (mkPtok 9 "@tag(" 4 6 12) (mkPtok 30 "00" 4 12 13) (mkPtok 6 ")" 5 4 14)))] (MatchField (mkSpan (mkPtok 38 "match" 5 6 15) (mkPtok 40 "," 12 10 43)) (mkMatchFieldDecl (mkSpan (mkPtok 38 "match" 5 6 15) (mkPtok 3 "}" 12 9 42)) (mkPtok 38 "match" 5 6 15) (mkPtok 42 "BodyLength" 7 4 17) (mkPtok 17 "as" 7 15 18) (mkPtok 42 "u128" 7 18 19) (mkPtok 2 "{" 8 4 20) [(mkMatchPair (mkSpan (mkPtok 18 "[" 8 6 21) (mkPtok 40 "," 8 19 26)) (MKList (mkKeyList (mkSpan (mkPtok 18 "[" 8 6 21) (mkPtok 13 "]" 8 9 23)) (mkPtok 18 "[" 8 6 21) (mkPtok 30 "0" 8 7 22) [] (mkPtok 13 "]" 8 9 23))) (mkPtok 39 ":" 8 11 24) (mkPtok 42 "rootA" 8 13 25) (Some (mkPtok 40 "," 8 19 26))); (mkMatchPair (mkSpan (mkPtok 18 "[" 8 21 27) (mkPtok 42 "matchKey" 10 7 33)) (MKList (mkKeyList (mkSpan (mkPtok 18 "[" 8 21 27) (mkPtok 13 "]" 10 4 31)) (mkPtok 18 "[" 8 21 27) (mkPtok 31 """{,}""" 8 23 28) [((mkPtok 40 "," 9 4 29), (mkPtok 30 "0" 9 6 30))] (mkPtok 13 "]" 10 4 31))) (mkPtok 39 ":" 10 5 32) (mkPtok 42 "matchKey" 10 7 33) None); (mkMatchPair (mkSpan (mkPtok 31 """it's""" 10 16 34) (mkPtok 40 "," 11 10 37)) (MKString (mkPtok 31 """it's""" 10 16 34)) (mkPtok 39 ":" 11 0 35) (mkPtok 42 "stringy" 11 2 36) (Some (mkPtok 40 "," 11 10 37))); (mkMatchPair (mkSpan (mkPtok 31 """""" 12 0 38) (mkPtok 40 "," 12 7 41)) (MKString (mkPtok 31 """""" 12 0 38)) (mkPtok 39 ":" 12 3 39) (mkPtok 42 "As" 12 5 40) (Some (mkPtok 40 "," 12 7 41)))] (mkPtok 3 "}" 12 9 42)) (mkPtok 40 "," 12 10 43))); (mkFieldWithAttr (mkSpan (mkPtok 5 "@calculatedFrom(" 12 12 44) (mkPtok 40 "," 17 0 55)) [(FACalculatedFrom (mkSpan (mkPtok 5 "@calculatedFrom(" 12 12 44) (mkPtok 6 ")" 13 0 47)) (mkCalculatedFrom (mkSpan (mkPtok 5 "@calculatedFrom(" 12 12 44) (mkPtok 6 ")" 13 0 47)) (mkPtok 5 "@calculatedFrom(" 12 12 44) (mkPtok 31 """a\\""" 12 29 45) (mkPtok 6 ")" 13 0 47)))] (LengthField (mkSpan (mkPtok 42 "matchKey" 16 0 50) (mkPtok 40 "," 17 0 55)) (mkLengthFieldDecl (mkSpan (mkPtok 42 "matchKey" 16 0 50) (mkPtok 40 "," 17 0 55)) None (mkPtok 42 "matchKey" 16 0 50) (mkLengthOf (mkSpan (mkPtok 7 "@lengthOf(" 16 9 51) (mkPtok 6 ")" 16 25 53)) (mkPtok 7 "@lengthOf(" 16 9 51) (mkPtok 42 "i8i8" 16 20 52) (mkPtok 6 ")" 16 25 53)) (Some (mkPtok 43 "`a\`" 16 26 54)) (mkPtok 40 "," 17 0 55)))); (mkFieldWithAttr (mkSpan (mkPtok 5 "@calculatedFrom(" 17 1 56) (mkPtok 40 "," 18 9 61)) [(FACalculatedFrom (mkSpan (mkPtok 5 "@calculatedFrom(" 17 1 56) (mkPtok 6 ")" 17 25 58)) (mkCalculatedFrom (mkSpan (mkPtok 5 "@calculatedFrom(" 17 1 56) (mkPtok 6 ")" 17 25 58)) (mkPtok 5 "@calculatedFrom(" 17 1 56) (mkPtok 31 """it's""" 17 18 57) (mkPtok 6 ")" 17 25 58)))] (MetaField (mkSpan (mkPtok 15 "string" 17 27 59) (mkPtok 40 "," 18 9 61)) None (mkMetaDecl (mkSpan (mkPtok 15 "string" 17 27 59) (mkPtok 40 "," 18 9 61)) (TyDynamic (mkSpan (mkPtok 15 "string" 17 27 59) (mkPtok 15 "string" 17 27 59)) (mkDynamicString (mkSpan (mkPtok 15 "string" 17 27 59) (mkPtok 15 "string" 17 27 59)) (mkPtok 15 "string" 17 27 59))) (mkPtok 42 "x_y_z" 18 4 60) None (mkPtok 40 "," 18 9 61)))); (mkFieldWithAttr (mkSpan (mkPtok 7 "@lengthOf(" 19 0 63) (mkPtok 40 "," 22 1 72)) [(FALengthOf (mkSpan (mkPtok 7 "@lengthOf(" 19 0 63) (mkPtok 6 ")" 20 0 65)) (mkLengthOf (mkSpan (mkPtok 7 "@lengthOf(" 19 0 63) (mkPtok 6 ")" 20 0 65)) (mkPtok 7 "@lengthOf(" 19 0 63) (mkPtok 42 "repeatCount" 19 10 64) (mkPtok 6 ")" 20 0 65)))] (MetaField (mkSpan (mkPtok 12 "char[" 21 0 67) (mkPtok 40 "," 22 1 72)) None (mkMetaDecl (mkSpan (mkPtok 12 "char[" 21 0 67) (mkPtok 40 "," 22 1 72)) (TyFixed (mkSpan (mkPtok 12 "char[" 21 0 67) (mkPtok 13 "]" 21 9 69)) (mkFixedString (mkSpan (mkPtok 12 "char[" 21 0 67) (mkPtok 13 "]" 21 9 69)) (mkPtok 12 "char[" 21 0 67) (mkPtok 30 "00" 21 6 68) (mkPtok 13 "]" 21 9 69))) (mkPtok 42 "Header" 21 10 70) (Some (mkPtok 43 (string_of_bytes [96; 10; 96]%N) 21 18 71)) (mkPtok 40 "," 22 1 72))))] (mkPtok 3 "}" 24 4 74))); (DPacket (mkPacketDef (mkSpan (mkPtok 34 "root" 24 6 75) (mkPtok 3 "}" 54 2 161)) (Some (mkPtok 34 "root" 24 6 75)) (mkPtok 35 "packet" 25 4 76) (mkPtok 42 "u" 25 11 77) (mkPtok 2 "{" 26 0 78) [(mkFieldWithAttr (mkSpan (mkPtok 42 "As" 26 2 79) (mkPtok 40 "," 26 27 84)) [] (LengthField (mkSpan (mkPtok 42 "As" 26 2 79) (mkPtok 40 "," 26 27 84)) (mkLengthFieldDecl (mkSpan (mkPtok 42 "As" 26 2 79) (mkPtok 40 "," 26 27 84)) None (mkPtok 42 "As" 26 2 79) (mkLengthOf (mkSpan (mkPtok 7 "@lengthOf(" 26 5 80) (mkPtok 6 ")" 26 21 82)) (mkPtok 7 "@lengthOf(" 26 5 80) (mkPtok 42 "f32a" 26 16 81) (mkPtok 6 ")" 26 21 82)) (Some (mkPtok 43 (string_of_bytes [96; 195; 169; 96]%N) 26 23 83)) (mkPtok 40 "," 26 27 84)))); (mkFieldWithAttr (mkSpan (mkPtok 5 "@calculatedFrom(" 26 29 85) (mkPtok 40 "," 33 16 101)) [(FACalculatedFrom (mkSpan (mkPtok 5 "@calculatedFrom(" 26 29 85) (mkPtok 6 ")" 26 53 87)) (mkCalculatedFrom (mkSpan (mkPtok 5 "@calculatedFrom(" 26 29 85) (mkPtok 6 ")" 26 53 87)) (mkPtok 5 "@calculatedFrom(" 26 29 85) (mkPtok 31 """it's""" 26 46 86) (mkPtok 6 ")" 26 53 87))); (FATag (mkSpan (mkPtok 9 "@tag(" 27 0 88) (mkPtok 6 ")" 28 0 90)) (mkTagAttr (mkSpan (mkPtok 9 "@tag(" 27 0 88) (mkPtok 6 ")" 28 0 90)) (mkPtok 9 "@tag(" 27 0 88) (mkPtok 30 "7" 27 5 89) (mkPtok 6 ")" 28 0 90)))] (LengthField (mkSpan (mkPtok 14 "zchar[" 28 3 91) (mkPtok 40 "," 33 16 101)) (mkLengthFieldDecl (mkSpan (mkPtok 14 "zchar[" 28 3 91) (mkPtok 40 "," 33 16 101)) (Some (TyFixed (mkSpan (mkPtok 14 "zchar[" 28 3 91) (mkPtok 13 "]" 30 0 94)) (mkFixedString (mkSpan (mkPtok 14 "zchar[" 28 3 91) (mkPtok 13 "]" 30 0 94)) (mkPtok 14 "zchar[" 28 3 91) (mkPtok 30 "0" 29 0 92) (mkPtok 13 "]" 30 0 94)))) (mkPtok 42 "As" 31 4 95) (mkLengthOf (mkSpan (mkPtok 7 "@lengthOf(" 31 7 96) (mkPtok 6 ")" 33 4 99)) (mkPtok 7 "@lengthOf(" 31 7 96) (mkPtok 42 "zchar" 32 0 98) (mkPtok 6 ")" 33 4 99)) (Some (mkPtok 43 "`say ""hi""`" 33 6 100)) (mkPtok 40 "," 33 16 101)))); (mkFieldWithAttr (mkSpan (mkPtok 32 "@rightPad" 34 0 103) (mkPtok 40 "," 36 40 121)) [(FAPadding (mkSpan (mkPtok 32 "@rightPad" 34 0 103) (mkPtok 6 ")" 34 19 106)) (mkPaddingAttr (mkSpan (mkPtok 32 "@rightPad" 34 0 103) (mkPtok 6 ")" 34 19 106)) (mkPtok 32 "@rightPad" 34 0 103) (mkPtok 8 "(" 34 10 104) (Some (mkPtok 33 "'\x00'" 34 12 105)) (mkPtok 6 ")" 34 19 106)))] (MatchField (mkSpan (mkPtok 38 "match" 35 0 107) (mkPtok 40 "," 36 40 121)) (mkMatchFieldDecl (mkSpan (mkPtok 38 "match" 35 0 107) (mkPtok 3 "}" 36 38 120)) (mkPtok 38 "match" 35 0 107) (mkPtok 42 "T" 36 0 109) (mkPtok 17 "as" 36 2 110) (mkPtok 42 "len" 36 5 111) (mkPtok 2 "{" 36 9 112) [(mkMatchPair (mkSpan (mkPtok 30 "4294967296" 36 11 113) (mkPtok 40 "," 36 32 116)) (MKDigits (mkPtok 30 "4294967296" 36 11 113)) (mkPtok 39 ":" 36 21 114) (mkPtok 42 "metadata" 36 23 115) (Some (mkPtok 40 "," 36 32 116))); (mkMatchPair (mkSpan (mkPtok 30 "0" 36 33 117) (mkPtok 42 "x" 36 36 119)) (MKDigits (mkPtok 30 "0" 36 33 117)) (mkPtok 39 ":" 36 34 118) (mkPtok 42 "x" 36 36 119) None)] (mkPtok 3 "}" 36 38 120)) (mkPtok 40 "," 36 40 121))); (mkFieldWithAttr (mkSpan (mkPtok 36 "repeat" 36 43 122) (mkPtok 40 "," 39 8 126)) [] (ObjectField (mkSpan (mkPtok 36 "repeat" 36 43 122) (mkPtok 40 "," 39 8 126)) (Some (mkPtok 36 "repeat" 36 43 122)) (mkPtok 42 "trueish" 39 0 125) None None (mkPtok 40 "," 39 8 126))); (mkFieldWithAttr (mkSpan (mkPtok 5 "@calculatedFrom(" 40 0 128) (mkPtok 40 "," 44 0 144)) [(FACalculatedFrom (mkSpan (mkPtok 5 "@calculatedFrom(" 40 0 128) (mkPtok 6 ")" 41 0 130)) (mkCalculatedFrom (mkSpan (mkPtok 5 "@calculatedFrom(" 40 0 128) (mkPtok 6 ")" 41 0 130)) (mkPtok 5 "@calculatedFrom(" 40 0 128) (mkPtok 31 (string_of_bytes [34; 195; 169; 116; 195; 169; 34]%N) 40 16 129) (mkPtok 6 ")" 41 0 130))); (FALengthOf (mkSpan (mkPtok 7 "@lengthOf(" 41 2 131) (mkPtok 6 ")" 42 4 133)) (mkLengthOf (mkSpan (mkPtok 7 "@lengthOf(" 41 2 131) (mkPtok 6 ")" 42 4 133)) (mkPtok 7 "@lengthOf(" 41 2 131) (mkPtok 42 "lengthOf" 41 13 132) (mkPtok 6 ")" 42 4 133))); (FAPadding (mkSpan (mkPtok 32 "@rightPad" 43 4 134) (mkPtok 6 ")" 43 22 137)) (mkPaddingAttr (mkSpan (mkPtok 32 "@rightPad" 43 4 134) (mkPtok 6 ")" 43 22 137)) (mkPtok 32 "@rightPad" 43 4 134) (mkPtok 8 "(" 43 13 135) (Some (mkPtok 33 "'\x00'" 43 15 136)) (mkPtok 6 ")" 43 22 137)))] (MetaField (mkSpan (mkPtok 36 "repeat" 43 23 138) (mkPtok 40 "," 44 0 144)) (Some (mkPtok 36 "repeat" 43 23 138)) (mkMetaDecl (mkSpan (mkPtok 12 "char[" 43 30 139) (mkPtok 40 "," 44 0 144)) (TyFixed (mkSpan (mkPtok 12 "char[" 43 30 139) (mkPtok 13 "]" 43 42 141)) (mkFixedString (mkSpan (mkPtok 12 "char[" 43 30 139) (mkPtok 13 "]" 43 42 141)) (mkPtok 12 "char[" 43 30 139) (mkPtok 30 "255" 43 37 140) (mkPtok 13 "]" 43 42 141))) (mkPtok 42 "string_" 43 44 142) (Some (mkPtok 43 (string_of_bytes [96; 195; 169; 96]%N) 43 52 143)) (mkPtok 40 "," 44 0 144)))); (mkFieldWithAttr (mkSpan (mkPtok 42 "T" 44 2 145) (mkPtok 40 "," 54 0 160)) [] (InerObjectField (mkSpan (mkPtok 42 "T" 44 2 145) (mkPtok 40 "," 54 0 160)) None (InerObjectDecl (mkSpan (mkPtok 42 "T" 44 2 145) (mkPtok 3 "}" 53 4 159)) (mkPtok 42 "T" 44 2 145) (mkPtok 2 "{" 44 4 146) [(ObjectField (mkSpan (mkPtok 36 "repeat" 45 0 147) (mkPtok 40 "," 49 0 152)) (Some (mkPtok 36 "repeat" 45 0 147)) (mkPtok 42 "crc" 48 0 150) (Some (mkPtok 42 "msg_type" 48 4 151)) None (mkPtok 40 "," 49 0 152)); (MetaField (mkSpan (mkPtok 23 "uint64" 49 1 153) (mkPtok 40 "," 51 4 155)) None (mkMetaDecl (mkSpan (mkPtok 23 "uint64" 49 1 153) (mkPtok 40 "," 51 4 155)) (TyBasic (mkSpan (mkPtok 23 "uint64" 49 1 153) (mkPtok 23 "uint64" 49 1 153)) (mkBasicType (mkSpan (mkPtok 23 "uint64" 49 1 153) (mkPtok 23 "uint64" 49 1 153)) (mkPtok 23 "uint64" 49 1 153))) (mkPtok 42 "u8x" 50 4 154) None (mkPtok 40 "," 51 4 155))); (ObjectField (mkSpan (mkPtok 42 "len" 51 6 156) (mkPtok 40 "," 52 11 158)) None (mkPtok 42 "len" 51 6 156) (Some (mkPtok 42 "BodyLength" 52 0 157)) None (mkPtok 40 "," 52 11 158))] (mkPtok 3 "}" 53 4 159)) (mkPtok 40 "," 54 0 160)))] (mkPtok 3 "}" 54 2 161))); (DMeta (mkMetaDef (mkSpan (mkPtok 37 "MetaData" 54 4 162) (mkPtok 3 "}" 55 4 168)) (mkPtok 37 "MetaData" 54 4 162) (mkPtok 42 "BodyLength" 54 13 163) (mkPtok 2 "{" 54 23 164) [(MIRef (mkRefMetaDecl (mkSpan (mkPtok 42 "options1" 54 24 165) (mkPtok 40 "," 54 43 167)) (mkPtok 42 "options1" 54 24 165) (mkPtok 42 "MetaDataX" 54 33 166) None (mkPtok 40 "," 54 43 167)))] (mkPtok 3 "}" 55 4 168)))])).
+Eval vm_compute in ("<<<M1501>>>" ++ check (runes_of_ascii "  ")).
+Eval vm_compute in ("<<<M1533>>>" ++ check (@nil rune)).
+Eval vm_compute in ("<<<M1565>>>" ++ check (runes_of_ascii "
+root packet x_y_z { string trueish
+    @lengthOf( falsey	) ,
+char[] asx ,  @tag(
+0123456789)	stringy `tab	here`
+    , @leftPad
+(
+'0')	@calculatedFrom(
+    // " ++ [27880; 37322]%N ++ runes_of_ascii "
+    ""abc""	)
+u , @calculatedFrom(
+    """ ++ [233]%N ++ runes_of_ascii "t" ++ [233]%N ++ runes_of_ascii """
+)	@lengthOf(Packet) @lengthOf( uint8x )repeat x_y_z
+{
+    repeat char
+chars, }
+    , }
 
 ")).
-Eval vm_compute in ("<<<M1565>>>" ++ check (runes_of_ascii "root packet f32a	{ @calculatedFrom( ""\n"" )float64 len ,
-charz @lengthOf(
-    BodyLength ) ,
-@calculatedFrom( ""\" ++ [233]%N ++ runes_of_ascii """ )  @lengthOf(	A )
-    // trailing space 
-    @calculatedFrom(""{,}""
-) match As as roots {
-    4294967296 :// packet A { u8 x, }
-zchar
-, },
-    }")).
-Eval vm_compute in ("<<<M1597>>>" ++ check (runes_of_ascii "MetaData T  { char[ 0
-]A,
-uint64
-trueish `say ""hi""`,
-int64 body
-    , uint64
-f32a /// triple
-`" ++ [233]%N ++ runes_of_ascii "`
-,	}
-    root packet T
-    {
-@tag( // " ++ [128512]%N ++ runes_of_ascii " emoji
-10 ) match x_y_z as calculatedFrom	{  """ ++ [233]%N ++ runes_of_ascii "t" ++ [233]%N ++ runes_of_ascii """
-    : i8i8 } , tag { repeat Header
-    // c
-    x_y_z
-`it's`  , } , match u128 //x
-as options1
-    //x
-    {255 : calculatedFrom ,
-    }
-    , @calculatedFrom(  ""\n""
-) repeat zchar[ 255 ] trueish `doc`,	repeat o{	string i64_ ,repeat char[ 65535
-// @lengthOf(
-/// triple
-]int, float32 metadata `crlf
-line`,
-    repeat matchKey { repeat u128 roots // @lengthOf(
-`" ++ [233]%N ++ runes_of_ascii "`,  match  i8i8 as options1 {
-    ""{,}""// a // b
-:	roots } // `tick` ""quote"" 'q'
-, asx @lengthOf(calculatedFrom )
-`crlf
-line` , repeat int64
-Packet
-    , } ,
-    }
-, @leftPad
-(
-    // " ++ [27880; 37322]%N ++ runes_of_ascii "
-    ' '
-    // c
-    )
-    repeat zchar {
-    uint8 u,}
-,
-}	options { // c
-}	MetaData string_{
-x_y_z zchar
-    `a\` ,
-    // " ++ [27880; 37322]%N ++ runes_of_ascii "
-    len len
-    // " ++ [128512]%N ++ runes_of_ascii " emoji
-    `doc`
-, T float , packetx Header , } MetaData rootA {
-string int
-    , uint16 int `{ , }` , uint16// trailing space 
-charz // " ++ [27880; 37322]%N ++ runes_of_ascii "
-,uint8x f32a `crlf
-line` ,
-    }
-")).
-Eval vm_compute in ("<<<M1629>>>" ++ check (runes_of_ascii "  packet i64_  { repeat i32
-    x , @tag(
-0123456789
-)
-    i64_ Foo `say ""hi""` // " ++ [27880; 37322]%N ++ runes_of_ascii "
-, @calculatedFrom(""it's""
-    ) @lengthOf( MetaDataX ) @lengthOf(
-    // a // b
-    u128
-    ) x_y_z`say ""hi""`
-    ,
-    // `tick` ""quote"" 'q'
-    @rightPad  () @tag( 4294967296 ) i64_ ,	} MetaData len { // @lengthOf(
-char[] BodyLength `crlf
-line` ,}")).
-Eval vm_compute in ("<<<M1661>>>" ++ check (runes_of_ascii "packet
-T{repeat// `tick` ""quote"" 'q'
-char[
-0] roots`doc`, @calculatedFrom(
-    ""// no comment""
-    ) @lengthOf( x )
-//x
-// " ++ [128512]%N ++ runes_of_ascii " emoji
-Packet ,@leftPad	(
-'\x00' ) @tag( 7 ) @tag( 10 ) repeat	char[]
-u `" ++ [28040; 24687; 31867; 22411]%N ++ runes_of_ascii "` ,	char[ 007] Z9_ `two words` ,  repeat uint8	calculatedFrom `" ++ [233]%N ++ runes_of_ascii "` , //
-@calculatedFrom(
-    """ ++ [28040; 24687]%N ++ runes_of_ascii """ )
-    Z9_	, @rightPad (	' ')zchar[	0123456789 ] string_	,
-repeat  body
-,  char[]	calculatedFrom	,
-}
-")).
-Eval vm_compute in ("<<<M1693>>>" ++ check (runes_of_ascii "options { u = char  }")).
-Eval vm_compute in ("<<<T1693>>>" ++ terms [mkTok 1 "options" 1 0 false; mkTok 2 "{" 1 8 false; mkTok 42 "u" 1 10 false; mkTok 4 "=" 1 12 false; mkTok 19 "char" 1 14 false; mkTok 3 "}" 1 20 false; mkTok 0 "<EOF>" 1 21 false] (mkPacket (mkPtok 1 "options" 1 0 0) (Some (mkPtok 3 "}" 1 20 5)) [(DOption (mkOptionDef (mkSpan (mkPtok 1 "options" 1 0 0) (mkPtok 3 "}" 1 20 5)) (mkPtok 1 "options" 1 0 0) (mkPtok 2 "{" 1 8 1) [(mkOptionDecl (mkSpan (mkPtok 42 "u" 1 10 2) (mkPtok 19 "char" 1 14 4)) (mkPtok 42 "u" 1 10 2) (mkPtok 4 "=" 1 12 3) (VType (mkSpan (mkPtok 19 "char" 1 14 4) (mkPtok 19 "char" 1 14 4)) (TyBasic (mkSpan (mkPtok 19 "char" 1 14 4) (mkPtok 19 "char" 1 14 4)) (mkBasicType (mkSpan (mkPtok 19 "char" 1 14 4) (mkPtok 19 "char" 1 14 4)) (mkPtok 19 "char" 1 14 4)))) None)] (mkPtok 3 "}" 1 20 5)))])).
-Eval vm_compute in ("<<<M1725>>>" ++ check (runes_of_ascii "
-")).
-Eval vm_compute in ("<<<M1757>>>" ++ check (runes_of_ascii "MetaData f32a{}
-// a // b
-")).
-Eval vm_compute in ("<<<M1789>>>" ++ check (runes_of_ascii "packet  T { repeat T{
-    int16 T  @calculatedFrom( ""abc"" ) , } ,
-} options
-    { crc =int16; options1='\x00'
-    ;
-packetx=
-    """" ; }
-    // " ++ [27880; 37322]%N ++ runes_of_ascii "
-    MetaData rootA
-{//
-char[ 0123456789
-]repeatCount , _x
-pack `crlf
-line` ,  zchar[ 7] // c
-rootA `
+Eval vm_compute in ("<<<M1597>>>" ++ check (runes_of_ascii "MetaData
+    Packet
+    { uint8 As `
 `
-,}
-// c
-")).
-Eval vm_compute in ("<<<M1821>>>" ++ check (runes_of_ascii "packet _x  {	repeat A , @tag(	65535
-    ) int32 u8x
-, @rightPad(
-    '0' ) roots @lengthOf(
-    f32a ) , // packet A { u8 x, }
-}
-packet a1
-    //x
-    { repeat	char[]
-    crc	`` ,
-// c
-//x
-f64 u
-// " ++ [27880; 37322]%N ++ runes_of_ascii "
-//	t
-, repeat u16
-string_ `a\`
-,  }")).
-Eval vm_compute in ("<<<M1853>>>" ++ check (runes_of_ascii "
-packet falsey { @tag( 255 )
-repeat uint64 a1
-    , repeat _x // a // b
-`tab	here`,
-repeat f32a
-{ repeat chars
-    // packet A { u8 x, }
-    o `{ , }`
-// packet A { u8 x, }
-// `tick` ""quote"" 'q'
-,} ,
-@lengthOf( i64_ ) tag
-{ repeat string i8i8 ,
-char crc@calculatedFrom(	""" ++ [28040; 24687]%N ++ runes_of_ascii """ ) , options1
-metadata
-    , } ,@rightPad // packet A { u8 x, }
-(
-    ) _x`tab	here` ,
-    float32
-x
-    , @lengthOf( body ) @leftPad
-(
-    '0'
-    )
-    @lengthOf( asx )
-    repeat//	t
-zchar[7 ] As
-, body Z9_
-, //x
-@calculatedFrom( ""1""
-) zchar[ 007  ]Logon @calculatedFrom(
-""" ++ [233]%N ++ runes_of_ascii "t" ++ [233]%N ++ runes_of_ascii """ // @lengthOf(
-)// " ++ [128512]%N ++ runes_of_ascii " emoji
-, //	t
-@calculatedFrom(	""1"") @calculatedFrom( ""a\""b"" )@tag(
-4294967296
-) repeat
-    i8i8`a\`, } //x")).
-Eval vm_compute in ("<<<M1885>>>" ++ check (runes_of_ascii "packet
-    o { char[0//x
-] options1 `a\`
-,
-// @lengthOf(
-//x
-uint8 uint8x, } options {
-asx ='\x00'; string_
-=
-    ""`tick`"" //
-;
-crc
-=f64;
-// trailing space 
-// a // b
-}
-    packet BodyLength { @leftPad (' '
-)	@tag(10
-) // " ++ [128512]%N ++ runes_of_ascii " emoji
-@calculatedFrom(  """ ++ [128512]%N ++ runes_of_ascii """	)
-Z9_{
-match/// triple
-chars as u128  {
-    [ ""it's""
-    ]: Logon	, 255
-: T , """ ++ [233]%N ++ runes_of_ascii "t" ++ [233]%N ++ runes_of_ascii """ :  metadata  },
-    } , @lengthOf(
-    Z9_ ) crc x
-    `doc`
-,
-@lengthOf( options1 )
-// " ++ [128512]%N ++ runes_of_ascii " emoji
-//x
-string stringy
     ,
-    u16
-    // trailing space 
-    calculatedFrom
-    @calculatedFrom(
+    } MetaData charz{ //x
+char[	65535 ]
+    // `tick` ""quote"" 'q'
+    repeatCount, Header BodyLength ,
+char[ 0123456789 ]Logon
+,}
+    MetaData i8i8	{ uint8 Z9_ ,}
+    packet // trailing space 
+string_
+{ repeat
+string_ { // packet A { u8 x, }
+f64 asx
+, }  ,  string
+asx	@lengthOf(
+    asx
+) ,} root packet len { string BodyLength `say ""hi""` , Header
+    _x `" ++ [28040; 24687; 31867; 22411]%N ++ runes_of_ascii "` //
+, }
+")).
+Eval vm_compute in ("<<<M1629>>>" ++ check (runes_of_ascii "
+packet Foo
+    // packet A { u8 x, }
+    {@rightPad // @lengthOf(
+(
+'\x00' )
+int16 x// 50% %s
+,}")).
+Eval vm_compute in ("<<<M1661>>>" ++ check (runes_of_ascii "packet len{
+repeatCount`say ""hi""`
+    ,
+} packet rootA
+{
+zchar[1 ]	chars
+    ,  @calculatedFrom(
+    """ ++ [28040; 24687]%N ++ runes_of_ascii """ ) pack `doc` , @calculatedFrom(""x y"" )  char[]  x_y_z
+`// not a comment` , @lengthOf( int) string
+_x// packet A { u8 x, }
+, match As	as
+Foo	{0123456789	: float [ """ ++ [233]%N ++ runes_of_ascii "t" ++ [233]%N ++ runes_of_ascii """ ,	""" ++ [28040; 24687]%N ++ runes_of_ascii """
+]
+:packetx
+,""1"" :// trailing space 
+u128, [ 00
 // " ++ [128512]%N ++ runes_of_ascii " emoji
-// " ++ [128512]%N ++ runes_of_ascii " emoji
-""abc"") , @tag(255 )
-    @tag(3	) /// triple
-@lengthOf( Z9_
-    ) i64 msg_type @lengthOf( pack )
-,	char[ 1 ]
-pack @lengthOf( roots ) ,
-    repeat
-    zchar`it's` ,uint8x `line1
-line2` , // packet A { u8 x, }
-char[] a1 //
-@calculatedFrom( ""abc"" )`it's` , repeat u128
-    //	t
-    pack, }// " ++ [128512]%N ++ runes_of_ascii " emoji
-MetaData
-    len {
-f32
-    roots `
-` ,} //	t")).
-Eval vm_compute in ("<<<M1917>>>" ++ check (runes_of_ascii "
-packet len { }
-root packet
-    zchar{	} packet x {char[] As @lengthOf( T
-)
-`crlf
-line` ,char[ 10	] repeatCount `line1
-line2`, }")).
-Eval vm_compute in ("<<<T1917>>>" ++ terms [mkTok 35 "packet" 2 0 false; mkTok 42 "len" 2 7 false; mkTok 2 "{" 2 11 false; mkTok 3 "}" 2 13 false; mkTok 34 "root" 3 0 false; mkTok 35 "packet" 3 5 false; mkTok 42 "zchar" 4 4 false; mkTok 2 "{" 4 9 false; mkTok 3 "}" 4 11 false; mkTok 35 "packet" 4 13 false; mkTok 42 "x" 4 20 false; mkTok 2 "{" 4 22 false; mkTok 16 "char[]" 4 23 false; mkTok 42 "As" 4 30 false; mkTok 7 "@lengthOf(" 4 33 false; mkTok 42 "T" 4 44 false; mkTok 6 ")" 5 0 false; mkTok 43 (string_of_bytes [96; 99; 114; 108; 102; 13; 10; 108; 105; 110; 101; 96]%N) 6 0 false; mkTok 40 "," 7 6 false; mkTok 12 "char[" 7 7 false; mkTok 30 "10" 7 13 false; mkTok 13 "]" 7 16 false; mkTok 42 "repeatCount" 7 18 false; mkTok 43 (string_of_bytes [96; 108; 105; 110; 101; 49; 10; 108; 105; 110; 101; 50; 96]%N) 7 30 false; mkTok 40 "," 8 6 false; mkTok 3 "}" 8 8 false; mkTok 0 "<EOF>" 8 9 false] (mkPacket (mkPtok 35 "packet" 2 0 0) (Some (mkPtok 3 "}" 8 8 25)) [(DPacket (mkPacketDef (mkSpan (mkPtok 35 "packet" 2 0 0) (mkPtok 3 "}" 2 13 3)) None (mkPtok 35 "packet" 2 0 0) (mkPtok 42 "len" 2 7 1) (mkPtok 2 "{" 2 11 2) [] (mkPtok 3 "}" 2 13 3))); (DPacket (mkPacketDef (mkSpan (mkPtok 34 "root" 3 0 4) (mkPtok 3 "}" 4 11 8)) (Some (mkPtok 34 "root" 3 0 4)) (mkPtok 35 "packet" 3 5 5) (mkPtok 42 "zchar" 4 4 6) (mkPtok 2 "{" 4 9 7) [] (mkPtok 3 "}" 4 11 8))); (DPacket (mkPacketDef (mkSpan (mkPtok 35 "packet" 4 13 9) (mkPtok 3 "}" 8 8 25)) None (mkPtok 35 "packet" 4 13 9) (mkPtok 42 "x" 4 20 10) (mkPtok 2 "{" 4 22 11) [(mkFieldWithAttr (mkSpan (mkPtok 16 "char[]" 4 23 12) (mkPtok 40 "," 7 6 18)) [] (LengthField (mkSpan (mkPtok 16 "char[]" 4 23 12) (mkPtok 40 "," 7 6 18)) (mkLengthFieldDecl (mkSpan (mkPtok 16 "char[]" 4 23 12) (mkPtok 40 "," 7 6 18)) (Some (TyDynamic (mkSpan (mkPtok 16 "char[]" 4 23 12) (mkPtok 16 "char[]" 4 23 12)) (mkDynamicString (mkSpan (mkPtok 16 "char[]" 4 23 12) (mkPtok 16 "char[]" 4 23 12)) (mkPtok 16 "char[]" 4 23 12)))) (mkPtok 42 "As" 4 30 13) (mkLengthOf (mkSpan (mkPtok 7 "@lengthOf(" 4 33 14) (mkPtok 6 ")" 5 0 16)) (mkPtok 7 "@lengthOf(" 4 33 14) (mkPtok 42 "T" 4 44 15) (mkPtok 6 ")" 5 0 16)) (Some (mkPtok 43 (string_of_bytes [96; 99; 114; 108; 102; 13; 10; 108; 105; 110; 101; 96]%N) 6 0 17)) (mkPtok 40 "," 7 6 18)))); (mkFieldWithAttr (mkSpan (mkPtok 12 "char[" 7 7 19) (mkPtok 40 "," 8 6 24)) [] (MetaField (mkSpan (mkPtok 12 "char[" 7 7 19) (mkPtok 40 "," 8 6 24)) None (mkMetaDecl (mkSpan (mkPtok 12 "char[" 7 7 19) (mkPtok 40 "," 8 6 24)) (TyFixed (mkSpan (mkPtok 12 "char[" 7 7 19) (mkPtok 13 "]" 7 16 21)) (mkFixedString (mkSpan (mkPtok 12 "char[" 7 7 19) (mkPtok 13 "]" 7 16 21)) (mkPtok 12 "char[" 7 7 19) (mkPtok 30 "10" 7 13 20) (mkPtok 13 "]" 7 16 21))) (mkPtok 42 "repeatCount" 7 18 22) (Some (mkPtok 43 (string_of_bytes [96; 108; 105; 110; 101; 49; 10; 108; 105; 110; 101; 50; 96]%N) 7 30 23)) (mkPtok 40 "," 8 6 24))))] (mkPtok 3 "}" 8 8 25)))])).
-Eval vm_compute in ("<<<M1949>>>" ++ check (runes_of_ascii "
-MetaData
-A
-{	float32 f32a ,} 	 ")).
-Eval vm_compute in ("<<<M1981>>>" ++ check (runes_of_ascii "//x
-options  {// trailing space 
-}packet crc {
-@tag( //
-4294967296 ) u8x
-@lengthOf(
-u8x
-)`// not a comment` // @lengthOf(
-, @lengthOf(
-leftPad)
-repeat i8 f32a,
-//x
 /// triple
-repeat roots string_ `" ++ [233]%N ++ runes_of_ascii "`  , @lengthOf(f32a
-)
-    char[]
+, 0123456789 ]
+    : stringy
+, ""x y"" : int ,0123456789
+:	len ,
+    // " ++ [128512]%N ++ runes_of_ascii " emoji
+    }
+    ,	@lengthOf(  roots
+) match Foo as float	{65535 // " ++ [27880; 37322]%N ++ runes_of_ascii "
+: Z9_
+[
+    3 ,0
+, 4294967296 /// triple
+, 10
+,
+    ""1"" ,
+    ""it's""
+    ,
+    // 50% %s
+    3 ] : // packet A { u8 x, }
+body ""\" ++ [233]%N ++ runes_of_ascii """ //x
+:packetx [ ""`tick`""
+]	: packetx }
+, }")).
+Eval vm_compute in ("<<<M1693>>>" ++ check (runes_of_ascii "packet matchKey  {@rightPad ( '0' ) u64 float ,}
+")).
+Eval vm_compute in ("<<<T1693>>>" ++ terms [mkTok 35 "packet" 1 0 false; mkTok 42 "matchKey" 1 7 false; mkTok 2 "{" 1 17 false; mkTok 32 "@rightPad" 1 18 false; mkTok 8 "(" 1 28 false; mkTok 33 "'0'" 1 30 false; mkTok 6 ")" 1 34 false; mkTok 23 "u64" 1 36 false; mkTok 42 "float" 1 40 false; mkTok 40 "," 1 46 false; mkTok 3 "}" 1 47 false; mkTok 0 "<EOF>" 2 0 false] (mkPacket (mkPtok 35 "packet" 1 0 0) (Some (mkPtok 3 "}" 1 47 10)) [(DPacket (mkPacketDef (mkSpan (mkPtok 35 "packet" 1 0 0) (mkPtok 3 "}" 1 47 10)) None (mkPtok 35 "packet" 1 0 0) (mkPtok 42 "matchKey" 1 7 1) (mkPtok 2 "{" 1 17 2) [(mkFieldWithAttr (mkSpan (mkPtok 32 "@rightPad" 1 18 3) (mkPtok 40 "," 1 46 9)) [(FAPadding (mkSpan (mkPtok 32 "@rightPad" 1 18 3) (mkPtok 6 ")" 1 34 6)) (mkPaddingAttr (mkSpan (mkPtok 32 "@rightPad" 1 18 3) (mkPtok 6 ")" 1 34 6)) (mkPtok 32 "@rightPad" 1 18 3) (mkPtok 8 "(" 1 28 4) (Some (mkPtok 33 "'0'" 1 30 5)) (mkPtok 6 ")" 1 34 6)))] (MetaField (mkSpan (mkPtok 23 "u64" 1 36 7) (mkPtok 40 "," 1 46 9)) None (mkMetaDecl (mkSpan (mkPtok 23 "u64" 1 36 7) (mkPtok 40 "," 1 46 9)) (TyBasic (mkSpan (mkPtok 23 "u64" 1 36 7) (mkPtok 23 "u64" 1 36 7)) (mkBasicType (mkSpan (mkPtok 23 "u64" 1 36 7) (mkPtok 23 "u64" 1 36 7)) (mkPtok 23 "u64" 1 36 7))) (mkPtok 42 "float" 1 40 8) None (mkPtok 40 "," 1 46 9))))] (mkPtok 3 "}" 1 47 10)))])).
+Eval vm_compute in ("<<<M1725>>>" ++ check (runes_of_ascii "// a // b
+MetaData falsey{
+lengthOf T ,
+    // " ++ [128512]%N ++ runes_of_ascii " emoji
+    T rootA ,
+    BodyLength Header,zchar[
+    007 ]float ,} // a // b")).
+Eval vm_compute in ("<<<M1757>>>" ++ check (runes_of_ascii "root	packet msg_type	{
+}")).
+Eval vm_compute in ("<<<M1789>>>" ++ check (runes_of_ascii "MetaData matchKey {tag
+    i8i8  , body
+trueish `" ++ [233]%N ++ runes_of_ascii "` , calculatedFrom	leftPad , i8 stringy ,}")).
+Eval vm_compute in ("<<<M1821>>>" ++ check (runes_of_ascii "
+packet pack { u32 falsey `
+`
+    //
+    , } 	 ")).
+Eval vm_compute in ("<<<M1853>>>" ++ check (runes_of_ascii "MetaData chars // " ++ [128512]%N ++ runes_of_ascii " emoji
+{ asx u8x , char[ 255 ] Packet `` ,	Logon Logon
+,
+} //")).
+Eval vm_compute in ("<<<M1885>>>" ++ check (runes_of_ascii "root packet i64_
+    {}
+")).
+Eval vm_compute in ("<<<M1917>>>" ++ check (runes_of_ascii "options// " ++ [128512]%N ++ runes_of_ascii " emoji
+{
+A =""packet""}
+")).
+Eval vm_compute in ("<<<T1917>>>" ++ terms [mkTok 1 "options" 1 0 false; mkTok 44 (string_of_bytes [47; 47; 32; 240; 159; 152; 128; 32; 101; 109; 111; 106; 105]%N) 1 7 true; mkTok 2 "{" 2 0 false; mkTok 42 "A" 3 0 false; mkTok 4 "=" 3 2 false; mkTok 31 """packet""" 3 3 false; mkTok 3 "}" 3 11 false; mkTok 0 "<EOF>" 4 0 false] (mkPacket (mkPtok 1 "options" 1 0 0) (Some (mkPtok 3 "}" 3 11 6)) [(DOption (mkOptionDef (mkSpan (mkPtok 1 "options" 1 0 0) (mkPtok 3 "}" 3 11 6)) (mkPtok 1 "options" 1 0 0) (mkPtok 2 "{" 2 0 2) [(mkOptionDecl (mkSpan (mkPtok 42 "A" 3 0 3) (mkPtok 31 """packet""" 3 3 5)) (mkPtok 42 "A" 3 0 3) (mkPtok 4 "=" 3 2 4) (VString (mkSpan (mkPtok 31 """packet""" 3 3 5) (mkPtok 31 """packet""" 3 3 5)) (mkPtok 31 """packet""" 3 3 5)) None)] (mkPtok 3 "}" 3 11 6)))])).
+Eval vm_compute in ("<<<M1949>>>" ++ check (runes_of_ascii "packet uint8x {}  options{
+    }
+options	{a1	=
+//
+// " ++ [27880; 37322]%N ++ runes_of_ascii "
+int64; }
+    options {
+    f32a
+// 50% %s
+// a // b
+= char[ 0123456789	] } packet
+    crc
+{ // a // b
+@leftPad ( '0'// " ++ [128512]%N ++ runes_of_ascii " emoji
+) pack u8x ,
+zchar[ 3
+    ] f32a @lengthOf( As), repeat float64 Foo `it's` ,@tag(// `tick` ""quote"" 'q'
+7 )roots f32a `line1
+line2`
+    ,MetaDataX o , @tag(
+00  ) match matchKey // c
+as roots
+/// triple
 // `tick` ""quote"" 'q'
-// " ++ [27880; 37322]%N ++ runes_of_ascii "
-x @calculatedFrom(	""\n"") `crlf
-line`
+{0
+// packet A { u8 x, }
+// " ++ [128512]%N ++ runes_of_ascii " emoji
+:	msg_type,	""CRC32"" :u [
+65535	]: len ""{,}"": crc , 4294967296 : falsey, [ ""x y"" , ""CRC32"" , 3 ,""abc"",	3,	""""
+,0]: Pad // c
+, //
+} , @lengthOf( MetaDataX) repeat u16 metadata`doc`
+// " ++ [128512]%N ++ runes_of_ascii " emoji
+// " ++ [128512]%N ++ runes_of_ascii " emoji
 ,
-u32
-    asx @lengthOf( BodyLength ) , repeat string zchar
-`say ""hi""`	,
-calculatedFrom @lengthOf(
-packetx ) `it's` ,@calculatedFrom( ""abc"" ) repeat char[] int ,	chars @lengthOf( msg_type )
-,
-@tag(
-7
-    ) char[ 1 ] body ,} // @lengthOf(")).
+    @leftPad( ' ' ) match roots as u128
+{
+""" ++ [128512]%N ++ runes_of_ascii """ : float , ""CRC32"" :
+    falsey ,}
+    ,
+    // " ++ [128512]%N ++ runes_of_ascii " emoji
+    @leftPad
+( ' ' ) float32
+    Z9_ @lengthOf(// trailing space 
+f32a
+    )`tab	here`
+, @leftPad ( // a // b
+)
+zchar[
+    0
+    // `tick` ""quote"" 'q'
+    ] BodyLength  ,}
+")).
+Eval vm_compute in ("<<<M1981>>>" ++ check (runes_of_ascii "options{ lengthOf= ""x y""
+    } packet a1 { char[] matchKey `line1
+line2`
+    ,
+    tag packetx  `{ , }` ,
+// `tick` ""quote"" 'q'
+// `tick` ""quote"" 'q'
+} // " ++ [27880; 37322]%N ++ runes_of_ascii "
+root packet
+a1
+    {} options
+{ pack = // @lengthOf(
+7	;
+    // " ++ [27880; 37322]%N ++ runes_of_ascii "
+    }
+")).
 Eval vm_compute in ("<<<M2013>>>" ++ check (@nil rune)).
-Eval vm_compute in ("<<<M2045>>>" ++ check (runes_of_ascii "options{ i64_ = string ; trueish = =
-    '\x00'
-    leftPad = ""a\\"" /// triple
-; crc
-    = 255; uint8x
-=
-""abc""
-    ;}")).
-Eval vm_compute in ("<<<M2077>>>" ++ check (runes_of_ascii "options{ i64_ = string ; trueish =
-    '\x00'
-    leftPad = ""a\\"" /// triple
-; i64
-    = 255; uint8x
-=
-""abc""
-    ;}")).
-Eval vm_compute in ("<<<M2109>>>" ++ check (runes_of_ascii "options{ i64_ = string ; trueish =
-    '\x00'
-    leftPad = ""a\\"" /// triple
-; crc
-    = 255; uint8x
-=
-""abc""
-    }")).
-Eval vm_compute in ("<<<T2109>>>" ++ terms [mkTok 1 "options" 1 0 false; mkTok 2 "{" 1 7 false; mkTok 42 "i64_" 1 9 false; mkTok 4 "=" 1 14 false; mkTok 15 "string" 1 16 false; mkTok 41 ";" 1 23 false; mkTok 42 "trueish" 1 25 false; mkTok 4 "=" 1 33 false; mkTok 33 "'\x00'" 2 4 false; mkTok 42 "leftPad" 3 4 false; mkTok 4 "=" 3 12 false; mkTok 31 """a\\""" 3 14 false; mkTok 44 "/// triple" 3 20 true; mkTok 41 ";" 4 0 false; mkTok 42 "crc" 4 2 false; mkTok 4 "=" 5 4 false; mkTok 30 "255" 5 6 false; mkTok 41 ";" 5 9 false; mkTok 42 "uint8x" 5 11 false; mkTok 4 "=" 6 0 false; mkTok 31 """abc""" 7 0 false; mkTok 3 "}" 8 4 false; mkTok 0 "<EOF>" 8 5 false] (mkPacket (mkPtok 1 "options" 1 0 0) (Some (mkPtok 3 "}" 8 4 21)) [(DOption (mkOptionDef (mkSpan (mkPtok 1 "options" 1 0 0) (mkPtok 3 "}" 8 4 21)) (mkPtok 1 "options" 1 0 0) (mkPtok 2 "{" 1 7 1) [(mkOptionDecl (mkSpan (mkPtok 42 "i64_" 1 9 2) (mkPtok 41 ";" 1 23 5)) (mkPtok 42 "i64_" 1 9 2) (mkPtok 4 "=" 1 14 3) (VType (mkSpan (mkPtok 15 "string" 1 16 4) (mkPtok 15 "string" 1 16 4)) (TyDynamic (mkSpan (mkPtok 15 "string" 1 16 4) (mkPtok 15 "string" 1 16 4)) (mkDynamicString (mkSpan (mkPtok 15 "string" 1 16 4) (mkPtok 15 "string" 1 16 4)) (mkPtok 15 "string" 1 16 4)))) (Some (mkPtok 41 ";" 1 23 5))); (mkOptionDecl (mkSpan (mkPtok 42 "trueish" 1 25 6) (mkPtok 33 "'\x00'" 2 4 8)) (mkPtok 42 "trueish" 1 25 6) (mkPtok 4 "=" 1 33 7) (VPaddingChar (mkSpan (mkPtok 33 "'\x00'" 2 4 8) (mkPtok 33 "'\x00'" 2 4 8)) (mkPtok 33 "'\x00'" 2 4 8)) None); (mkOptionDecl (mkSpan (mkPtok 42 "leftPad" 3 4 9) (mkPtok 41 ";" 4 0 13)) (mkPtok 42 "leftPad" 3 4 9) (mkPtok 4 "=" 3 12 10) (VString (mkSpan (mkPtok 31 """a\\""" 3 14 11) (mkPtok 31 """a\\""" 3 14 11)) (mkPtok 31 """a\\""" 3 14 11)) (Some (mkPtok 41 ";" 4 0 13))); (mkOptionDecl (mkSpan (mkPtok 42 "crc" 4 2 14) (mkPtok 41 ";" 5 9 17)) (mkPtok 42 "crc" 4 2 14) (mkPtok 4 "=" 5 4 15) (VDigits (mkSpan (mkPtok 30 "255" 5 6 16) (mkPtok 30 "255" 5 6 16)) (mkPtok 30 "255" 5 6 16)) (Some (mkPtok 41 ";" 5 9 17))); (mkOptionDecl (mkSpan (mkPtok 42 "uint8x" 5 11 18) (mkPtok 31 """abc""" 7 0 20)) (mkPtok 42 "uint8x" 5 11 18) (mkPtok 4 "=" 6 0 19) (VString (mkSpan (mkPtok 31 """abc""" 7 0 20) (mkPtok 31 """abc""" 7 0 20)) (mkPtok 31 """abc""" 7 0 20)) None)] (mkPtok 3 "}" 8 4 21)))])).
-Eval vm_compute in ("<<<M2141>>>" ++ check (runes_of_ascii "  packet packet
-asx
-{
-/// triple
-// @lengthOf(
-u32 stringy
-`" ++ [28040; 24687; 31867; 22411]%N ++ runes_of_ascii "` ,} MetaData
-    A {string  _x, zchar Header `a\`
-// @lengthOf(
-// packet A { u8 x, }
-, char[] MetaDataX
-,zchar[ 1 ]
-    matchKey
-    , char[] //
-u,	char[0123456789 ]
-    matchKey
-    `{ , }`, }
+Eval vm_compute in ("<<<M2045>>>" ++ check (runes_of_ascii "MetaData repeatCount { float64 packetx,
+} root root packet  metadata {
+char _x @lengthOf( trueish ), @leftPad
+( ' '// " ++ [27880; 37322]%N ++ runes_of_ascii "
+)/// triple
+char[] len`doc` , // packet A { u8 x, }
+repeatCount , }
 ")).
-Eval vm_compute in ("<<<M2173>>>" ++ check (runes_of_ascii "  packet
-asx
-{
-/// triple
-// @lengthOf(
-u32 stringy
-`" ++ [28040; 24687; 31867; 22411]%N ++ runes_of_ascii "` )} MetaData
-    A {string  _x, zchar Header `a\`
-// @lengthOf(
-// packet A { u8 x, }
-, char[] MetaDataX
-,zchar[ 1 ]
-    matchKey
-    , char[] //
-u,	char[0123456789 ]
-    matchKey
-    `{ , }`, }
+Eval vm_compute in ("<<<M2077>>>" ++ check (runes_of_ascii "MetaData repeatCount { float64 packetx,
+} root packet  metadata {
+char _x uint32 trueish ), @leftPad
+( ' '// " ++ [27880; 37322]%N ++ runes_of_ascii "
+)/// triple
+char[] len`doc` , // packet A { u8 x, }
+repeatCount , }
 ")).
-Eval vm_compute in ("<<<M2205>>>" ++ check (runes_of_ascii "  packet
-asx
-{
+Eval vm_compute in ("<<<M2109>>>" ++ check (runes_of_ascii "MetaData repeatCount { float64 packetx,
+} root packet  metadata {
+char _x @lengthOf( trueish ), @leftPad
+( ' '// " ++ [27880; 37322]%N ++ runes_of_ascii "
 /// triple
-// @lengthOf(
-u32 stringy
-`" ++ [28040; 24687; 31867; 22411]%N ++ runes_of_ascii "` ,} MetaData
-    A {string  _x zchar Header `a\`
-// @lengthOf(
-// packet A { u8 x, }
-, char[] MetaDataX
-,zchar[ 1 ]
-    matchKey
-    , char[] //
-u,	char[0123456789 ]
-    matchKey
-    `{ , }`, }
+char[] len`doc` , // packet A { u8 x, }
+repeatCount , }
 ")).
-Eval vm_compute in ("<<<M2237>>>" ++ check (runes_of_ascii "  packet
-asx
-{
-/// triple
-// @lengthOf(
-u32 stringy
-`" ++ [28040; 24687; 31867; 22411]%N ++ runes_of_ascii "` ,} MetaData
-    A {string  _x, zchar Header `a\`
-// @lengthOf(
-// packet A { u8 x, }
-, char[] ,
-MetaDataX zchar[ 1 ]
-    matchKey
-    , char[] //
-u,	char[0123456789 ]
-    matchKey
-    `{ , }`, }
+Eval vm_compute in ("<<<M2141>>>" ++ check (runes_of_ascii "MetaData repeatCount { float64 packetx,
+} root packet  metadata {
+char _x @lengthOf( trueish ), @leftPad
+( ' '// " ++ [27880; 37322]%N ++ runes_of_ascii "
+)/// triple
+char[] len`doc` , // packet A { u8 x, }
+repeatCount } ,
 ")).
-Eval vm_compute in ("<<<M2269>>>" ++ check (runes_of_ascii "  packet
-asx
-{
-/// triple
-// @lengthOf(
-u32 stringy
-`" ++ [28040; 24687; 31867; 22411]%N ++ runes_of_ascii "` ,} MetaData
-    A {string  _x, zchar Header `a\`
-// @lengthOf(
+Eval vm_compute in ("<<<M2173>>>" ++ check (runes_of_ascii "A{
+leftPad
+    =65535
+;
+a1 = true ; packetx=  '\x00' ; packetx
+=  """ ++ [28040; 24687]%N ++ runes_of_ascii """MetaDataX= // " ++ [27880; 37322]%N ++ runes_of_ascii "
+false }root // c
+packet // packet A { u8 x, }
+Pad { repeat
+u8 Header
 // packet A { u8 x, }
-, char[] MetaDataX
-,zchar[ 1 ]
-    matchKey")).
-Eval vm_compute in ("<<<M2301>>>" ++ check (runes_of_ascii "  packet
-asx
-{
-/// triple
-// @lengthOf(
-u32 stringy
-`" ++ [28040; 24687; 31867; 22411]%N ++ runes_of_ascii "` ,} MetaData
-    A {string  _x, zchar Header `a\`
-// @lengthOf(
-// packet A { u8 x, }
-, char[] MetaDataX
-,zchar[ 1 ]
-    matchKey
-    , char[] //
-u,	char[0123456789 ]
-    matchKey matchKey
-    `{ , }`, }
+//	t
+`{ , }`
+// a // b
+//x
+, }
 ")).
-Eval vm_compute in ("<<<M2333>>>" ++ check (runes_of_ascii "  packet
-asx
-{
-/// triple
-// @lengthOf(
-u32 stringy
-`" ++ [28040; 24687; 31867; 22411]%N ++ runes_of_ascii "` ,} MetaData
-    A {string  _x, zchar Header `a\`
-// @lengthOf(
+Eval vm_compute in ("<<<M2205>>>" ++ check (runes_of_ascii "options{
+leftPad
+    =65535
+;
+a1  true ; packetx=  '\x00' ; packetx
+=  """ ++ [28040; 24687]%N ++ runes_of_ascii """MetaDataX= // " ++ [27880; 37322]%N ++ runes_of_ascii "
+false }root // c
+packet // packet A { u8 x, }
+Pad { repeat
+u8 Header
 // packet A { u8 x, }
-, char[] MetaDataX
-,zchar[ 1 ]
-    matchKey
-    , char[] //
-u,	char[0123456789 ]
-    matchKey
-    `{ , @leftpad}`, }
+//	t
+`{ , }`
+// a // b
+//x
+, }
 ")).
-Eval vm_compute in ("<<<T2333>>>" ++ terms [mkTok 35 "packet" 1 2 false; mkTok 42 "asx" 2 0 false; mkTok 2 "{" 3 0 false; mkTok 44 "/// triple" 4 0 true; mkTok 44 "// @lengthOf(" 5 0 true; mkTok 22 "u32" 6 0 false; mkTok 42 "stringy" 6 4 false; mkTok 43 (string_of_bytes [96; 230; 182; 136; 230; 129; 175; 231; 177; 187; 229; 158; 139; 96]%N) 7 0 false; mkTok 40 "," 7 7 false; mkTok 3 "}" 7 8 false; mkTok 37 "MetaData" 7 10 false; mkTok 42 "A" 8 4 false; mkTok 2 "{" 8 6 false; mkTok 15 "string" 8 7 false; mkTok 42 "_x" 8 15 false; mkTok 40 "," 8 17 false; mkTok 42 "zchar" 8 19 false; mkTok 42 "Header" 8 25 false; mkTok 43 "`a\`" 8 32 false; mkTok 44 "// @lengthOf(" 9 0 true; mkTok 44 "// packet A { u8 x, }" 10 0 true; mkTok 40 "," 11 0 false; mkTok 16 "char[]" 11 2 false; mkTok 42 "MetaDataX" 11 9 false; mkTok 40 "," 12 0 false; mkTok 14 "zchar[" 12 1 false; mkTok 30 "1" 12 8 false; mkTok 13 "]" 12 10 false; mkTok 42 "matchKey" 13 4 false; mkTok 40 "," 14 4 false; mkTok 16 "char[]" 14 6 false; mkTok 44 "//" 14 13 true; mkTok 42 "u" 15 0 false; mkTok 40 "," 15 1 false; mkTok 12 "char[" 15 3 false; mkTok 30 "0123456789" 15 8 false; mkTok 13 "]" 15 19 false; mkTok 42 "matchKey" 16 4 false; mkTok 43 "`{ , @leftpad}`" 17 4 false; mkTok 40 "," 17 19 false; mkTok 3 "}" 17 21 false; mkTok 0 "<EOF>" 18 0 false] (mkPacket (mkPtok 35 "packet" 1 2 0) (Some (mkPtok 3 "}" 17 21 40)) [(DPacket (mkPacketDef (mkSpan (mkPtok 35 "packet" 1 2 0) (mkPtok 3 "}" 7 8 9)) None (mkPtok 35 "packet" 1 2 0) (mkPtok 42 "asx" 2 0 1) (mkPtok 2 "{" 3 0 2) [(mkFieldWithAttr (mkSpan (mkPtok 22 "u32" 6 0 5) (mkPtok 40 "," 7 7 8)) [] (MetaField (mkSpan (mkPtok 22 "u32" 6 0 5) (mkPtok 40 "," 7 7 8)) None (mkMetaDecl (mkSpan (mkPtok 22 "u32" 6 0 5) (mkPtok 40 "," 7 7 8)) (TyBasic (mkSpan (mkPtok 22 "u32" 6 0 5) (mkPtok 22 "u32" 6 0 5)) (mkBasicType (mkSpan (mkPtok 22 "u32" 6 0 5) (mkPtok 22 "u32" 6 0 5)) (mkPtok 22 "u32" 6 0 5))) (mkPtok 42 "stringy" 6 4 6) (Some (mkPtok 43 (string_of_bytes [96; 230; 182; 136; 230; 129; 175; 231; 177; 187; 229; 158; 139; 96]%N) 7 0 7)) (mkPtok 40 "," 7 7 8))))] (mkPtok 3 "}" 7 8 9))); (DMeta (mkMetaDef (mkSpan (mkPtok 37 "MetaData" 7 10 10) (mkPtok 3 "}" 17 21 40)) (mkPtok 37 "MetaData" 7 10 10) (mkPtok 42 "A" 8 4 11) (mkPtok 2 "{" 8 6 12) [(MIDecl (mkMetaDecl (mkSpan (mkPtok 15 "string" 8 7 13) (mkPtok 40 "," 8 17 15)) (TyDynamic (mkSpan (mkPtok 15 "string" 8 7 13) (mkPtok 15 "string" 8 7 13)) (mkDynamicString (mkSpan (mkPtok 15 "string" 8 7 13) (mkPtok 15 "string" 8 7 13)) (mkPtok 15 "string" 8 7 13))) (mkPtok 42 "_x" 8 15 14) None (mkPtok 40 "," 8 17 15))); (MIRef (mkRefMetaDecl (mkSpan (mkPtok 42 "zchar" 8 19 16) (mkPtok 40 "," 11 0 21)) (mkPtok 42 "zchar" 8 19 16) (mkPtok 42 "Header" 8 25 17) (Some (mkPtok 43 "`a\`" 8 32 18)) (mkPtok 40 "," 11 0 21))); (MIDecl (mkMetaDecl (mkSpan (mkPtok 16 "char[]" 11 2 22) (mkPtok 40 "," 12 0 24)) (TyDynamic (mkSpan (mkPtok 16 "char[]" 11 2 22) (mkPtok 16 "char[]" 11 2 22)) (mkDynamicString (mkSpan (mkPtok 16 "char[]" 11 2 22) (mkPtok 16 "char[]" 11 2 22)) (mkPtok 16 "char[]" 11 2 22))) (mkPtok 42 "MetaDataX" 11 9 23) None (mkPtok 40 "," 12 0 24))); (MIDecl (mkMetaDecl (mkSpan (mkPtok 14 "zchar[" 12 1 25) (mkPtok 40 "," 14 4 29)) (TyFixed (mkSpan (mkPtok 14 "zchar[" 12 1 25) (mkPtok 13 "]" 12 10 27)) (mkFixedString (mkSpan (mkPtok 14 "zchar[" 12 1 25) (mkPtok 13 "]" 12 10 27)) (mkPtok 14 "zchar[" 12 1 25) (mkPtok 30 "1" 12 8 26) (mkPtok 13 "]" 12 10 27))) (mkPtok 42 "matchKey" 13 4 28) None (mkPtok 40 "," 14 4 29))); (MIDecl (mkMetaDecl (mkSpan (mkPtok 16 "char[]" 14 6 30) (mkPtok 40 "," 15 1 33)) (TyDynamic (mkSpan (mkPtok 16 "char[]" 14 6 30) (mkPtok 16 "char[]" 14 6 30)) (mkDynamicString (mkSpan (mkPtok 16 "char[]" 14 6 30) (mkPtok 16 "char[]" 14 6 30)) (mkPtok 16 "char[]" 14 6 30))) (mkPtok 42 "u" 15 0 32) None (mkPtok 40 "," 15 1 33))); (MIDecl (mkMetaDecl (mkSpan (mkPtok 12 "char[" 15 3 34) (mkPtok 40 "," 17 19 39)) (TyFixed (mkSpan (mkPtok 12 "char[" 15 3 34) (mkPtok 13 "]" 15 19 36)) (mkFixedString (mkSpan (mkPtok 12 "char[" 15 3 34) (mkPtok 13 "]" 15 19 36)) (mkPtok 12 "char[" 15 3 34) (mkPtok 30 "0123456789" 15 8 35) (mkPtok 13 "]" 15 19 36))) (mkPtok 42 "matchKey" 16 4 37) (Some (mkPtok 43 "`{ , @leftpad}`" 17 4 38)) (mkPtok 40 "," 17 19 39)))] (mkPtok 3 "}" 17 21 40)))])).
-Eval vm_compute in ("<<<M2365>>>" ++ check (runes_of_ascii "root
-    packet
-Packet
+Eval vm_compute in ("<<<M2237>>>" ++ check (runes_of_ascii "options{
+leftPad
+    =65535
+;
+a1 = true ; packetx=  '\x00' packetx ;
+=  """ ++ [28040; 24687]%N ++ runes_of_ascii """MetaDataX= // " ++ [27880; 37322]%N ++ runes_of_ascii "
+false }root // c
+packet // packet A { u8 x, }
+Pad { repeat
+u8 Header
+// packet A { u8 x, }
+//	t
+`{ , }`
+// a // b
+//x
+, }
+")).
+Eval vm_compute in ("<<<M2269>>>" ++ check (runes_of_ascii "options{
+leftPad
+    =65535
+;
+a1 = true ; packetx=  '\x00' ; packetx
+=  """ ++ [28040; 24687]%N ++ runes_of_ascii """MetaDataX=")).
+Eval vm_compute in ("<<<M2301>>>" ++ check (runes_of_ascii "options{
+leftPad
+    =65535
+;
+a1 = true ; packetx=  '\x00' ; packetx
+=  """ ++ [28040; 24687]%N ++ runes_of_ascii """MetaDataX= // " ++ [27880; 37322]%N ++ runes_of_ascii "
+false }root // c
+packet // packet A { u8 x, }
+Pad { repeat
+u8 u8 Header
+// packet A { u8 x, }
+//	t
+`{ , }`
+// a // b
+//x
+, }
+")).
+Eval vm_compute in ("<<<M2333>>>" ++ check (runes_of_ascii "options{
+leftPad
+    =65535
+;
+a1 = true ; packetx=  '\x00' ; " ++ [233]%N ++ runes_of_ascii "packetx
+=  """ ++ [28040; 24687]%N ++ runes_of_ascii """MetaDataX= // " ++ [27880; 37322]%N ++ runes_of_ascii "
+false }root // c
+packet // packet A { u8 x, }
+Pad { repeat
+u8 Header
+// packet A { u8 x, }
+//	t
+`{ , }`
+// a // b
+//x
+, }
+")).
+Eval vm_compute in ("<<<M2365>>>" ++ check (runes_of_ascii "
+packet float
 {")).
-Eval vm_compute in ("<<<M2397>>>" ++ check (runes_of_ascii "root
-    packet
-Packet
-{ // trailing space 
-matchKey `tab	here` % ,}")).
-Eval vm_compute in ("<<<M2429>>>" ++ check (runes_of_ascii "options{ falsey // a // b
-=
-    '0' options } { repeatCount =
-true ; string_// a // b
-=
-// c
-// " ++ [27880; 37322]%N ++ runes_of_ascii "
-int64
-// trailing space 
-/// triple
-; } // @lengthOf(")).
-Eval vm_compute in ("<<<M2461>>>" ++ check (runes_of_ascii "options{ falsey // a // b
-=
-    '0' } options { repeatCount =
-true")).
-Eval vm_compute in ("<<<M2493>>>" ++ check (runes_of_ascii "options{ falsey // a // b
-\ =
-    '0' } options { repeatCount =
-true ; string_// a // b
-=
-// c
-// " ++ [27880; 37322]%N ++ runes_of_ascii "
-int64
-// trailing space 
-/// triple
-; } // @lengthOf(")).
-Eval vm_compute in ("<<<M2525>>>" ++ check (runes_of_ascii "options{}packet root
-metadata {
-@lengthOf(x ) float32
-body ``, }
-    MetaData
-Z9_
-    {
-    string string_ , Logon x
-,
-uint32
-    // packet A { u8 x, }
-    Z9_,asx
-_x
-    `tab	here` , }
-")).
-Eval vm_compute in ("<<<M2557>>>" ++ check (runes_of_ascii "options{}root packet
-metadata {
-@lengthOf(x")).
-Eval vm_compute in ("<<<M2589>>>" ++ check (runes_of_ascii "options{}root packet
-metadata {
-@lengthOf(x ) float32
-body ``, }
-    MetaData
-Z9_ Z9_
-    {
-    string string_ , Logon x
-,
-uint32
-    // packet A { u8 x, }
-    Z9_,asx
-_x
-    `tab	here` , }
-")).
-Eval vm_compute in ("<<<M2621>>>" ++ check (runes_of_ascii "options{}root packet
-metadata {
-@lengthOf(x ) float32
-body ``, }
-    MetaData
-Z9_
-    {
-    string string_ , Logon float32
-,
-uint32
-    // packet A { u8 x, }
-    Z9_,asx
-_x
-    `tab	here` , }
-")).
-Eval vm_compute in ("<<<M2653>>>" ++ check (runes_of_ascii "options{}root packet
-metadata {
-@lengthOf(x ) float32
-body ``, }
-    MetaData
-Z9_
-    {
-    string string_ , Logon x
-,
-uint32
-    // packet A { u8 x, }
-    Z9_,asx
-_x
-     , }
-")).
-Eval vm_compute in ("<<<M2685>>>" ++ check (runes_of_ascii "options{}root packet
-'1'metadata {
-@lengthOf(x ) float32
-body ``, }
-    MetaData
-Z9_
-    {
-    string string_ , Logon x
-,
-uint32
-    // packet A { u8 x, }
-    Z9_,asx
-_x
-    `tab	here` , }
-")).
-Eval vm_compute in ("<<<M2717>>>" ++ check (runes_of_ascii "options {
-    falsey=
-""a\\"" = }")).
-Eval vm_compute in ("<<<M2749>>>" ++ check (@nil rune)).
-Eval vm_compute in ("<<<M2781>>>" ++ check (runes_of_ascii "MetaData f32a
-{
-    //	t
-    }root
-    packet tag  { {
+Eval vm_compute in ("<<<M2397>>>" ++ check (runes_of_ascii "
+packet float
+{	@calculatedFrom( """ ++ [233]%N ++ runes_of_ascii "t" ++ [233]%N ++ runes_of_ascii """ )
+@rightPad ( '\x00' )
+    @calculatedFrom( @calculatedFrom( ""x y"" ) string chars  ,
+    // a // b
+    char[0 ]
+    u	@lengthOf( i8i8 ) `{ , }` ,repeat char[] o //x
+`// not a comment`, } // c")).
+Eval vm_compute in ("<<<M2429>>>" ++ check (runes_of_ascii "
+packet float
+{	@calculatedFrom( """ ++ [233]%N ++ runes_of_ascii "t" ++ [233]%N ++ runes_of_ascii """ )
+@rightPad ( '\x00' )
+    @calculatedFrom( ""x y"" ) string chars  ,
+    // a // b
+    MetaData 0 ]
+    u	@lengthOf( i8i8 ) `{ , }` ,repeat char[] o //x
+`// not a comment`, } // c")).
+Eval vm_compute in ("<<<M2461>>>" ++ check (runes_of_ascii "
+packet float
+{	@calculatedFrom( """ ++ [233]%N ++ runes_of_ascii "t" ++ [233]%N ++ runes_of_ascii """ )
+@rightPad ( '\x00' )
+    @calculatedFrom( ""x y"" ) string chars  ,
+    // a // b
+    char[0 ]
+    u	@lengthOf( i8i8 )  ,repeat char[] o //x
+`// not a comment`, } // c")).
+Eval vm_compute in ("<<<T2461>>>" ++ terms [mkTok 35 "packet" 2 0 false; mkTok 42 "float" 2 7 false; mkTok 2 "{" 3 0 false; mkTok 5 "@calculatedFrom(" 3 2 false; mkTok 31 (string_of_bytes [34; 195; 169; 116; 195; 169; 34]%N) 3 19 false; mkTok 6 ")" 3 25 false; mkTok 32 "@rightPad" 4 0 false; mkTok 8 "(" 4 10 false; mkTok 33 "'\x00'" 4 12 false; mkTok 6 ")" 4 19 false; mkTok 5 "@calculatedFrom(" 5 4 false; mkTok 31 """x y""" 5 21 false; mkTok 6 ")" 5 27 false; mkTok 15 "string" 5 29 false; mkTok 42 "chars" 5 36 false; mkTok 40 "," 5 43 false; mkTok 44 "// a // b" 6 4 true; mkTok 12 "char[" 7 4 false; mkTok 30 "0" 7 9 false; mkTok 13 "]" 7 11 false; mkTok 42 "u" 8 4 false; mkTok 7 "@lengthOf(" 8 6 false; mkTok 42 "i8i8" 8 17 false; mkTok 6 ")" 8 22 false; mkTok 40 "," 8 25 false; mkTok 36 "repeat" 8 26 false; mkTok 16 "char[]" 8 33 false; mkTok 42 "o" 8 40 false; mkTok 44 "//x" 8 42 true; mkTok 43 "`// not a comment`" 9 0 false; mkTok 40 "," 9 18 false; mkTok 3 "}" 9 20 false; mkTok 44 "// c" 9 22 true; mkTok 0 "<EOF>" 9 26 false] (mkPacket (mkPtok 35 "packet" 2 0 0) (Some (mkPtok 3 "}" 9 20 31)) [(DPacket (mkPacketDef (mkSpan (mkPtok 35 "packet" 2 0 0) (mkPtok 3 "}" 9 20 31)) None (mkPtok 35 "packet" 2 0 0) (mkPtok 42 "float" 2 7 1) (mkPtok 2 "{" 3 0 2) [(mkFieldWithAttr (mkSpan (mkPtok 5 "@calculatedFrom(" 3 2 3) (mkPtok 40 "," 5 43 15)) [(FACalculatedFrom (mkSpan (mkPtok 5 "@calculatedFrom(" 3 2 3) (mkPtok 6 ")" 3 25 5)) (mkCalculatedFrom (mkSpan (mkPtok 5 "@calculatedFrom(" 3 2 3) (mkPtok 6 ")" 3 25 5)) (mkPtok 5 "@calculatedFrom(" 3 2 3) (mkPtok 31 (string_of_bytes [34; 195; 169; 116; 195; 169; 34]%N) 3 19 4) (mkPtok 6 ")" 3 25 5))); (FAPadding (mkSpan (mkPtok 32 "@rightPad" 4 0 6) (mkPtok 6 ")" 4 19 9)) (mkPaddingAttr (mkSpan (mkPtok 32 "@rightPad" 4 0 6) (mkPtok 6 ")" 4 19 9)) (mkPtok 32 "@rightPad" 4 0 6) (mkPtok 8 "(" 4 10 7) (Some (mkPtok 33 "'\x00'" 4 12 8)) (mkPtok 6 ")" 4 19 9))); (FACalculatedFrom (mkSpan (mkPtok 5 "@calculatedFrom(" 5 4 10) (mkPtok 6 ")" 5 27 12)) (mkCalculatedFrom (mkSpan (mkPtok 5 "@calculatedFrom(" 5 4 10) (mkPtok 6 ")" 5 27 12)) (mkPtok 5 "@calculatedFrom(" 5 4 10) (mkPtok 31 """x y""" 5 21 11) (mkPtok 6 ")" 5 27 12)))] (MetaField (mkSpan (mkPtok 15 "string" 5 29 13) (mkPtok 40 "," 5 43 15)) None (mkMetaDecl (mkSpan (mkPtok 15 "string" 5 29 13) (mkPtok 40 "," 5 43 15)) (TyDynamic (mkSpan (mkPtok 15 "string" 5 29 13) (mkPtok 15 "string" 5 29 13)) (mkDynamicString (mkSpan (mkPtok 15 "string" 5 29 13) (mkPtok 15 "string" 5 29 13)) (mkPtok 15 "string" 5 29 13))) (mkPtok 42 "chars" 5 36 14) None (mkPtok 40 "," 5 43 15)))); (mkFieldWithAttr (mkSpan (mkPtok 12 "char[" 7 4 17) (mkPtok 40 "," 8 25 24)) [] (LengthField (mkSpan (mkPtok 12 "char[" 7 4 17) (mkPtok 40 "," 8 25 24)) (mkLengthFieldDecl (mkSpan (mkPtok 12 "char[" 7 4 17) (mkPtok 40 "," 8 25 24)) (Some (TyFixed (mkSpan (mkPtok 12 "char[" 7 4 17) (mkPtok 13 "]" 7 11 19)) (mkFixedString (mkSpan (mkPtok 12 "char[" 7 4 17) (mkPtok 13 "]" 7 11 19)) (mkPtok 12 "char[" 7 4 17) (mkPtok 30 "0" 7 9 18) (mkPtok 13 "]" 7 11 19)))) (mkPtok 42 "u" 8 4 20) (mkLengthOf (mkSpan (mkPtok 7 "@lengthOf(" 8 6 21) (mkPtok 6 ")" 8 22 23)) (mkPtok 7 "@lengthOf(" 8 6 21) (mkPtok 42 "i8i8" 8 17 22) (mkPtok 6 ")" 8 22 23)) None (mkPtok 40 "," 8 25 24)))); (mkFieldWithAttr (mkSpan (mkPtok 36 "repeat" 8 26 25) (mkPtok 40 "," 9 18 30)) [] (MetaField (mkSpan (mkPtok 36 "repeat" 8 26 25) (mkPtok 40 "," 9 18 30)) (Some (mkPtok 36 "repeat" 8 26 25)) (mkMetaDecl (mkSpan (mkPtok 16 "char[]" 8 33 26) (mkPtok 40 "," 9 18 30)) (TyDynamic (mkSpan (mkPtok 16 "char[]" 8 33 26) (mkPtok 16 "char[]" 8 33 26)) (mkDynamicString (mkSpan (mkPtok 16 "char[]" 8 33 26) (mkPtok 16 "char[]" 8 33 26)) (mkPtok 16 "char[]" 8 33 26))) (mkPtok 42 "o" 8 40 27) (Some (mkPtok 43 "`// not a comment`" 9 0 29)) (mkPtok 40 "," 9 18 30))))] (mkPtok 3 "}" 9 20 31)))])).
+Eval vm_compute in ("<<<M2493>>>" ++ check (runes_of_ascii "
+packet float
+{	@calculatedFrom( """ ++ [233]%N ++ runes_of_ascii "t" ++ [233]%N ++ runes_of_ascii """ )
+@rightPad ( '\x00' )
+    @calculatedFrom( ""x y"" ) string chars  ,
+    // a // b
+    char[0 ]
+    u	@lengthOf( i8i8 ) `{ , }` ,repeat char[] o //x
+`// not a comment`} , // c")).
+Eval vm_compute in ("<<<M2525>>>" ++ check (runes_of_ascii "' ' packet u128{
+    repeat
+    zchar[ 65535 ] u `" ++ [28040; 24687; 31867; 22411]%N ++ runes_of_ascii "` ,// `tick` ""quote"" 'q'
+} packet i64_ {repeatCount
+    `
+` ,	} // " ++ [128512]%N ++ runes_of_ascii " emoji")).
+Eval vm_compute in ("<<<M2557>>>" ++ check (runes_of_ascii "root packet u128{
+    repeat
+    zchar[ 65535  u `" ++ [28040; 24687; 31867; 22411]%N ++ runes_of_ascii "` ,// `tick` ""quote"" 'q'
+} packet i64_ {repeatCount
+    `
+` ,	} // " ++ [128512]%N ++ runes_of_ascii " emoji")).
+Eval vm_compute in ("<<<M2589>>>" ++ check (runes_of_ascii "root packet u128{
+    repeat
+    zchar[ 65535 ] u `" ++ [28040; 24687; 31867; 22411]%N ++ runes_of_ascii "` ,// `tick` ""quote"" 'q'
+} packet { i64_ repeatCount
+    `
+` ,	} // " ++ [128512]%N ++ runes_of_ascii " emoji")).
+Eval vm_compute in ("<<<M2621>>>" ++ check (runes_of_ascii "root packet u128{
+    repeat
+    zchar[ '\x01'65535 ] u `" ++ [28040; 24687; 31867; 22411]%N ++ runes_of_ascii "` ,// `tick` ""quote"" 'q'
+} packet i64_ {repeatCount
+    `
+` ,	} // " ++ [128512]%N ++ runes_of_ascii " emoji")).
+Eval vm_compute in ("<<<M2653>>>" ++ check (runes_of_ascii "
+MetaData
+roots { 
+    BodyLength ,//	t
 }
 ")).
+Eval vm_compute in ("<<<M2685>>>" ++ check (runes_of_ascii "
+MetaData
+roots { int8
+    BodyLength ,//	t
+%}
+")).
+Eval vm_compute in ("<<<M2717>>>" ++ check (runes_of_ascii "options {Packet = false i8i8 = false; leftPad =
+    '\x00'
+    // `tick` ""quote"" 'q'
+    ; o=255  ;
+    // packet A { u8 x, }
+    }")).
+Eval vm_compute in ("<<<M2749>>>" ++ check (runes_of_ascii "options {Packet = ""CRC32""i8i8 = false; leftPad =
+    
+    // `tick` ""quote"" 'q'
+    ; o=255  ;
+    // packet A { u8 x, }
+    }")).
+Eval vm_compute in ("<<<M2781>>>" ++ check (runes_of_ascii "options {Packet = ""CRC32""i8i8 = false; leftPad =
+    '\x00'
+    // `tick` ""quote"" 'q'
+    ; o=255  ;
+    // packet A { u8 x, }
+    uint16")).
 Eval vm_compute in ("<<<M2813>>>" ++ check (runes_of_ascii "
-{
-    options msg_type =
-    float32  }root
-packet Z9_{ char /// triple
-crc @lengthOf(
-options1 ) //
-,} MetaData a1{}
-")).
+packet , { @rightPad (
+    // packet A { u8 x, }
+    ' ' ) repeat u32	A
+,matchKey ,
+    @lengthOf( string_ ) @lengthOf( body )
+    // a // b
+    @lengthOf(float  )	repeat
+int32 u8x
+    // c
+    `tab	here`
+, } // a // b")).
 Eval vm_compute in ("<<<M2845>>>" ++ check (runes_of_ascii "
-options
-    {msg_type =
-    float32  }")).
+packet metadata { @rightPad (
+    // packet A { u8 x, }
+    ' ' ) repeat 	A
+,matchKey ,
+    @lengthOf( string_ ) @lengthOf( body )
+    // a // b
+    @lengthOf(float  )	repeat
+int32 u8x
+    // c
+    `tab	here`
+, } // a // b")).
 Eval vm_compute in ("<<<M2877>>>" ++ check (runes_of_ascii "
-options
-    {msg_type =
-    float32  }root
-packet Z9_{ char /// triple
-crc @lengthOf(
-options1 options1 ) //
-,} MetaData a1{}
-")).
+packet metadata { @rightPad (
+    // packet A { u8 x, }
+    ' ' ) repeat u32	A
+,matchKey ,
+    @lengthOf( ) string_ @lengthOf( body )
+    // a // b
+    @lengthOf(float  )	repeat
+int32 u8x
+    // c
+    `tab	here`
+, } // a // b")).
 Eval vm_compute in ("<<<M2909>>>" ++ check (runes_of_ascii "
+packet metadata { @rightPad (
+    // packet A { u8 x, }
+    ' ' ) repeat u32	A
+,matchKey ,
+    @lengthOf( string_ ) @lengthOf( body )
+    // a // b
+    @lengthOf(")).
+Eval vm_compute in ("<<<M2941>>>" ++ check (runes_of_ascii "
+packet metadata { @rightPad (
+    // packet A { u8 x, }
+    ' ' ) repeat u32	A
+,matchKey ,
+    @lengthOf( string_ ) @lengthOf( body )
+    // a // b
+    @lengthOf(float  )	repeat
+int32 u8x
+    // c
+    `tab	here`
+, } } // a // b")).
+Eval vm_compute in ("<<<M2973>>>" ++ check (runes_of_ascii "packet {x
+string
+zchar , //	t
+}
+")).
+Eval vm_compute in ("<<<M3005>>>" ++ check (runes_of_ascii "packet x? {
+string
+zchar , //	t
+}
+")).
+Eval vm_compute in ("<<<M3037>>>" ++ check (runes_of_ascii "
+MetaData Logon
+{ // c
+root packet
+    Pad {
+    } options
+{
+u
+    =
+    ""CRC32""
+    // " ++ [128512]%N ++ runes_of_ascii " emoji
+    i64_ = u16;
+T =65535 x = ' '
+    ; u128
+= true ; }")).
+Eval vm_compute in ("<<<M3069>>>" ++ check (runes_of_ascii "
+MetaData Logon
+{ // c
+}root packet
+    Pad {
+    } {
 options
-    {msg_type =
-    float32  }root
-packet Z9_{ char /// triple
-crc @lengthOf(
-options1 ) //
-,} MetaData a1 char[}
-")).
-Eval vm_compute in ("<<<M2941>>>" ++ check (@nil rune)).
-Eval vm_compute in ("<<<M2973>>>" ++ check (runes_of_ascii "packet crc{ // " ++ [128512]%N ++ runes_of_ascii " emoji
-repeat string i8i8
-`a\`, , }
-")).
-Eval vm_compute in ("<<<M3005>>>" ++ check (runes_of_ascii "BodyLength packet {} MetaData zchar{ zchar[// @lengthOf(
-42 ]
-    pack , string_
-A , char[]crc , _x trueish ,
-// " ++ [27880; 37322]%N ++ runes_of_ascii "
-// " ++ [128512]%N ++ runes_of_ascii " emoji
-zchar[
-    3 ]	T // trailing space 
-, } packet body
+u
+    =
+    ""CRC32""
+    // " ++ [128512]%N ++ runes_of_ascii " emoji
+    i64_ = u16;
+T =65535 x = ' '
+    ; u128
+= true ; }")).
+Eval vm_compute in ("<<<M3101>>>" ++ check (runes_of_ascii "
+MetaData Logon
+{ // c
+}root packet
+    Pad {
+    } options
 {
-    }
-")).
-Eval vm_compute in ("<<<M3037>>>" ++ check (runes_of_ascii "packet BodyLength {} MetaData zchar")).
-Eval vm_compute in ("<<<M3069>>>" ++ check (runes_of_ascii "packet BodyLength {} MetaData zchar{ zchar[// @lengthOf(
-42 ]
-    pack , string_
-A A , char[]crc , _x trueish ,
-// " ++ [27880; 37322]%N ++ runes_of_ascii "
-// " ++ [128512]%N ++ runes_of_ascii " emoji
-zchar[
-    3 ]	T // trailing space 
-, } packet body
+u
+    =
+    ""CRC32""
+    // " ++ [128512]%N ++ runes_of_ascii " emoji
+    i64_")).
+Eval vm_compute in ("<<<M3133>>>" ++ check (runes_of_ascii "
+MetaData Logon
+{ // c
+}root packet
+    Pad {
+    } options
 {
-    }
-")).
-Eval vm_compute in ("<<<M3101>>>" ++ check (runes_of_ascii "packet BodyLength {} MetaData zchar{ zchar[// @lengthOf(
-42 ]
-    pack , string_
-A , char[]crc , _x [ ,
-// " ++ [27880; 37322]%N ++ runes_of_ascii "
-// " ++ [128512]%N ++ runes_of_ascii " emoji
-zchar[
-    3 ]	T // trailing space 
-, } packet body
+u
+    =
+    ""CRC32""
+    // " ++ [128512]%N ++ runes_of_ascii " emoji
+    i64_ = u16;
+T =65535 x = = ' '
+    ; u128
+= true ; }")).
+Eval vm_compute in ("<<<M3165>>>" ++ check (runes_of_ascii "
+MetaData Logon
+{ // c
+}root packet
+    Pad {
+    } options
 {
-    }
+u
+    =
+    ""CRC32""
+    // " ++ [128512]%N ++ runes_of_ascii " emoji
+    i64_ = u16;
+T =65535 x = ' '
+    ; u128
+= true char[ }")).
+Eval vm_compute in ("<<<M3197>>>" ++ check (@nil rune)).
+Eval vm_compute in ("<<<M3229>>>" ++ check (runes_of_ascii "MetaData body{}
+packet	Packet { x_y_z x_y_z @calculatedFrom(  ""a\\"")// `tick` ""quote"" 'q'
+, }
 ")).
-Eval vm_compute in ("<<<M3133>>>" ++ check (runes_of_ascii "packet BodyLength {} MetaData zchar{ zchar[// @lengthOf(
-42 ]
-    pack , string_
-A , char[]crc , _x trueish ,
-// " ++ [27880; 37322]%N ++ runes_of_ascii "
-// " ++ [128512]%N ++ runes_of_ascii " emoji
-zchar[
-    3 ]	T // trailing space 
-,  packet body
-{
-    }
+Eval vm_compute in ("<<<M3261>>>" ++ check (runes_of_ascii "MetaData body{")).
+Eval vm_compute in ("<<<M3293>>>" ++ check (runes_of_ascii "packet f32a")).
+Eval vm_compute in ("<<<M3325>>>" ++ check (runes_of_ascii "packet f32a {} root packet len {repeat u u // " ++ [128512]%N ++ runes_of_ascii " emoji
+`{ , }` , }
 ")).
-Eval vm_compute in ("<<<M3165>>>" ++ check (runes_of_ascii "packet BodyLength {} MetaData zchar{ zchar[// @lengthOf(
-42 ]
-    pack , string_
-A , char[]crc , _x trueish ,
-// " ++ [27880; 37322]%N ++ runes_of_ascii "
-// " ++ [128512]%N ++ runes_of_ascii " emoji
-zchar[
-    3 ]	T // trailing space 
-, } pa/cket body
-{
-    }
+Eval vm_compute in ("<<<M3357>>>" ++ check (runes_of_ascii "packet f32a {}" ++ [233]%N ++ runes_of_ascii " root packet len {repeat u // " ++ [128512]%N ++ runes_of_ascii " emoji
+`{ , }` , }
 ")).
-Eval vm_compute in ("<<<M3197>>>" ++ check (runes_of_ascii "packet
-string_ {@calculatedFrom( int ) match packetx as f32a {
-    1 :	calculatedFrom , }  ,
-    } packet len
-    //	t
-    { @calculatedFrom( """ ++ [233]%N ++ runes_of_ascii "t" ++ [233]%N ++ runes_of_ascii """ ) body Header , char[] lengthOf  `two words` ,chars{repeat string_ matchKey ,
-    } ,
-    }
-")).
-Eval vm_compute in ("<<<M3229>>>" ++ check (runes_of_ascii "packet
-string_ {@lengthOf( int ) match packetx as f32a 
-    1 :	calculatedFrom , }  ,
-    } packet len
-    //	t
-    { @calculatedFrom( """ ++ [233]%N ++ runes_of_ascii "t" ++ [233]%N ++ runes_of_ascii """ ) body Header , char[] lengthOf  `two words` ,chars{repeat string_ matchKey ,
-    } ,
-    }
-")).
-Eval vm_compute in ("<<<M3261>>>" ++ check (runes_of_ascii "packet
-string_ {@lengthOf( int ) match packetx as f32a {
-    1 :	calculatedFrom , }  }
-    , packet len
-    //	t
-    { @calculatedFrom( """ ++ [233]%N ++ runes_of_ascii "t" ++ [233]%N ++ runes_of_ascii """ ) body Header , char[] lengthOf  `two words` ,chars{repeat string_ matchKey ,
-    } ,
-    }
-")).
-Eval vm_compute in ("<<<M3293>>>" ++ check (runes_of_ascii "packet
-string_ {@lengthOf( int ) match packetx as f32a {
-    1 :	calculatedFrom , }  ,
-    } packet len
-    //	t
-    { @calculatedFrom(")).
-Eval vm_compute in ("<<<M3325>>>" ++ check (runes_of_ascii "packet
-string_ {@lengthOf( int ) match packetx as f32a {
-    1 :	calculatedFrom , }  ,
-    } packet len
-    //	t
-    { @calculatedFrom( """ ++ [233]%N ++ runes_of_ascii "t" ++ [233]%N ++ runes_of_ascii """ ) body Header , char[] lengthOf  `two words` `two words` ,chars{repeat string_ matchKey ,
-    } ,
-    }
-")).
-Eval vm_compute in ("<<<M3357>>>" ++ check (runes_of_ascii "packet
-string_ {@lengthOf( int ) match packetx as f32a {
-    1 :	calculatedFrom , }  ,
-    } packet len
-    //	t
-    { @calculatedFrom( """ ++ [233]%N ++ runes_of_ascii "t" ++ [233]%N ++ runes_of_ascii """ ) body Header , char[] lengthOf  `two words` ,chars{repeat string_ u32 ,
-    } ,
-    }
-")).
-Eval vm_compute in ("<<<M3389>>>" ++ check (runes_of_ascii "packet
-string_ {@lengthOf( int ) match packetx as f32a {
-    1 :	calculatedFrom , }  ,
-    } packet len
-    //	t
-    { @calculatedFrom( """ ++ [233]%N ++ runes_of_ascii "t" ++ [233]%N ++ runes_of_ascii """ ) body Header , char[] lengthOf  `two words` ,chars{repeat '\x01' string_ matchKey ,
-    } ,
-    }
-")).
-Eval vm_compute in ("<<<M3421>>>" ++ check (runes_of_ascii "/// triple
-root
-packet // packet A { u8 x, }
-chars { @lengthOf(charz )
-stringy,  @tag(  0 ) // a // b
-asx
-    As
-@lengthOf(
-// trailing space 
-// trailing space 
-x_y_z {
-repeat i16 charz , } ,	int16  crc ,}
-")).
-Eval vm_compute in ("<<<M3453>>>" ++ check (runes_of_ascii "/// triple
-root
-packet // packet A { u8 x, }
-chars { @lengthOf(charz )
-stringy,  @tag(  0  // a // b
-asx
-    As
-,
-// trailing space 
-// trailing space 
-x_y_z {
-repeat i16 charz , } ,	int16  crc ,}
-")).
-Eval vm_compute in ("<<<M3485>>>" ++ check (runes_of_ascii "/// triple
-root
-packet // packet A { u8 x, }
-chars { @lengthOf(charz )")).
+Eval vm_compute in ("<<<M3389>>>" ++ check (runes_of_ascii "options{ _x=""\" ++ [233]%N ++ runes_of_ascii """;
+    Logon = 10	; Foo= 7;
+i64_= char[]} options { {
+matchKey = ""// no comment"" // a // b
+falsey = string
+; trueish =
+    4294967296
+options1=
+    ""it's"" string_	= true } options {
+    /// triple
+    }")).
+Eval vm_compute in ("<<<M3421>>>" ++ check (runes_of_ascii "options{ u32=""\" ++ [233]%N ++ runes_of_ascii """;
+    Logon = 10	; Foo= 7;
+i64_= char[]} options {
+matchKey = ""// no comment"" // a // b
+falsey = string
+; trueish =
+    4294967296
+options1=
+    ""it's"" string_	= true } options {
+    /// triple
+    }")).
+Eval vm_compute in ("<<<M3453>>>" ++ check (runes_of_ascii "options{ _x=""\" ++ [233]%N ++ runes_of_ascii """i64
+    Logon = 10	; Foo= 7;
+i64_= char[]} options {
+matchKey = ""// no comment"" // a // b
+falsey = string
+; trueish =
+    4294967296
+options1=
+    ""it's"" string_	= true } options {
+    /// triple
+    }")).
+Eval vm_compute in ("<<<M3485>>>" ++ check (runes_of_ascii "options{ _x _x=""\" ++ [233]%N ++ runes_of_ascii """;
+    Logon = 10	; Foo= 7;
+i64_= char[]} options {
+matchKey = ""// no comment"" // a // b
+falsey = string
+; trueish =
+    4294967296
+options1=
+    ""it's"" string_	= true } options {
+    /// triple
+    }")).
 Eval vm_compute in ("<<<M3517>>>" ++ check (runes_of_ascii "asx")).
 Eval vm_compute in ("<<<M3549>>>" ++ check (runes_of_ascii "@leftPadx")).
 Eval vm_compute in ("<<<M3581>>>" ++ check (runes_of_ascii """a\b""")).
@@ -1927,11 +1478,12 @@ Eval vm_compute in ("<<<M3645>>>" ++ check (runes_of_ascii "packet A { char[ x ]
 Eval vm_compute in ("<<<M3677>>>" ++ check (runes_of_ascii "packet A { match k as n { [1,""a"",2] : B, }, }")).
 Eval vm_compute in ("<<<M3709>>>" ++ check (runes_of_ascii "root options { }")).
 Eval vm_compute in ("<<<M3741>>>" ++ check (runes_of_ascii "options { a = 1; } options { a = 1; }")).
-Eval vm_compute in ("<<<M3773>>>" ++ check (runes_of_ascii ".tD Mnu'g/.}>q1p]n9,uB")).
-Eval vm_compute in ("<<<M3805>>>" ++ check (runes_of_ascii "0Z3<4fse<s[m},X2orm*f^!KlnY,b+oEX9$")).
-Eval vm_compute in ("<<<M3837>>>" ++ check (runes_of_ascii "Wn\sz6HV$t=Sr@^8")).
-Eval vm_compute in ("<<<M3869>>>" ++ check (runes_of_ascii "dQR5D*DVQ*OeMIS7pUcyRUV|.FQefis")).
-Eval vm_compute in ("<<<M3901>>>" ++ check (runes_of_ascii "HrbO>")).
-Eval vm_compute in ("<<<M3933>>>" ++ check (runes_of_ascii "dR9[@ LH:""Z5{~?>G<aH!jZz$QbneO8RJdx")).
-Eval vm_compute in ("<<<M3965>>>" ++ check (runes_of_ascii "na~!hvAE`[9m{,.fDyrP~@4%*.vf-wLy ")).
-Eval vm_compute in ("<<<M3997>>>" ++ check (runes_of_ascii "F;!=@\hzu")).
+Eval vm_compute in ("<<<T3741>>>" ++ terms [mkTok 1 "options" 1 0 false; mkTok 2 "{" 1 8 false; mkTok 42 "a" 1 10 false; mkTok 4 "=" 1 12 false; mkTok 30 "1" 1 14 false; mkTok 41 ";" 1 15 false; mkTok 3 "}" 1 17 false; mkTok 1 "options" 1 19 false; mkTok 2 "{" 1 27 false; mkTok 42 "a" 1 29 false; mkTok 4 "=" 1 31 false; mkTok 30 "1" 1 33 false; mkTok 41 ";" 1 34 false; mkTok 3 "}" 1 36 false; mkTok 0 "<EOF>" 1 37 false] (mkPacket (mkPtok 1 "options" 1 0 0) (Some (mkPtok 3 "}" 1 36 13)) [(DOption (mkOptionDef (mkSpan (mkPtok 1 "options" 1 0 0) (mkPtok 3 "}" 1 17 6)) (mkPtok 1 "options" 1 0 0) (mkPtok 2 "{" 1 8 1) [(mkOptionDecl (mkSpan (mkPtok 42 "a" 1 10 2) (mkPtok 41 ";" 1 15 5)) (mkPtok 42 "a" 1 10 2) (mkPtok 4 "=" 1 12 3) (VDigits (mkSpan (mkPtok 30 "1" 1 14 4) (mkPtok 30 "1" 1 14 4)) (mkPtok 30 "1" 1 14 4)) (Some (mkPtok 41 ";" 1 15 5)))] (mkPtok 3 "}" 1 17 6))); (DOption (mkOptionDef (mkSpan (mkPtok 1 "options" 1 19 7) (mkPtok 3 "}" 1 36 13)) (mkPtok 1 "options" 1 19 7) (mkPtok 2 "{" 1 27 8) [(mkOptionDecl (mkSpan (mkPtok 42 "a" 1 29 9) (mkPtok 41 ";" 1 34 12)) (mkPtok 42 "a" 1 29 9) (mkPtok 4 "=" 1 31 10) (VDigits (mkSpan (mkPtok 30 "1" 1 33 11) (mkPtok 30 "1" 1 33 11)) (mkPtok 30 "1" 1 33 11)) (Some (mkPtok 41 ";" 1 34 12)))] (mkPtok 3 "}" 1 36 13)))])).
+Eval vm_compute in ("<<<M3773>>>" ++ check (runes_of_ascii "g7Rqdv\YuAdm-$oJsR72xIs,avV?p}}eSdY<r")).
+Eval vm_compute in ("<<<M3805>>>" ++ check (runes_of_ascii "?ajC}0!|<RZFgbP?Jq5C6ISR,\")).
+Eval vm_compute in ("<<<M3837>>>" ++ check (runes_of_ascii "CyAH[Z:rDIVlWF@!HvN$uY}Hlx+""Qk!v]")).
+Eval vm_compute in ("<<<M3869>>>" ++ check (runes_of_ascii "Zm2Y%CcgJ2;Pdz)yd0oHIFi8")).
+Eval vm_compute in ("<<<M3901>>>" ++ check (runes_of_ascii "0y)|%1MO4I8s$")).
+Eval vm_compute in ("<<<M3933>>>" ++ check (runes_of_ascii "Y@Vj;fUQSY_H3x")).
+Eval vm_compute in ("<<<M3965>>>" ++ check (runes_of_ascii "Y ""a")).
+Eval vm_compute in ("<<<M3997>>>" ++ check (runes_of_ascii "!6L?>$?$$mu-X;P\V~1N9POp6WT""^=)`")).
